@@ -1,5 +1,212 @@
 # Loaded by gen.py (M, T and the file-name constants are injected).  One block per property.
 
+# =============================================================================================== C01 / C17 (hardening)
+def _twin_edits(twin, only=None):
+    """Edits (file, old, new) of a confirmed twin patch: one per hunk, old = context + removed lines, new = context + added."""
+    import os as _os
+    here = _os.path.dirname(_os.path.abspath(__file__))
+    out, cur, f = [], None, None
+    for line in open(_os.path.join(here, '..', 'twins', twin, 'patch.diff'), encoding='utf-8').read().split('\n'):
+        if line.startswith('+++ b/'):
+            f = line[6:]
+        elif line.startswith('@@'):
+            cur = [f, [], []]
+            out.append(cur)
+        elif cur is not None and line[:1] in (' ', '-', '+') and not line.startswith(('--- ', '+++ ')):
+            if line[0] in ' -':
+                cur[1].append(line[1:])
+            if line[0] in ' +':
+                cur[2].append(line[1:])
+        elif line.startswith('diff '):
+            cur = None
+    eds = [(f, '\n'.join(o) + '\n', '\n'.join(n) + '\n') for f, o, n in out if only is None or f in only]
+    return eds
+
+
+def TW(prop, id, twin, only=None):
+    eds = _twin_edits(twin, only)
+    T(prop, id, eds[0][0], eds[0][1], eds[0][2], more=eds[1:])
+
+
+_VERIFY_LOOP_TAIL = """                issues = signature_issues | subkey_issues
+                if issues and issues.causes_signature_verify_to_fail:
+                    sigv.add_sigsubj(sig, self, subj, issues)
+                else:
+                    verified = self._key.verify(sig.hashdata(subj), sig.__sig__, getattr(hashes, sig.hash_algorithm.name)())
+                    if verified is NotImplemented:
+                        raise NotImplementedError(sig.key_algorithm)
+
+                    sigv.add_sigsubj(sig, self, subj, SecurityIssues.WrongSig if not verified else SecurityIssues.OK)
+"""
+_PRED = "        return bool(self & (\n            SecurityIssues.WrongSig\n            | SecurityIssues.Expired\n            | SecurityIssues.Disabled\n            | SecurityIssues.Invalid\n            | SecurityIssues.NoSelfSignature\n        ))"
+_GOOD = "        yield from (\n            sigsub\n            for sigsub in self._subjects\n            if not sigsub.issues\n            or (sigsub.issues and not sigsub.issues.causes_signature_verify_to_fail)\n        )"
+_BAD = "        yield from (\n            sigsub\n            for sigsub in self._subjects\n            if sigsub.issues and sigsub.issues.causes_signature_verify_to_fail\n        )"
+_BOOL = "        return all(\n            sigsub.issues is SecurityIssues.OK\n            or (sigsub.issues and not sigsub.issues.causes_signature_verify_to_fail)\n            for sigsub in self._subjects\n        )"
+_REC = "        self._subjects.append(self._sigsubj(issues, by, signature, subject))"
+_WRONGSIG_REC = "                    sigv.add_sigsubj(sig, self, subj, SecurityIssues.WrongSig if not verified else SecurityIssues.OK)"
+
+# ---- the confirmed twins of both properties, hunk by hunk (families: extend(generator) / append, if-else restructuring,
+#      temporaries, loops instead of comprehensions / all(), helper extraction, keyword construction, guard inversion)
+TW('C01', 'twin-C01-ref1', 'C01-ref1')
+TW('C01', 'twin-C01-ref2', 'C01-ref2')
+TW('C01', 'twin-C01-ref3', 'C01-ref3')
+TW('C01', 'twin-C01-ref4', 'C01-ref4')
+TW('C01', 'twin-C17-ref2', 'C17-ref2')
+TW('C17', 'twin-C01-ref2', 'C01-ref2')
+TW('C17', 'twin-C01-ref4', 'C01-ref4')
+TW('C17', 'twin-C17-ref1', 'C17-ref1')
+TW('C17', 'twin-C17-ref2', 'C17-ref2')
+TW('C17', 'twin-C17-ref3', 'C17-ref3')
+TW('C17', 'twin-C17-ref4', 'C17-ref4')
+
+# ---- C01.1: key list built with insert() and hashed in one loop (interp: list.insert)
+_REVOC = "            if self.type == SignatureType.SubkeyRevocation:\n                # hash the primary key first if this is a Subkey Revocation signature\n                _s = subject.parent.hashdata\n                _data += b'\\x99' + self.int_to_bytes(len(_s), 2) + _s\n\n            _s = subject.hashdata\n            _data += b'\\x99' + self.int_to_bytes(len(_s), 2) + _s\n"
+T('C01', 'twin-revocation-key-list', PGP, _REVOC,
+  "            hashed_keys = [subject]\n            if self.type == SignatureType.SubkeyRevocation:\n                hashed_keys.insert(0, subject.parent)\n\n            for key in hashed_keys:\n                _s = key.hashdata\n                _data += b'\\x99' + self.int_to_bytes(len(_s), 2) + _s\n")
+M('C01', 'revocation-key-list-order', PGP, _REVOC,
+  "            hashed_keys = [subject]\n            if self.type == SignatureType.SubkeyRevocation:\n                hashed_keys.insert(1, subject.parent)\n\n            for key in hashed_keys:\n                _s = key.hashdata\n                _data += b'\\x99' + self.int_to_bytes(len(_s), 2) + _s\n", 'C01.1')
+# ---- C01.2 (loop pair by binding, records by position/keyword, NotImplemented decided on path facts)
+T('C01', 'twin-extend-genexp', PGP, "                sspairs += [ (sig, subject) for sig in _filter_sigs(subject.__sig__) ]",
+  "                sspairs.extend((sig, subject) for sig in _filter_sigs(subject.__sig__))")
+T('C01', 'twin-outcome-ifelse', PGP, _WRONGSIG_REC,
+  "                    if verified:\n                        outcome = SecurityIssues.OK\n                    else:\n                        outcome = SecurityIssues.WrongSig\n                    sigv.add_sigsubj(sig, self, subj, outcome)")
+T('C01', 'twin-record-call-keywords', PGP, _WRONGSIG_REC,
+  "                    sigv.add_sigsubj(signature=sig, by=self, subject=subj, issues=SecurityIssues.WrongSig if not verified else SecurityIssues.OK)")
+T('C01', 'twin-ni-reversed', PGP, "                    if verified is NotImplemented:\n                        raise NotImplementedError(sig.key_algorithm)\n\n" + _WRONGSIG_REC,
+  "                    if NotImplemented is not verified:\n                        sigv.add_sigsubj(sig, self, subj, SecurityIssues.WrongSig if not verified else SecurityIssues.OK)\n                    else:\n                        raise NotImplementedError(sig.key_algorithm)")
+T('C01', 'twin-loop-names', PGP, "        for sig, subj in sspairs:\n            if self.fingerprint.keyid != sig.signer and sig.signer in self.subkeys:\n                sigv &= self.subkeys[sig.signer].verify(subj, sig)\n",
+  "        for pair in sspairs:\n            sig, subj = pair\n            if self.fingerprint.keyid != sig.signer and sig.signer in self.subkeys:\n                sigv &= self.subkeys[sig.signer].verify(subj, signature=sig)\n")
+M('C01', 'record-outer-subject', PGP, _WRONGSIG_REC,
+  "                    sigv.add_sigsubj(sig, self, subject, SecurityIssues.WrongSig if not verified else SecurityIssues.OK)", 'C01.2')
+M('C01', 'ni-compared-with-none', PGP, "                    if verified is NotImplemented:", "                    if verified is None:", 'C01.2')
+M('C01', 'ni-polarity', PGP, "                    if verified is NotImplemented:", "                    if verified is not NotImplemented:", 'C01.2')
+M('C01', 'delegate-outer-signature', PGP, "sigv &= self.subkeys[sig.signer].verify(subj, sig)", "sigv &= self.subkeys[sig.signer].verify(subj, signature)", 'C01.2')
+M('C01', 'delegate-keyword-swapped', PGP, "sigv &= self.subkeys[sig.signer].verify(subj, sig)", "sigv &= self.subkeys[sig.signer].verify(subject=sig, signature=subj)", 'C01.2')
+M('C01', 'outcome-ifelse-swapped', PGP, _WRONGSIG_REC,
+  "                    if verified:\n                        outcome = SecurityIssues.WrongSig\n                    else:\n                        outcome = SecurityIssues.OK\n                    sigv.add_sigsubj(sig, self, subj, outcome)", 'C01.2')
+# ---- C01.3 (interpreter paths; caller values by parameter position)
+_DSA_VERIFY = "        try:\n            self.__pubkey__().verify(sigbytes, subj, hash_alg)\n        except InvalidSignature:\n            return False\n        return True"
+T('C01', 'twin-verify-ok-flag', FL, _DSA_VERIFY,
+  "        ok = True\n        try:\n            self.__pubkey__().verify(sigbytes, subj, hash_alg)\n        except InvalidSignature:\n            ok = False\n        return ok")
+T('C01', 'twin-verify-param-names', FL, "    def verify(self, subj, sigbytes, hash_alg):\n        try:\n            self.__pubkey__().verify(sigbytes, subj, ec.ECDSA(hash_alg))",
+  "    def verify(self, data, sig, halg):\n        try:\n            self.__pubkey__().verify(sig, data, ec.ECDSA(halg))")
+M('C01', 'ok-flag-never-cleared', FL, _DSA_VERIFY,
+  "        ok = True\n        try:\n            self.__pubkey__().verify(sigbytes, subj, hash_alg)\n        except InvalidSignature:\n            pass\n        return ok", 'C01.3')
+M('C01', 'ok-flag-set-before-call', FL, _DSA_VERIFY,
+  "        ok = False\n        try:\n            ok = True\n            self.__pubkey__().verify(sigbytes, subj, hash_alg)\n        except InvalidSignature:\n            pass\n        return ok", 'C01.3')
+M('C01', 'ecdsa-args-swapped', FL, "            self.__pubkey__().verify(sigbytes, subj, ec.ECDSA(hash_alg))", "            self.__pubkey__().verify(subj, sigbytes, ec.ECDSA(hash_alg))", 'C01.3')
+M('C01', 'eddsa-fixed-prehash', FL, "        digest = hashes.Hash(hash_alg, backend=default_backend())\n        digest.update(subj)\n        subj = digest.finalize()\n        try:",
+  "        digest = hashes.Hash(hashes.SHA256(), backend=default_backend())\n        digest.update(subj)\n        subj = digest.finalize()\n        try:", 'C01.3')
+# ---- C01.4 / C17.4 (record model)
+T('C01', 'twin-record-keywords', TY, _REC, "        self._subjects.append(self._sigsubj(issues=issues, by=by, signature=signature, subject=subject))")
+T('C01', 'twin-record-temp', TY, _REC, "        entry = self._sigsubj(subject=subject, signature=signature, by=by, issues=issues)\n        self._subjects.append(entry)")
+M('C01', 'record-fields-swapped', TY, _REC, "        self._subjects.append(self._sigsubj(issues, by, subject, signature))", 'C01.4')
+M('C01', 'record-keywords-swapped', TY, _REC, "        self._subjects.append(self._sigsubj(issues=issues, by=by, signature=subject, subject=signature))", 'C01.4')
+M('C01', 'default-advisory-only', TY, "            issues = SecurityIssues(0xFF)", "            issues = SecurityIssues.InsecureCurve", 'C01.4')
+M('C17', 'default-revoked-only', TY, "            issues = SecurityIssues(0xFF)", "            issues = SecurityIssues.Revoked", 'C17.4')
+M('C17', 'record-verdict-dropped', TY, _REC, "        self._subjects.append(self._sigsubj(SecurityIssues.OK if issues is None else issues, by, signature, subject))", 'C17.4',
+  more=[(TY, "        if issues is None:\n            from .constants import SecurityIssues\n            issues = SecurityIssues(0xFF)\n", "        from .constants import SecurityIssues\n")])
+# ---- C17.1 (truth table of the predicate)
+T('C17', 'twin-pred-loop', CO, _PRED,
+  "        for flag in (SecurityIssues.WrongSig, SecurityIssues.Expired, SecurityIssues.Disabled, SecurityIssues.Invalid, SecurityIssues.NoSelfSignature):\n            if flag in self:\n                return True\n        return False")
+T('C17', 'twin-pred-or-chain', CO, _PRED,
+  "        return (SecurityIssues.WrongSig in self or SecurityIssues.Expired in self or SecurityIssues.Disabled in self\n                or SecurityIssues.Invalid in self or SecurityIssues.NoSelfSignature in self)")
+T('C17', 'twin-pred-int-mask', CO, _PRED, "        return (self.value & 0x417) > 0")
+T('C17', 'twin-pred-not-disjoint', CO, _PRED,
+  "        failing = SecurityIssues.WrongSig | SecurityIssues.Expired | SecurityIssues.Disabled | SecurityIssues.Invalid | SecurityIssues.NoSelfSignature\n        return not (self & failing) == SecurityIssues(0)")
+M('C17', 'pred-any-lacks-invalid', CO, _PRED,
+  "        return any(f in self for f in (SecurityIssues.WrongSig, SecurityIssues.Expired, SecurityIssues.Disabled, SecurityIssues.NoSelfSignature))", 'C17.1')
+M('C17', 'pred-all-of', CO, _PRED,
+  "        return all(f in self for f in (SecurityIssues.WrongSig, SecurityIssues.Expired, SecurityIssues.Disabled, SecurityIssues.Invalid, SecurityIssues.NoSelfSignature))", 'C17.1')
+M('C17', 'pred-combined-mask-in', CO, _PRED,
+  "        return (SecurityIssues.WrongSig | SecurityIssues.Expired | SecurityIssues.Disabled | SecurityIssues.Invalid | SecurityIssues.NoSelfSignature) in self", 'C17.1')
+M('C17', 'pred-int-mask-lacks-noselfsig', CO, _PRED, "        return (self.value & 0x17) > 0", 'C17.1')
+M('C17', 'pred-loop-else-true', CO, _PRED,
+  "        for flag in (SecurityIssues.WrongSig, SecurityIssues.Expired, SecurityIssues.Disabled, SecurityIssues.Invalid, SecurityIssues.NoSelfSignature):\n            if flag not in self:\n                return False\n        return True", 'C17.1')
+M('C17', 'pred-advisory-pair', CO, _PRED,
+  "        if SecurityIssues.InsecureCurve in self and SecurityIssues.BrokenAsymmetricFunc in self:\n            return True\n" + _PRED, 'C17.1')
+# ---- C17.2 (selectors decided per truth-table row, loop or comprehension)
+T('C17', 'twin-good-loop-continue', TY, _GOOD,
+  "        for sigsub in self._subjects:\n            verdict = sigsub.issues\n            if verdict and verdict.causes_signature_verify_to_fail:\n                continue\n            yield sigsub")
+T('C17', 'twin-bad-index', TY, _BAD,
+  "        yield from (sigsub for sigsub in self._subjects if sigsub[0] and sigsub[0].causes_signature_verify_to_fail)")
+T('C17', 'twin-bool-not-any', TY, _BOOL,
+  "        return not any(\n            sigsub.issues is not SecurityIssues.OK\n            and not (sigsub.issues and not sigsub.issues.causes_signature_verify_to_fail)\n            for sigsub in self._subjects\n        )")
+T('C17', 'twin-and-extend', TY, "        self._subjects += other._subjects\n        return self", "        self._subjects.extend(other._subjects)\n        return self")
+M('C17', 'good-loop-polarity', TY, _GOOD,
+  "        for sigsub in self._subjects:\n            verdict = sigsub.issues\n            if not verdict or verdict.causes_signature_verify_to_fail:\n                yield sigsub", 'C17.2')
+M('C17', 'bad-loop-continue-wrong', TY, _BAD,
+  "        for sigsub in self._subjects:\n            verdict = sigsub.issues\n            if not verdict:\n                continue\n            yield sigsub", 'C17.2')
+M('C17', 'bool-loop-advisory-fails', TY, _BOOL,
+  "        for sigsub in self._subjects:\n            if sigsub.issues is SecurityIssues.OK:\n                continue\n            return False\n        return True", 'C17.2')
+M('C17', 'bool-loop-first-decides', TY, _BOOL,
+  "        for sigsub in self._subjects:\n            if sigsub.issues is SecurityIssues.OK or not sigsub.issues.causes_signature_verify_to_fail:\n                return True\n        return False", 'C17.2')
+M('C17', 'bool-ignores-predicate', TY, _BOOL,
+  "        for sigsub in self._subjects:\n            if sigsub.issues is None:\n                return False\n        return True", 'C17.2')
+M('C17', 'bad-skips-first-record', TY, _BAD,
+  "        for sigsub in self._subjects[1:]:\n            if sigsub.issues and sigsub.issues.causes_signature_verify_to_fail:\n                yield sigsub", 'C17.2')
+M('C17', 'and-replaces', TY, "        self._subjects += other._subjects\n        return self", "        self._subjects = other._subjects\n        return self", 'C17.2')
+M('C17', 'and-returns-other', TY, "        self._subjects += other._subjects\n        return self", "        self._subjects += other._subjects\n        return other", 'C17.2')
+M('C17', 'and-extends-self', TY, "        self._subjects += other._subjects\n        return self", "        self._subjects.extend(self._subjects)\n        return self", 'C17.2')
+# ---- C17.3 / C17.4 / C17.5 (PGPKey.verify rows; issue set as a flag expression over its sources)
+_VERIFY_LOOP_TAIL_CONTINUE = """                issues = signature_issues | subkey_issues
+                if issues and issues.causes_signature_verify_to_fail:
+                    sigv.add_sigsubj(sig, self, subj, issues)
+                    continue
+
+                verified = self._key.verify(sig.hashdata(subj), sig.__sig__, getattr(hashes, sig.hash_algorithm.name)())
+                if verified is NotImplemented:
+                    raise NotImplementedError(sig.key_algorithm)
+
+                sigv.add_sigsubj(sig, self, subj, SecurityIssues.WrongSig if not verified else SecurityIssues.OK)
+"""
+T('C17', 'twin-guard-continue', PGP, _VERIFY_LOOP_TAIL, _VERIFY_LOOP_TAIL_CONTINUE)
+T('C17', 'twin-issues-order', PGP, "                issues = signature_issues | subkey_issues", "                issues = subkey_issues | signature_issues")
+T('C17', 'twin-issues-names', PGP, "                issues = signature_issues | subkey_issues\n                if issues and issues.causes_signature_verify_to_fail:\n                    sigv.add_sigsubj(sig, self, subj, issues)",
+  "                found = signature_issues | subkey_issues\n                if found.causes_signature_verify_to_fail:\n                    sigv.add_sigsubj(sig, self, subj, found)")
+T('C17', 'twin-mask-literal', PGP, "                    signature_issues &= ~SecurityIssues.HashFunctionNotCollisionResistant",
+  "                    signature_issues = signature_issues & ~SecurityIssues(1 << 6)")
+T('C17', 'twin-record-once-after', PGP, _VERIFY_LOOP_TAIL,
+  "                issues = signature_issues | subkey_issues\n                if issues and issues.causes_signature_verify_to_fail:\n                    outcome = issues\n                else:\n                    verified = self._key.verify(sig.hashdata(subj), sig.__sig__, getattr(hashes, sig.hash_algorithm.name)())\n                    if verified is NotImplemented:\n                        raise NotImplementedError(sig.key_algorithm)\n\n                    outcome = SecurityIssues.WrongSig if not verified else SecurityIssues.OK\n                sigv.add_sigsubj(sig, self, subj, outcome)\n")
+M('C17', 'continue-skips-record', PGP, "                    sigv.add_sigsubj(sig, self, subj, issues)\n", "                    continue\n", 'C17.3')
+M('C17', 'branch-on-primitives-only', PGP, "                if issues and issues.causes_signature_verify_to_fail:",
+  "                if signature_issues and signature_issues.causes_signature_verify_to_fail:", 'C17')
+M('C17', 'disqualified-records-primitives', PGP, "                    sigv.add_sigsubj(sig, self, subj, issues)\n", "                    sigv.add_sigsubj(sig, self, subj, signature_issues)\n", 'C17.4')
+M('C17', 'disqualified-records-outer-subject', PGP, "                    sigv.add_sigsubj(sig, self, subj, issues)\n", "                    sigv.add_sigsubj(sig, self, subject, issues)\n", 'C17.4')
+M('C17', 'branch-or', PGP, "                if issues and issues.causes_signature_verify_to_fail:", "                if issues or issues.causes_signature_verify_to_fail:", 'C17.4')
+M('C17', 'guard-continue-dropped', PGP, _VERIFY_LOOP_TAIL, _VERIFY_LOOP_TAIL_CONTINUE.replace("                    continue\n", ""), 'C17')
+M('C17', 'mask-expired-when-self-verifying', PGP, "                    signature_issues &= ~SecurityIssues.HashFunctionNotCollisionResistant",
+  "                    subkey_issues &= ~SecurityIssues.Expired", 'C17.5')
+M('C17', 'mask-all-hash-bits', PGP, "                    signature_issues &= ~SecurityIssues.HashFunctionNotCollisionResistant",
+  "                    signature_issues &= ~(SecurityIssues.HashFunctionNotCollisionResistant | SecurityIssues.NoSelfSignature)", 'C17.5')
+M('C17', 'issues-only-soundness', PGP, "                issues = signature_issues | subkey_issues", "                issues = subkey_issues | subkey_issues", 'C17.5')
+M('C17', 'issues-xor', PGP, "                issues = signature_issues | subkey_issues", "                issues = signature_issues ^ subkey_issues", 'C17')
+# ---- further spellings of the same functions (generalisation guards)
+T('C17', 'twin-pred-len-list', CO, _PRED,
+  "        hits = [f for f in (SecurityIssues.WrongSig, SecurityIssues.Expired, SecurityIssues.Disabled, SecurityIssues.Invalid, SecurityIssues.NoSelfSignature) if f & self]\n        return len(hits) > 0")
+T('C17', 'twin-pred-mask-loop', CO, _PRED,
+  "        mask = 0\n        for f in (SecurityIssues.WrongSig, SecurityIssues.Expired, SecurityIssues.Disabled, SecurityIssues.Invalid, SecurityIssues.NoSelfSignature):\n            mask |= f\n        return bool(self & mask)")
+T('C17', 'twin-pred-value-ne', CO, _PRED,
+  "        failing = SecurityIssues.WrongSig | SecurityIssues.Expired | SecurityIssues.Disabled | SecurityIssues.Invalid | SecurityIssues.NoSelfSignature\n        return (self & failing).value != 0")
+T('C17', 'twin-good-returns-iter', TY, _GOOD,
+  "        return iter([entry for entry in self._subjects if not (entry.issues and entry.issues.causes_signature_verify_to_fail)])")
+T('C17', 'twin-default-ifexp', TY, "        if issues is None:\n            from .constants import SecurityIssues\n            issues = SecurityIssues(0xFF)\n" + _REC,
+  "        from .constants import SecurityIssues\n        verdict = SecurityIssues(0xFF) if issues is None else issues\n        self._subjects.append(self._sigsubj(verdict, by, signature, subject))")
+T('C17', 'twin-fail-flag-hoisted', PGP, "                if issues and issues.causes_signature_verify_to_fail:\n                    sigv.add_sigsubj(sig, self, subj, issues)",
+  "                disqualified = bool(issues) and issues.causes_signature_verify_to_fail\n                if disqualified:\n                    sigv.add_sigsubj(sig, self, subj, issues)")
+T('C01', 'twin-key-alias', PGP, "                    verified = self._key.verify(sig.hashdata(subj), sig.__sig__, getattr(hashes, sig.hash_algorithm.name)())",
+  "                    keypkt = self._key\n                    verified = keypkt.verify(sig.hashdata(subj), sig.__sig__, getattr(hashes, sig.hash_algorithm.name)())")
+T('C01', 'twin-subkey-alias', PGP, "                sigv &= self.subkeys[sig.signer].verify(subj, sig)",
+  "                signing_subkey = self.subkeys[sig.signer]\n                sigv &= signing_subkey.verify(subj, sig)")
+_EXPIRED = "        expires = self.expires_at\n        if expires is not None:\n            return expires <= datetime.now(timezone.utc)\n\n        return False"
+T('C17', 'twin-expired-now-first', PGP, "            return expires <= datetime.now(timezone.utc)", "            now = datetime.now(timezone.utc)\n            return now >= expires")
+T('C17', 'twin-expired-guard-first', PGP, _EXPIRED,
+  "        deadline = self.expires_at\n        if deadline is None:\n            return False\n\n        return not deadline > datetime.now(timezone.utc)")
+M('C17', 'expired-inverted', PGP, "            return expires <= datetime.now(timezone.utc)", "            return expires >= datetime.now(timezone.utc)", 'C17.5')
+M('C17', 'expired-vs-created', PGP, "            return expires <= datetime.now(timezone.utc)", "            return expires <= self.created", 'C17.5')
+M('C17', 'expired-without-expiry', PGP, _EXPIRED,
+  "        expires = self.expires_at\n        if expires is None:\n            return self.created <= datetime.now(timezone.utc)\n\n        return expires <= datetime.now(timezone.utc)", 'C17.5')
+
 # =============================================================================================== C12
 M('C12', 'preload-i-plus-1', FL, "            _h.update(b'\\x00' * i)", "            _h.update(b'\\x00' * (i + 1))", 'C12.1')
 M('C12', 'pass-before-salt', FL, "        hashdata = ((hsalt + hpass) * hcount) + (hsalt + hpass)[:hleft]", "        hashdata = ((hpass + hsalt) * hcount) + (hpass + hsalt)[:hleft]", 'C12.1')
@@ -18,6 +225,86 @@ M('C12', 'hash-update-order', FL, "            _h.update(b'\\x00' * i)\n        
 T('C12', 'twin-mod', FL, "        hleft = count - (hcount * len(hsalt + hpass))", "        hleft = count % len(hsalt + hpass)")
 T('C12', 'twin-one-update', FL, "            _h.update(b'\\x00' * i)\n            _h.update(hashdata)", "            _h.update((b'\\x00' * i) + hashdata)")
 T('C12', 'twin-count-mask-hex', FL, "        return (16 + (self._count & 15)) << ((self._count >> 4) + 6)", "        return (0x10 | (self._count & 0x0F)) << (6 + (self._count >> 4))")
+# --- hardening G5: C12 by value (stream length / context count / truncation), count codec as a small function, S2K codec
+_DK_COUNT = "        count = len(hsalt + hpass)\n        if self.specifier == String2KeyType.Iterated and self.count > len(hsalt + hpass):\n            count = self.count\n"
+_DK_LOOP = "        h = []\n        for i in range(0, ctx):\n            _h = self.halg.hasher\n            _h.update(b'\\x00' * i)\n            _h.update(hashdata)\n            h.append(_h)\n"
+_DK_Q = "        hcount = (count // len(hsalt + hpass))\n        hleft = count - (hcount * len(hsalt + hpass))\n"
+_CNT_GET = "        return (16 + (self._count & 15)) << ((self._count >> 4) + 6)"
+_CNT_SET = "        if val < 0 or val > 255:  # pragma: no cover\n            raise ValueError(\"count must be between 0 and 256\")\n        self._count = val\n"
+T('C12', 'twin-count-temporaries', FL, _CNT_GET, "        coded = self._count\n        mantissa = 16 + (coded & 0x0F)\n        exponent = (coded >> 4) + self._EXPBIAS\n        return mantissa << exponent",
+  more=[(FL, "    @sdproperty\n    def count(self):\n", "    _EXPBIAS = 6\n\n    @sdproperty\n    def count(self):\n")])
+T('C12', 'twin-count-divmod', FL, _CNT_GET, "        exponent, mantissa = divmod(self._count, 16)\n        return (16 + mantissa) * 2 ** (exponent + 6)")
+T('C12', 'twin-count-branchy', FL, _CNT_GET, "        c = self._count\n        if c < 16:\n            return (16 + c) << 6\n        else:\n            n = 16 | (c & 15)\n            n <<= (c >> 4) + 6\n            return n")
+T('C12', 'twin-count-setter-chained', FL, _CNT_SET, "        if not 0 <= val <= 255:  # pragma: no cover\n            raise ValueError(\"count must be between 0 and 256\")\n        self._count = val\n")
+T('C12', 'twin-count-setter-else', FL, _CNT_SET, "        if val in range(256):\n            self._count = val\n        else:  # pragma: no cover\n            raise ValueError(\"count must be between 0 and 256\")\n"
+  .replace('val in range(256)', '0 <= val and val < 256'))
+T('C12', 'twin-count-setter-range', FL, _CNT_SET, "        if val not in range(256):  # pragma: no cover\n            raise ValueError(\"count must be between 0 and 256\")\n        self._count = int(val)\n")
+M('C12', 'count-setter-range-255', FL, _CNT_SET, "        if val not in range(255):  # pragma: no cover\n            raise ValueError(\"count must be between 0 and 256\")\n        self._count = val\n", 'C12.3')
+M('C12', 'count-mantissa-plus', FL, _CNT_GET, "        coded = self._count\n        mantissa = 16 + (coded & 0x0F)\n        exponent = (coded >> 4) + 6\n        return mantissa << exponent + 1", 'C12.3')
+M('C12', 'count-shift-3', FL, _CNT_GET, "        coded = self._count\n        mantissa = 16 + (coded & 15)\n        exponent = (coded >> 3) + 6\n        return mantissa << exponent", 'C12.3')
+M('C12', 'count-setter-lower-1', FL, _CNT_SET, "        if not 1 <= val <= 255:  # pragma: no cover\n            raise ValueError(\"count must be between 0 and 256\")\n        self._count = val\n", 'C12.3')
+M('C12', 'count-setter-masks', FL, _CNT_SET, "        self._count = val & 0xFF\n", 'C12.3')
+T('C12', 'twin-dk-unit-temp', FL, _DK_COUNT + "\n" + _DK_Q + "\n        hashdata = ((hsalt + hpass) * hcount) + (hsalt + hpass)[:hleft]\n",
+  "        material = hsalt + hpass\n        mlen = len(material)\n        count = mlen\n        if self.specifier == String2KeyType.Iterated and self.count > mlen:\n            count = self.count\n\n        hcount, hleft = divmod(count, mlen)\n\n        hashdata = (material * hcount) + material[:hleft]\n")
+T('C12', 'twin-dk-len-sum', FL, _DK_Q, "        ulen = len(hsalt) + len(hpass)\n        hcount = count // ulen\n        hleft = count % ulen\n")
+T('C12', 'twin-dk-max', FL, _DK_COUNT, "        if self.specifier == String2KeyType.Iterated:\n            count = max(self.count, len(hsalt + hpass))\n        else:\n            count = len(hsalt + hpass)\n")
+T('C12', 'twin-dk-le-swapped', FL, _DK_COUNT, "        if self.specifier != String2KeyType.Iterated or self.count <= len(hsalt + hpass):\n            count = len(hsalt + hpass)\n        else:\n            count = self.count\n")
+T('C12', 'twin-dk-simple-one-copy', FL, "        hashdata = ((hsalt + hpass) * hcount) + (hsalt + hpass)[:hleft]\n",
+  "        if self.specifier == String2KeyType.Iterated:\n            hashdata = ((hsalt + hpass) * hcount) + (hsalt + hpass)[:hleft]\n        else:\n            hashdata = hsalt + hpass\n")
+T('C12', 'twin-dk-comprehension-helper', FL, _DK_LOOP, "        h = [self._preloaded_context(i, hashdata) for i in range(ctx)]\n",
+  more=[(FL, "    def derive_key(self, passphrase):\n", "    def _preloaded_context(self, nzeros, data):\n        hctx = self.halg.hasher\n        hctx.update(b'\\x00' * nzeros)\n        hctx.update(data)\n        return hctx\n\n    def derive_key(self, passphrase):\n")])
+T('C12', 'twin-dk-digest-in-loop', FL, _DK_LOOP, "        h = b''\n        for i in range(ctx):\n            _h = self.halg.hasher\n            _h.update(b'\\x00' * i + hashdata)\n            h += _h.digest()\n",
+  more=[(FL, "        return b''.join(hc.digest() for hc in h)[:(keylen // 8)]", "        return h[:keylen >> 3]")])
+T('C12', 'twin-dk-ceil-intdiv', FL, "        ctx = int(math.ceil((keylen / hashlen)))", "        ctx = (keylen + hashlen - 1) // hashlen")
+T('C12', 'twin-dk-ceil-neg', FL, "        ctx = int(math.ceil((keylen / hashlen)))", "        ctx = -(-keylen // hashlen)")
+T('C12', 'twin-dk-encode-default', FL, "            hpass = passphrase.encode('utf-8')", "            hpass = passphrase.encode()")
+T('C12', 'twin-dk-isinstance-str', FL, "        if isinstance(passphrase, bytes):\n            hpass = passphrase\n        else:\n            hpass = passphrase.encode('utf-8')",
+  "        hpass = passphrase\n        if not isinstance(passphrase, bytes):\n            hpass = passphrase.encode('utf-8')")
+T('C12', 'twin-dk-preload-bytes-n', FL, "            _h.update(b'\\x00' * i)\n", "            _h.update(bytes(i))\n")
+T('C12', 'twin-dk-salt-membership', FL, "        hsalt = b''\n", "", more=[(FL, "        if self.specifier >= String2KeyType.Salted:\n            hsalt = bytes(self.salt)\n",
+  "        hsalt = bytes(self.salt) if self.specifier in (String2KeyType.Salted, String2KeyType.Iterated) else b''\n")])
+T('C12', 'twin-dk-salt-not-simple', FL, "        if self.specifier >= String2KeyType.Salted:\n            hsalt = bytes(self.salt)\n", "        if self.specifier != String2KeyType.Simple:\n            hsalt = bytearray(self.salt)\n")
+T('C12', 'twin-dk-pass-tuple-isinstance', FL, "        if isinstance(passphrase, bytes):\n            hpass = passphrase\n        else:\n            hpass = passphrase.encode('utf-8')",
+  "        hpass = passphrase.encode('utf-8') if not isinstance(passphrase, (bytes, bytearray)) else passphrase")
+T('C12', 'twin-dk-listcomp-join', FL, "        return b''.join(hc.digest() for hc in h)[:(keylen // 8)]", "        digests = [hc.digest() for hc in h]\n        key = b''.join(digests)\n        return key[:keylen // 8]")
+T('C12', 'twin-dk-slice-of-longer-repeat', FL, "        hashdata = ((hsalt + hpass) * hcount) + (hsalt + hpass)[:hleft]\n", "        hashdata = ((hsalt + hpass) * (hcount + 1))[:count]\n")
+M('C12', 'dk-slice-of-short-repeat', FL, "        hashdata = ((hsalt + hpass) * hcount) + (hsalt + hpass)[:hleft]\n", "        hashdata = ((hsalt + hpass) * hcount)[:count]\n", 'C12.1')
+M('C12', 'dk-slice-count-plus-len', FL, "        hashdata = ((hsalt + hpass) * hcount) + (hsalt + hpass)[:hleft]\n", "        hashdata = ((hsalt + hpass) * (hcount + 1))[:hcount * len(hsalt + hpass) + len(hsalt + hpass)]\n", 'C12.1')
+M('C12', 'dk-max-for-all', FL, _DK_COUNT, "        count = max(self.count, len(hsalt + hpass))\n", 'C12.1')
+M('C12', 'dk-count-lt', FL, _DK_COUNT, "        count = len(hsalt + hpass)\n        if self.specifier == String2KeyType.Iterated and self.count < len(hsalt + hpass):\n            count = self.count\n", 'C12.1')
+M('C12', 'dk-len-chars', FL, _DK_Q, "        ulen = len(hsalt) + len(passphrase)\n        hcount = count // ulen\n        hleft = count % ulen\n", 'C12.1')
+M('C12', 'dk-hleft-plus1', FL, _DK_Q, "        hcount, hleft = divmod(count, len(hsalt + hpass))\n        hleft += 1\n", 'C12.1')
+M('C12', 'dk-round-up-copies', FL, _DK_Q, "        hcount = -(-count // len(hsalt + hpass))\n        hleft = 0\n", 'C12.1')
+M('C12', 'dk-ctx-plus1', FL, "        ctx = int(math.ceil((keylen / hashlen)))", "        ctx = keylen // hashlen + 1", 'C12.2')
+M('C12', 'dk-ctx-bytes-vs-bits', FL, "        hashlen = self.halg.digest_size * 8\n", "        hashlen = self.halg.digest_size\n", 'C12.2')
+M('C12', 'dk-trunc-bits', FL, "        return b''.join(hc.digest() for hc in h)[:(keylen // 8)]", "        return b''.join(hc.digest() for hc in h)[:keylen]", 'C12.1')
+M('C12', 'dk-helper-appends-zeros', FL, _DK_LOOP, "        h = [self._preloaded_context(i, hashdata) for i in range(ctx)]\n", 'C12.1',
+  more=[(FL, "    def derive_key(self, passphrase):\n", "    def _preloaded_context(self, nzeros, data):\n        hctx = self.halg.hasher\n        hctx.update(data)\n        hctx.update(b'\\x00' * nzeros)\n        return hctx\n\n    def derive_key(self, passphrase):\n")])
+M('C12', 'dk-encode-latin1', FL, "            hpass = passphrase.encode('utf-8')", "            hpass = passphrase.encode('latin-1')", 'C12.1')
+_S2K_PARSE_HEAD = "        if bool(self):\n            self.encalg = packet[0]\n            del packet[0]\n\n            self.specifier = packet[0]\n            del packet[0]\n"
+T('C12', 'twin-writer-guard-clause', FL, "        _bytes.append(self.usage)\n        if bool(self):\n            _bytes.append(self.encalg)\n            _bytes.append(self.specifier)\n",
+  "        _bytes.append(self.usage)\n        if self.usage in (254, 255):\n            _bytes.append(self.encalg)\n            _bytes.append(self.specifier)\n")
+T('C12', 'twin-writer-halg-backing', FL, "            if self.specifier >= String2KeyType.Simple:\n                _bytes.append(self.halg)\n", "            _bytes.append(self._halg)\n")
+T('C12', 'twin-reader-iv-shift', FL, "                self.iv = packet[:(self.encalg.block_size // 8)]\n                del packet[:(self.encalg.block_size // 8)]",
+  "                ivlen = self.encalg.block_size >> 3\n                self.iv = packet[:ivlen]\n                del packet[:ivlen]")
+T('C12', 'twin-copy-renamed-local', FL, "        s2k = String2Key()\n        s2k.usage = self.usage\n        s2k.encalg = self.encalg\n        s2k.specifier = self.specifier\n        s2k.gnuext = self.gnuext\n        s2k.iv = self.iv\n        s2k.halg = self.halg\n        s2k.salt = copy.copy(self.salt)\n        s2k.count = self._count\n        s2k.scserial = self.scserial\n        return s2k",
+  "        dup = String2Key()\n        dup.usage = self.usage\n        dup.encalg = self.encalg\n        dup.specifier = self.specifier\n        dup.gnuext = self.gnuext\n        dup.iv = self.iv\n        dup.halg = self.halg\n        dup.salt = copy.copy(self.salt)\n        coded = self._count\n        dup.count = coded\n        dup.scserial = self.scserial\n        return dup")
+_S2K_WR = "        _bytes = bytearray()\n        _bytes.append(self.usage)\n        if bool(self):\n            _bytes.append(self.encalg)\n            _bytes.append(self.specifier)\n            if self.specifier == String2KeyType.GNUExtension:\n                return self._experimental_bytearray(_bytes)\n            if self.specifier >= String2KeyType.Simple:\n                _bytes.append(self.halg)\n            if self.specifier >= String2KeyType.Salted:\n                _bytes += self.salt\n            if self.specifier == String2KeyType.Iterated:\n                _bytes.append(self._count)\n            if self.iv is not None:\n                _bytes += self.iv\n        return _bytes\n"
+T('C12', 'twin-writer-restructured', FL, _S2K_WR, "        out = bytearray([self.usage])\n        if not self:\n            return out\n        out += bytearray([self.encalg, self.specifier])\n        if self.specifier == String2KeyType.GNUExtension:\n            return self._experimental_bytearray(out)\n        out.append(self.halg)\n        if self.specifier in (String2KeyType.Salted, String2KeyType.Iterated):\n            out.extend(self.salt)\n        if self.specifier == String2KeyType.Iterated:\n            out += self.int_to_bytes(self._count, 1)\n        if self.iv is None:\n            return out\n        return out + self.iv\n")
+M('C12', 'writer-salt-before-halg', FL, "            if self.specifier >= String2KeyType.Simple:\n                _bytes.append(self.halg)\n            if self.specifier >= String2KeyType.Salted:\n                _bytes += self.salt\n",
+  "            if self.specifier >= String2KeyType.Salted:\n                _bytes += self.salt\n            if self.specifier >= String2KeyType.Simple:\n                _bytes.append(self.halg)\n", 'C12.4')
+_S2K_RD = "        if bool(self):\n            self.encalg = packet[0]\n            del packet[0]\n\n            self.specifier = packet[0]\n            del packet[0]\n\n            if self.specifier == String2KeyType.GNUExtension:\n                return self._experimental_parse(packet, iv)\n\n            if self.specifier >= String2KeyType.Simple:\n                # this will always be true\n                self.halg = packet[0]\n                del packet[0]\n\n            if self.specifier >= String2KeyType.Salted:\n                self.salt = packet[:8]\n                del packet[:8]\n\n            if self.specifier == String2KeyType.Iterated:\n                self.count = packet[0]\n                del packet[0]\n\n            if iv:\n                self.iv = packet[:(self.encalg.block_size // 8)]\n                del packet[:(self.encalg.block_size // 8)]\n"
+T('C12', 'twin-reader-guard-clause', FL, _S2K_RD, "        if not bool(self):\n            return\n\n" + "".join((l[4:] if l.startswith('    ') else l) + "\n" for l in _S2K_RD.split("\n")[1:-1]))
+T('C12', 'twin-dk-ifelse-and-condexpr', FL, _DK_COUNT, "        if self.specifier == String2KeyType.Iterated and self.count > len(hsalt + hpass):\n            count = self.count\n        else:\n            count = len(hsalt + hpass)\n",
+  more=[(FL, "        if isinstance(passphrase, bytes):\n            hpass = passphrase\n        else:\n            hpass = passphrase.encode('utf-8')", "        hpass = passphrase if isinstance(passphrase, bytes) else passphrase.encode('utf-8')")])
+M('C12', 'writer-decoded-count', FL, "                _bytes.append(self._count)", "                _bytes.append(self.count)", 'C12.4')
+M('C12', 'writer-halg-two-octets', FL, "                _bytes.append(self.halg)\n", "                _bytes += self.int_to_bytes(self.halg, 2)\n", 'C12.4')
+M('C12', 'reader-iv-bits', FL, "                self.iv = packet[:(self.encalg.block_size // 8)]\n                del packet[:(self.encalg.block_size // 8)]",
+  "                self.iv = packet[:(self.encalg.block_size // 4)]\n                del packet[:(self.encalg.block_size // 4)]", 'C12.4')
+M('C12', 'copy-decoded-count', FL, "        s2k.count = self._count\n", "        s2k.count = self.count\n", 'C12.4')
+M('C12', 'copy-drops-count', FL, "        s2k.count = self._count\n", "", 'C12.4')
+M('C12', 'reader-count-after-iv', FL, "            if self.specifier == String2KeyType.Iterated:\n                self.count = packet[0]\n                del packet[0]\n\n            if iv:\n                self.iv = packet[:(self.encalg.block_size // 8)]\n                del packet[:(self.encalg.block_size // 8)]",
+  "            if iv:\n                self.iv = packet[:(self.encalg.block_size // 8)]\n                del packet[:(self.encalg.block_size // 8)]\n\n            if self.specifier == String2KeyType.Iterated:\n                self.count = packet[0]\n                del packet[0]", 'C12.4')
 
 # =============================================================================================== C18
 M('C18', 'fp-without-pkalg', PK, "        fp.update(self.int_to_bytes(self.pkalg))\n", "", 'C18.1')
@@ -425,6 +712,71 @@ M('C06', 'unprotect-outside-try', PGP, "        try:\n            for sk in iter
   "        for sk in itertools.chain([self], self.subkeys.values()):\n            sk._key.unprotect(passphrase)\n        try:\n            del passphrase\n            yield self", 'C06.1')
 T('C06', 'twin-clear-helper-var', PGP, "            for sk in itertools.chain([self], self.subkeys.values()):\n                sk._key.keymaterial.clear()", "            for k in itertools.chain([self], self.subkeys.values()):\n                k._key.keymaterial.clear()")
 T('C06', 'twin-keyblob-pt-join', FL, "        pt += hashlib.new('sha1', pt).digest()\n", "        digest = hashlib.new('sha1', pt).digest()\n        pt += digest\n")
+# --- hardening G5: C06 rules on interpreter values / def-use instead of source text
+_UNL_TRY = "        try:\n            for sk in itertools.chain([self], self.subkeys.values()):\n                sk._key.unprotect(passphrase)\n            del passphrase\n            yield self\n\n        finally:\n            # clean up here by deleting the previously decrypted secret key material\n            for sk in itertools.chain([self], self.subkeys.values()):\n                sk._key.keymaterial.clear()"
+T('C06', 'twin-unlock-keys-list', PGP, _UNL_TRY, "        keys = [self] + list(self.subkeys.values())\n        try:\n            for sk in keys:\n                sk._key.unprotect(passphrase)\n            del passphrase\n            yield self\n\n        finally:\n            for sk in keys:\n                sk._key.keymaterial.clear()")
+T('C06', 'twin-unlock-split-primary', PGP, _UNL_TRY, "        try:\n            self._key.unprotect(passphrase)\n            for sk in self.subkeys.values():\n                sk._key.unprotect(passphrase)\n            del passphrase\n            yield self\n\n        finally:\n            self._key.keymaterial.clear()\n            for sub in self._children.values():\n                sub._key.keymaterial.clear()")
+T('C06', 'twin-unlock-clear-temp-kw', PGP, _UNL_TRY, "        try:\n            for sk in (self, *self.subkeys.values()):\n                pkt = sk._key\n                pkt.unprotect(passphrase=passphrase)\n            del passphrase\n            yield self\n\n        finally:\n            for sk in (self, *self.subkeys.values()):\n                km = sk._key.keymaterial\n                km.clear()")
+T('C06', 'twin-unlock-nested-try', PGP, _UNL_TRY, "        try:\n            for sk in itertools.chain([self], self.subkeys.values()):\n                sk._key.unprotect(passphrase)\n            del passphrase\n            try:\n                yield self\n            finally:\n                pass\n\n        finally:\n            for sk in list(itertools.chain([self], self.subkeys.values())):\n                sk._key.keymaterial.clear()")
+T('C06', 'twin-unlock-helpers', PGP, _UNL_TRY, "        try:\n            self._unprotect_all(passphrase)\n            del passphrase\n            yield self\n\n        finally:\n            self._relock()",
+  more=[(PGP, "    @contextlib.contextmanager\n    def unlock(self, passphrase):\n", "    def _unprotect_all(self, passphrase):\n        for sk in itertools.chain([self], self.subkeys.values()):\n            sk._key.unprotect(passphrase)\n\n    def _relock(self):\n        for sk in itertools.chain([self], self.subkeys.values()):\n            sk._key.keymaterial.clear()\n\n    @contextlib.contextmanager\n    def unlock(self, passphrase):\n")])
+M('C06', 'unlock-helper-relocks-subkeys-only', PGP, _UNL_TRY, "        try:\n            for sk in itertools.chain([self], self.subkeys.values()):\n                sk._key.unprotect(passphrase)\n            del passphrase\n            yield self\n\n        finally:\n            self._relock()", 'C06.1',
+  more=[(PGP, "    @contextlib.contextmanager\n    def unlock(self, passphrase):\n", "    def _relock(self):\n        for sk in self.subkeys.values():\n            sk._key.keymaterial.clear()\n\n    @contextlib.contextmanager\n    def unlock(self, passphrase):\n")])
+M('C06', 'unlock-chain-reused', PGP, _UNL_TRY, "        keys = itertools.chain([self], self.subkeys.values())\n        try:\n            for sk in keys:\n                sk._key.unprotect(passphrase)\n            del passphrase\n            yield self\n\n        finally:\n            for sk in keys:\n                sk._key.keymaterial.clear()", 'C06.1')
+M('C06', 'unlock-subkeys-cleared-on-success-only', PGP, _UNL_TRY, "        try:\n            for sk in itertools.chain([self], self.subkeys.values()):\n                sk._key.unprotect(passphrase)\n            del passphrase\n            yield self\n            for sk in self.subkeys.values():\n                sk._key.keymaterial.clear()\n\n        finally:\n            self._key.keymaterial.clear()", 'C06.1')
+M('C06', 'unlock-clear-subkeys-only', PGP, "            for sk in itertools.chain([self], self.subkeys.values()):\n                sk._key.keymaterial.clear()", "            for sk in self.subkeys.values():\n                sk._key.keymaterial.clear()", 'C06.1')
+M('C06', 'unlock-except-pgperror-only', PGP, _UNL_TRY, "        try:\n            for sk in itertools.chain([self], self.subkeys.values()):\n                sk._key.unprotect(passphrase)\n            del passphrase\n            yield self\n\n        except PGPError:\n            for sk in itertools.chain([self], self.subkeys.values()):\n                sk._key.keymaterial.clear()\n            raise\n\n        for sk in itertools.chain([self], self.subkeys.values()):\n            sk._key.keymaterial.clear()", 'C06.1')
+M('C06', 'unlock-unprotect-not-delegating', PK, "    def unprotect(self, passphrase):\n        self.keymaterial.decrypt_keyblob(passphrase)\n", "    def unprotect(self, passphrase):\n        if self.keymaterial.s2k.usage == 255:\n            self.keymaterial.decrypt_keyblob(passphrase)\n", 'C06.1')
+_CLEAR = "        for field in self.__privfields__:\n            delattr(self, field)\n            setattr(self, field, MPI(0))\n\n\nclass OpaquePrivKey"
+T('C06', 'twin-clear-no-delattr', FL, _CLEAR, "        zero = MPI(0)\n        for name in self.__privfields__:\n            setattr(self, name, zero)\n\n\nclass OpaquePrivKey")
+T('C06', 'twin-clear-comprehension', FL, _CLEAR, "        [setattr(self, f, MPI(0)) for f in self.__privfields__]\n\n\nclass OpaquePrivKey")
+M('C06', 'clear-only-when-protected', FL, _CLEAR, "        if not self.s2k:\n            return\n        for field in self.__privfields__:\n            delattr(self, field)\n            setattr(self, field, MPI(0))\n\n\nclass OpaquePrivKey", 'C06.2')
+M('C06', 'clear-pubfields', FL, _CLEAR, "        for field in self.__pubfields__:\n            delattr(self, field)\n            setattr(self, field, MPI(0))\n\n\nclass OpaquePrivKey", 'C06.2')
+M('C06', 'blob-kept-renamed-local', FL, "        kb = super(DSAPriv, self).decrypt_keyblob(passphrase)\n        del passphrase\n\n        self.x = MPI(kb)\n",
+  "        blob = super(DSAPriv, self).decrypt_keyblob(passphrase)\n        del passphrase\n        kb = blob\n        self._plain = bytes(blob)\n\n        self.x = MPI(kb)\n", 'C06.2')
+M('C06', 'secret-int-kept-via-temp', FL, "    def _compute_chksum(self):\n        chs = sum(bytearray(self.x.to_mpibytes())) % 65536\n        self.chksum = bytearray(self.int_to_bytes(chs, 2))\n\n    def _generate(self, key_size):\n        if any(c != 0 for c in self):  # pragma: no cover\n            raise PGPError(\"key is already populated\")\n",
+  "    def _compute_chksum(self):\n        raw = self.x.to_mpibytes()\n        self._mpicache = raw\n        chs = sum(bytearray(raw)) % 65536\n        self.chksum = bytearray(self.int_to_bytes(chs, 2))\n\n    def _generate(self, key_size):\n        if any(c != 0 for c in self):  # pragma: no cover\n            raise PGPError(\"key is already populated\")\n", 'C06.2')
+M('C06', 'privkey-cached-in-dict', FL, "        s = self.int_to_bytes(self.s, (self.oid.key_size + 7) // 8)\n        return ed25519.Ed25519PrivateKey.from_private_bytes(s)",
+  "        if '_pk' not in self.__dict__:\n            s = self.int_to_bytes(self.s, (self.oid.key_size + 7) // 8)\n            self.__dict__['_pk'] = ed25519.Ed25519PrivateKey.from_private_bytes(s)\n        return self.__dict__['_pk']", 'C06.2')
+_KB_PT = "        pt = bytearray()\n        for pf in self.__privfields__:\n            pt += getattr(self, pf).to_mpibytes()\n\n        # append a SHA-1 hash of the plaintext so far to the plaintext\n        pt += hashlib.new('sha1', pt).digest()\n\n        # encrypt\n        self.encbytes = bytearray(_encrypt(bytes(pt), bytes(sessionkey), enc_alg, bytes(self.s2k.iv)))\n\n        # delete pt and clear self\n        del pt\n        self.clear()"
+T('C06', 'twin-keyblob-join-temps', FL, _KB_PT, "        secret = bytearray().join([getattr(self, name).to_mpibytes() for name in self.__privfields__])\n        trailer = hashlib.new('sha1', secret).digest()\n        plaintext = secret + trailer\n        ciphertext = _encrypt(bytes(plaintext), key=bytes(sessionkey), alg=enc_alg, iv=bytes(self.s2k.iv))\n        self.encbytes = bytearray(ciphertext)\n        del secret, trailer, plaintext\n        self.clear()")
+T('C06', 'twin-keyblob-sha1-update', FL, "        pt += hashlib.new('sha1', pt).digest()\n", "        sha = hashlib.new('sha1')\n        sha.update(pt)\n        pt += sha.digest()\n")
+T('C06', 'twin-keyblob-iv-temp', FL, "        self.s2k.iv = enc_alg.gen_iv()\n", "        iv = enc_alg.gen_iv()\n        self.s2k.iv = iv\n",
+  more=[(FL, "bytearray(_encrypt(bytes(pt), bytes(sessionkey), enc_alg, bytes(self.s2k.iv)))", "bytearray(_encrypt(bytes(pt), bytes(sessionkey), enc_alg, bytes(iv)))")])
+T('C06', 'twin-keyblob-s2k-alias', FL, "        self.s2k.usage = 254\n        self.s2k.encalg = enc_alg\n        self.s2k.specifier = String2KeyType.Iterated\n        self.s2k.iv = enc_alg.gen_iv()\n        self.s2k.halg = hash_alg\n        self.s2k.salt = bytearray(os.urandom(8))\n        self.s2k.count = hash_alg.tuned_count\n",
+  "        s2k = self.s2k\n        s2k.usage = 254\n        s2k.encalg = enc_alg\n        s2k.specifier = String2KeyType.Iterated\n        s2k.iv = enc_alg.gen_iv()\n        s2k.halg = hash_alg\n        s2k.salt = bytearray(os.urandom(8))\n        s2k.count = hash_alg.tuned_count\n",
+  more=[(FL, "        sessionkey = self.s2k.derive_key(passphrase)\n        del passphrase\n\n        pt = bytearray()\n        for pf in self.__privfields__:\n            pt += getattr(self, pf).to_mpibytes()\n", "        sessionkey = s2k.derive_key(passphrase)\n        del passphrase\n\n        pt = bytearray(b''.join(getattr(self, pf).to_mpibytes() for pf in self.__privfields__))\n")])
+T('C06', 'twin-decrypt-nested-checks', FL, "        if self.s2k.usage == 254 and not pt[-20:] == hashlib.new('sha1', pt[:-20]).digest():\n            # if the usage byte is 254, key material is followed by a 20-octet sha-1 hash of the rest\n            # of the key material block\n            raise PGPDecryptionError(\"Passphrase was incorrect!\")\n",
+  "        if self.s2k.usage == 254:\n            body, trailer = pt[:-20], pt[-20:]\n            if trailer != hashlib.new('sha1', body).digest():\n                raise PGPDecryptionError(\"Passphrase was incorrect!\")\n")
+T('C06', 'twin-keyset-helper', PGP, "        for sk in itertools.chain([self], self.subkeys.values()):\n            sk._key.protect(passphrase, enc_alg, hash_alg)\n\n        del passphrase\n",
+  "        for sk in self._primary_and_subkeys():\n            sk._key.protect(passphrase, enc_alg, hash_alg)\n\n        del passphrase\n\n    def _primary_and_subkeys(self):\n        return itertools.chain([self], self.subkeys.values())\n",
+  more=[(PGP, "            for sk in itertools.chain([self], self.subkeys.values()):\n                sk._key.unprotect(passphrase)\n", "            for sk in self._primary_and_subkeys():\n                sk._key.unprotect(passphrase)\n"),
+        (PGP, "            for sk in itertools.chain([self], self.subkeys.values()):\n                sk._key.keymaterial.clear()", "            for sk in self._primary_and_subkeys():\n                sk._key.keymaterial.clear()")])
+M('C06', 'keyblob-fresh-iv-not-stored', FL, "bytearray(_encrypt(bytes(pt), bytes(sessionkey), enc_alg, bytes(self.s2k.iv)))", "bytearray(_encrypt(bytes(pt), bytes(sessionkey), enc_alg, bytes(enc_alg.gen_iv())))", 'C06.3')
+M('C06', 'keyblob-salt-after-derive', FL, "        self.s2k.salt = bytearray(os.urandom(8))\n        self.s2k.count = hash_alg.tuned_count\n", "        self.s2k.count = hash_alg.tuned_count\n", 'C06.3',
+  more=[(FL, "        sessionkey = self.s2k.derive_key(passphrase)\n        del passphrase\n\n        pt = bytearray()", "        sessionkey = self.s2k.derive_key(passphrase)\n        self.s2k.salt = bytearray(os.urandom(8))\n        del passphrase\n\n        pt = bytearray()")])
+M('C06', 'keyblob-sha1-of-first-field', FL, "            pt += getattr(self, pf).to_mpibytes()\n\n        # append a SHA-1 hash of the plaintext so far to the plaintext\n        pt += hashlib.new('sha1', pt).digest()\n",
+  "            pt += getattr(self, pf).to_mpibytes()\n\n        pt += hashlib.new('sha1', getattr(self, self.__privfields__[0]).to_mpibytes()).digest()\n", 'C06.3')
+_PKT_PROTECT = "        self.keymaterial.encrypt_keyblob(passphrase, enc_alg, hash_alg)\n        del passphrase\n        self.update_hlen()\n"
+T('C06', 'twin-pkt-protect-kw', PK, _PKT_PROTECT, "        km = self.keymaterial\n        km.encrypt_keyblob(passphrase, hash_alg=hash_alg, enc_alg=enc_alg)\n        del passphrase\n        self.update_hlen()\n")
+M('C06', 'pkt-protect-no-hlen', PK, _PKT_PROTECT, "        self.keymaterial.encrypt_keyblob(passphrase, enc_alg, hash_alg)\n        del passphrase\n", 'C06.3')
+M('C06', 'pkt-protect-hlen-first', PK, _PKT_PROTECT, "        self.update_hlen()\n        self.keymaterial.encrypt_keyblob(passphrase, enc_alg, hash_alg)\n        del passphrase\n", 'C06.3')
+M('C06', 'pkt-protect-algs-swapped', PK, _PKT_PROTECT, "        self.keymaterial.encrypt_keyblob(passphrase, hash_alg, enc_alg)\n        del passphrase\n        self.update_hlen()\n", 'C06.3')
+_KEY_PROTECT = "        for sk in itertools.chain([self], self.subkeys.values()):\n            sk._key.protect(passphrase, enc_alg, hash_alg)\n"
+T('C06', 'twin-key-protect-list', PGP, _KEY_PROTECT, "        self._key.protect(passphrase, enc_alg, hash_alg)\n        for sub in list(self.subkeys.values()):\n            sub._key.protect(passphrase, enc_alg=enc_alg, hash_alg=hash_alg)\n")
+M('C06', 'key-protect-primary-only', PGP, _KEY_PROTECT, "        self._key.protect(passphrase, enc_alg, hash_alg)\n", 'C06.3')
+M('C06', 'key-protect-subkeys-only', PGP, _KEY_PROTECT, "        for sk in self.subkeys.values():\n            sk._key.protect(passphrase, enc_alg, hash_alg)\n", 'C06.3')
+T('C06', 'twin-decrypt-chk-mask', FL, "(sum(bytearray(pt[:-2])) % 65536):  # pragma: no cover", "(sum(bytearray(pt[:-2])) & 0xFFFF):  # pragma: no cover")
+T('C06', 'twin-decrypt-s2k-bool', FL, "        if not self.s2k:  # pragma: no cover\n            # not encrypted\n            return\n", "        if bool(self.s2k) is False:  # pragma: no cover\n            return\n".replace('bool(self.s2k) is False', 'not bool(self.s2k)'))
+T('C06', 'twin-subclass-super-kw', FL, "        kb = super(DSAPriv, self).decrypt_keyblob(passphrase)\n        del passphrase\n\n        self.x = MPI(kb)\n", "        blob = super().decrypt_keyblob(passphrase=passphrase)\n        del passphrase\n\n        x = MPI(blob)\n        self.x = x\n        kb = blob\n")
+M('C06', 'sha1-guard-warns', FL, "        if self.s2k.usage == 254 and not pt[-20:] == hashlib.new('sha1', pt[:-20]).digest():\n            # if the usage byte is 254, key material is followed by a 20-octet sha-1 hash of the rest\n            # of the key material block\n            raise PGPDecryptionError(\"Passphrase was incorrect!\")\n",
+  "        if self.s2k.usage == 254 and not pt[-20:] == hashlib.new('sha1', pt[:-20]).digest():\n            warnings.warn(\"Passphrase was incorrect!\")\n", 'C06.4')
+M('C06', 'sha1-guard-19', FL, "not pt[-20:] == hashlib.new('sha1', pt[:-20]).digest():", "not pt[-19:] == hashlib.new('sha1', pt[:-20]).digest()[1:]:", 'C06.4')
+M('C06', 'subclass-store-from-ciphertext', FL, "        kb = super(ElGPriv, self).decrypt_keyblob(passphrase)\n        del passphrase\n\n        self.x = MPI(kb)\n", "        kb = super(ElGPriv, self).decrypt_keyblob(passphrase)\n        del passphrase\n\n        self.x = MPI(bytearray(self.encbytes))\n", 'C06.4')
+T('C06', 'twin-export-swapped-arms', FL, "        if self.s2k:\n            _bytes += self.encbytes\n\n        else:\n            for field in self.__privfields__:\n                _bytes += getattr(self, field).to_mpibytes()",
+  "        if not self.s2k:\n            _bytes += b''.join(getattr(self, field).to_mpibytes() for field in self.__privfields__)\n\n        else:\n            _bytes += self.encbytes")
+M('C06', 'export-private-on-usage', FL, "        if self.s2k:\n            _bytes += self.encbytes\n\n        else:\n            for field in self.__privfields__:\n                _bytes += getattr(self, field).to_mpibytes()",
+  "        if self.s2k and self.encbytes:\n            _bytes += self.encbytes\n\n        else:\n            for field in self.__privfields__:\n                _bytes += getattr(self, field).to_mpibytes()", 'C06.5')
 
 # =============================================================================================== C10
 M('C10', 'crc-init', TY, "    __crc24_init = 0x0B704CE", "    __crc24_init = 0x0B704CF", 'C10.1')
@@ -448,6 +800,393 @@ M('C10', 'header-sep', TY, "headers=''.join('{key}: {val}\\n'.format(key=key, va
 T('C10', 'twin-crc-hex', TY, "        return crc & 0xFFFFFF", "        return crc & 16777215")
 T('C10', 'twin-payload-var', TY, "        payload = base64.b64encode(self.__bytes__()).decode('latin-1')\n        payload = '\\n'.join(payload[i:(i + 64)] for i in range(0, len(payload), 64))", "        b64 = base64.b64encode(self.__bytes__()).decode('latin-1')\n        payload = '\\n'.join(b64[i:(i + 64)] for i in range(0, len(b64), 64))")
 
+# ---- C10 hardening: twins (every family a rule was made blind to) and new mutants (one or more per rewritten rule)
+_CRC_BODY = """        crc = Armorable.__crc24_init
+
+        if not isinstance(data, bytearray):
+            data = iter(data)
+
+        for b in data:
+            crc ^= b << 16
+
+            for i in range(8):
+                crc <<= 1
+                if crc & 0x1000000:
+                    crc ^= Armorable.__crc24_poly
+
+        return crc & 0xFFFFFF
+"""
+T('C10', 'twin-crc-renamed-hoisted', TY, _CRC_BODY, """        poly = Armorable.__crc24_poly
+        carry = 0x1000000
+        mask = 0xFFFFFF
+
+        if isinstance(data, bytearray):
+            octets = data
+        else:
+            octets = iter(data)
+
+        register = Armorable.__crc24_init
+        for octet in octets:
+            register = register ^ (octet << 16)
+
+            for _ in range(8):
+                register = register << 1
+                if (register & carry) != 0:
+                    register = register ^ poly
+
+        return register & mask
+""")
+T('C10', 'twin-crc-literals-inline', TY, _CRC_BODY, """        acc = 0xB704CE
+        for octet in bytearray(data):
+            acc ^= octet << 16
+            for _round in range(0, 8):
+                acc <<= 1
+                if acc & (1 << 24):
+                    acc ^= 0x1864CFB
+        return acc & ((1 << 24) - 1)
+""")
+T('C10', 'twin-crc-test-before-shift', TY, _CRC_BODY, """        crc = Armorable.__crc24_init
+        for b in (data if isinstance(data, bytearray) else iter(data)):
+            crc ^= b << 16
+            for i in range(8):
+                # bit 23 before the shift is bit 24 after it
+                crc = (crc << 1) ^ (Armorable.__crc24_poly if crc & 0x800000 else 0)
+        return crc & 0xFFFFFF
+""")
+T('C10', 'twin-crc-mask-each-round', TY, _CRC_BODY, """        crc = Armorable.__crc24_init
+
+        if not isinstance(data, bytearray):
+            data = iter(data)
+
+        for b in data:
+            crc ^= b << 16
+
+            for i in range(8):
+                crc <<= 1
+                if crc & 0x1000000:
+                    crc ^= Armorable.__crc24_poly
+                crc &= 0xFFFFFF
+
+        return crc
+""")
+M('C10', 'crc-wrong-overflow-bit', TY, "                if crc & 0x1000000:", "                if crc & 0x800000:", 'C10.1')
+M('C10', 'crc-xor-always', TY, "                if crc & 0x1000000:\n                    crc ^= Armorable.__crc24_poly", "                crc ^= Armorable.__crc24_poly", 'C10.1')
+M('C10', 'crc-or-instead-of-xor', TY, "            crc ^= b << 16", "            crc |= b << 16", 'C10.1')
+M('C10', 'crc-rounds-9', TY, "            for i in range(8):\n                crc <<= 1", "            for i in range(9):\n                crc <<= 1", 'C10.1')
+M('C10', 'crc-mask-23-bits', TY, "        return crc & 0xFFFFFF", "        return crc & 0x7FFFFF", 'C10.1')
+M('C10', 'crc-poly-is-init', TY, "                    crc ^= Armorable.__crc24_poly", "                    crc ^= Armorable.__crc24_init", 'C10.1')
+M('C10', 'crc-shift-after-test', TY, "                crc <<= 1\n                if crc & 0x1000000:\n                    crc ^= Armorable.__crc24_poly", "                if crc & 0x1000000:\n                    crc ^= Armorable.__crc24_poly\n                crc <<= 1", 'C10.1')
+M('C10', 'crc-skips-first-octet-of-bytes', TY, "            data = iter(data)", "            data = iter(data[1:])", 'C10.1')
+
+_STR_BODY = """        payload = base64.b64encode(self.__bytes__()).decode('latin-1')
+        payload = '\\n'.join(payload[i:(i + 64)] for i in range(0, len(payload), 64))
+
+        return self.__armor_fmt.format(
+            block_type=self.magic,
+            headers=''.join('{key}: {val}\\n'.format(key=key, val=val) for key, val in self.ascii_headers.items()),
+            packet=payload,
+            crc=base64.b64encode(PGPObject.int_to_bytes(self.crc24(self.__bytes__()), 3)).decode('latin-1')
+        )
+"""
+T('C10', 'twin-str-helpers-locals', TY, "    def __str__(self):\n" + _STR_BODY, """    @staticmethod
+    def _radix64(octets):
+        return base64.b64encode(octets).decode('latin-1')
+
+    def _armor_header_lines(self):
+        lines = []
+        for key, val in self.ascii_headers.items():
+            lines.append('{key}: {val}\\n'.format(key=key, val=val))
+        return ''.join(lines)
+
+    def __str__(self):
+        width = 64
+        encoded = self._radix64(self.__bytes__())
+        rows = [encoded[start:(start + width)] for start in range(0, len(encoded), width)]
+        payload = '\\n'.join(rows)
+
+        block_type = self.magic
+        headers = self._armor_header_lines()
+        checksum = PGPObject.int_to_bytes(self.crc24(self.__bytes__()), 3)
+
+        return self.__armor_fmt.format(
+            block_type=block_type,
+            headers=headers,
+            packet=payload,
+            crc=self._radix64(checksum)
+        )
+""")
+T('C10', 'twin-str-concatenation', TY, _STR_BODY, """        octets = self.__bytes__()
+        text = str(base64.b64encode(octets), 'ascii')
+        lines = []
+        for off in range(0, len(text), 64):
+            lines.append(text[off:off + 64])
+        out = '-----BEGIN PGP ' + self.magic + '-----\\n'
+        out += ''.join(key + ': ' + val + '\\n' for key, val in self.ascii_headers.items())
+        out += '\\n' + '\\n'.join(lines) + '\\n'
+        out += '=' + base64.b64encode(PGPObject.int_to_bytes(Armorable.crc24(self.__bytes__()), minlen=3)).decode('ascii') + '\\n'
+        out += '-----END PGP ' + self.magic + '-----\\n'
+        return out
+""")
+T('C10', 'twin-str-fstring-percent', TY, _STR_BODY, """        payload = base64.b64encode(self.__bytes__()).decode()
+        payload = '\\n'.join([payload[i:i + 64] for i in range(0, len(payload), 64)])
+        headers = ''.join(['%s: %s\\n' % (k, v) for k, v in self.ascii_headers.items()])
+        crc = base64.b64encode(PGPObject.int_to_bytes(self.crc24(self.__bytes__()), 3)).decode()
+        return f'-----BEGIN PGP {self.magic}-----\\n{headers}\\n{payload}\\n={crc}\\n-----END PGP {self.magic}-----\\n'
+""")
+T('C10', 'twin-str-fstring-header-line', TY, "headers=''.join('{key}: {val}\\n'.format(key=key, val=val) for key, val in self.ascii_headers.items()),",
+  "headers=''.join(f'{name}: {value}\\n' for name, value in self.ascii_headers.items()),")
+M('C10', 'crc-over-all-but-last-octet', TY, "self.crc24(self.__bytes__()), 3)", "self.crc24(self.__bytes__()[:-1]), 3)", 'C10.2')
+M('C10', 'crc-equals-sign-dropped', TY, "                  '={crc}\\n' \\\n", "                  '{crc}\\n' \\\n", 'C10.2')
+M('C10', 'payload-of-other-export', TY, "        payload = base64.b64encode(self.__bytes__()).decode('latin-1')", "        payload = base64.b64encode(self.__bytes__()[1:]).decode('latin-1')", 'C10.2')
+M('C10', 'label-class-name', TY, "            block_type=self.magic,", "            block_type=self.__class__.__name__.upper(),", 'C10.2')
+M('C10', 'wrap-66-not-a-quantum', TY, "        payload = '\\n'.join(payload[i:(i + 64)] for i in range(0, len(payload), 64))", "        payload = '\\n'.join(payload[i:(i + 66)] for i in range(0, len(payload), 66))", 'C10.3')
+M('C10', 'reader-lines-60', TY, "(?P<body>([A-Za-z0-9+/]{1,76}={,2}(?:\\r?\\n))+)", "(?P<body>([A-Za-z0-9+/]{1,60}={,2}(?:\\r?\\n))+)", 'C10.3')
+M('C10', 'reader-no-padding', TY, "(?P<body>([A-Za-z0-9+/]{1,76}={,2}(?:\\r?\\n))+)", "(?P<body>([A-Za-z0-9+/]{1,76}(?:\\r?\\n))+)", 'C10.3')
+M('C10', 'reader-crc-group-5', TY, "^=(?P<crc>[A-Za-z0-9+/]{4})(?:\\r?\\n)", "^=(?P<crc>[A-Za-z0-9+/]{4,5})(?:\\r?\\n)", 'C10.2')
+T('C10', 'twin-regex-spelling', TY, "^=(?P<crc>[A-Za-z0-9+/]{4})(?:\\r?\\n)", "^=(?P<crc>(?:[A-Za-z0-9+/]{2}){2})(?:\\r\\n|\\n)")
+T('C10', 'twin-regex-body-spelling', TY, "(?P<body>([A-Za-z0-9+/]{1,76}={,2}(?:\\r?\\n))+)", "(?P<body>(?:[0-9A-Za-z/+]{1,76}(?:={1,2})?\\r?\\n)+)")
+
+_KEY_MAGIC = """        return '{:s} KEY BLOCK'.format('PUBLIC' if (isinstance(self._key, Public) and not isinstance(self._key, Private)) else
+                                       'PRIVATE' if isinstance(self._key, Private) else '')
+"""
+T('C10', 'twin-key-magic-if-chain', PGP, _KEY_MAGIC, """        if isinstance(self._key, Private):
+            return 'PRIVATE KEY BLOCK'
+        if isinstance(self._key, Public):
+            return 'PUBLIC KEY BLOCK'
+        return ' KEY BLOCK'
+""")
+T('C10', 'twin-key-magic-concat', PGP, _KEY_MAGIC, """        kind = ''
+        if isinstance(self._key, Private):
+            kind = 'PRIVATE'
+        elif isinstance(self._key, Public):
+            kind = 'PUBLIC'
+        return kind + ' KEY BLOCK'
+""")
+T('C10', 'twin-message-magic-ifexp', PGP, "        if self.type == 'cleartext':\n            return \"SIGNATURE\"\n        return \"MESSAGE\"",
+  "        return 'SIGNATURE' if self.type == 'cleartext' else 'MESSAGE'")
+M('C10', 'key-magic-swapped', PGP, "'PRIVATE' if isinstance(self._key, Private) else '')", "'PUBLIC' if isinstance(self._key, Private) else '')", 'C10.4',
+  more=[(PGP, "        return '{:s} KEY BLOCK'.format('PUBLIC' if (isinstance", "        return '{:s} KEY BLOCK'.format('PRIVATE' if (isinstance")])
+M('C10', 'key-magic-private-as-public', PGP, "'PUBLIC' if (isinstance(self._key, Public) and not isinstance(self._key, Private)) else", "'PUBLIC' if isinstance(self._key, Public) else", 'C10.4')
+M('C10', 'signature-label-lowercase', PGP, "    def magic(self):\n        return \"SIGNATURE\"", "    def magic(self):\n        return \"Signature\"", 'C10.4')
+
+_SIG_CHECK = "        if unarmored['magic'] is not None and unarmored['magic'] != 'SIGNATURE':\n            raise ValueError('Expected: SIGNATURE. Got: {}'.format(str(unarmored['magic'])))\n"
+_MSG_CHECK = "        if unarmored['magic'] is not None and unarmored['magic'] not in ['MESSAGE', 'SIGNATURE']:\n            raise ValueError('Expected: MESSAGE. Got: {}'.format(str(unarmored['magic'])))\n"
+_KEY_CHECK = "        if unarmored['magic'] is not None and 'KEY' not in unarmored['magic']:\n            raise ValueError('Expected: KEY. Got: {}'.format(str(unarmored['magic'])))\n"
+T('C10', 'twin-kind-checks-local-demorgan-tuple', PGP, _SIG_CHECK,
+  "        magic = unarmored['magic']\n        if not (magic is None or magic == 'SIGNATURE'):\n            raise ValueError('Expected: SIGNATURE. Got: {}'.format(str(magic)))\n",
+  more=[(PGP, "class PGPMessage(Armorable, PGPObject):\n", "class PGPMessage(Armorable, PGPObject):\n    _armor_kinds = ('MESSAGE', 'SIGNATURE')\n\n"),
+        (PGP, _MSG_CHECK, "        magic = unarmored['magic']\n        if magic is not None and magic not in self._armor_kinds:\n            raise ValueError('Expected: MESSAGE. Got: {}'.format(str(magic)))\n"),
+        (PGP, "        # cleartext signature\n        if unarmored['magic'] == 'SIGNATURE':", "        # cleartext signature\n        if magic == 'SIGNATURE':"),
+        (PGP, _KEY_CHECK, "        magic = unarmored['magic']\n        if magic is not None and 'KEY' not in magic:\n            raise ValueError('Expected: KEY. Got: {}'.format(str(magic)))\n")])
+T('C10', 'twin-kind-checks-nested-if-set', PGP, _SIG_CHECK,
+  "        if unarmored['magic'] is not None:\n            if not unarmored['magic'] == 'SIGNATURE':\n                raise ValueError('Expected: SIGNATURE. Got: {}'.format(str(unarmored['magic'])))\n",
+  more=[(PGP, _MSG_CHECK, "        label = unarmored['magic']\n        if label is None or label in {'MESSAGE', 'SIGNATURE'}:\n            pass\n        else:\n            raise ValueError('Expected: MESSAGE. Got: {}'.format(str(label)))\n"),
+        (PGP, _KEY_CHECK, "        if unarmored['magic'] is not None and unarmored['magic'].find('KEY') < 0:\n            raise ValueError('Expected: KEY. Got: {}'.format(str(unarmored['magic'])))\n")])
+T('C10', 'twin-message-parse-generator-helper', PGP, "    def parse(self, packet):\n        unarmored = self.ascii_unarmor(packet)\n        data = unarmored['body']\n\n        if unarmored['magic'] is not None and unarmored['magic'] not in ['MESSAGE', 'SIGNATURE']:",
+  "    @staticmethod\n    def _iter_packets(data):\n        while len(data) > 0:\n            yield Packet(data)\n\n    def parse(self, packet):\n        unarmored = self.ascii_unarmor(packet)\n        data = unarmored['body']\n\n        if unarmored['magic'] is not None and unarmored['magic'] not in ['MESSAGE', 'SIGNATURE']:",
+  more=[(PGP, "            while len(data) > 0:\n                pkt = Packet(data)\n                if not isinstance(pkt, Signature):  # pragma: no cover", "            for pkt in self._iter_packets(data):\n                if not isinstance(pkt, Signature):  # pragma: no cover"),
+        (PGP, "        else:\n            while len(data) > 0:\n                self |= Packet(data)\n", "        else:\n            for pkt in self._iter_packets(data):\n                self |= pkt\n")])
+M('C10', 'sig-kind-check-or', PGP, "        if unarmored['magic'] is not None and unarmored['magic'] != 'SIGNATURE':", "        if unarmored['magic'] is None or unarmored['magic'] != 'SIGNATURE':", 'C10.5')
+M('C10', 'sig-kind-check-after-packet', PGP, _SIG_CHECK + "\n        if unarmored['headers'] is not None:\n            self.ascii_headers = unarmored['headers']\n\n        # load *one* packet from data\n        pkt = Packet(data)\n",
+  "        if unarmored['headers'] is not None:\n            self.ascii_headers = unarmored['headers']\n\n        # load *one* packet from data\n        pkt = Packet(data)\n" + _SIG_CHECK, 'C10.5')
+M('C10', 'msg-kind-check-accepts-private-key', PGP, "unarmored['magic'] not in ['MESSAGE', 'SIGNATURE']:", "unarmored['magic'] not in ['MESSAGE', 'SIGNATURE', 'PRIVATE KEY BLOCK']:", 'C10.5')
+M('C10', 'msg-kind-check-drops-signature', PGP, "unarmored['magic'] not in ['MESSAGE', 'SIGNATURE']:", "unarmored['magic'] not in ['MESSAGE']:", 'C10.5')
+M('C10', 'key-kind-check-typeerror', PGP, "            raise ValueError('Expected: KEY. Got: {}'.format(str(unarmored['magic'])))", "            raise TypeError('Expected: KEY. Got: {}'.format(str(unarmored['magic'])))", 'C10.5')
+M('C10', 'key-kind-check-only-warns', PGP, "            raise ValueError('Expected: KEY. Got: {}'.format(str(unarmored['magic'])))", "            warnings.warn('Expected: KEY. Got: {}'.format(str(unarmored['magic'])))", 'C10.5')
+M('C10', 'key-kind-check-accepts-anything-with-e', PGP, "'KEY' not in unarmored['magic']:", "'E' not in unarmored['magic']:", 'C10.5')
+M('C10', 'cleartext-fallback-empty', PGP, "            self |= self.dash_unescape(unarmored['cleartext'])", "            self |= self.dash_unescape(unarmored['cleartext'] or '')", 'C10.5')
+
+_UNARMOR_TAIL = """        m = Armorable.__armor_regex.search(text)
+
+        if m is None:  # pragma: no cover
+            raise ValueError("Expected: ASCII-armored PGP data")
+
+        m = m.groupdict()
+
+        if m['hashes'] is not None:
+            m['hashes'] = m['hashes'].split(',')
+
+        if m['headers'] is not None:
+            m['headers'] = collections.OrderedDict(re.findall('^(?P<key>.+): (?P<value>.+)$\\n?', m['headers'], flags=re.MULTILINE))
+
+        if m['body'] is not None:
+            try:
+                m['body'] = bytearray(base64.b64decode(m['body'].encode()))
+
+            except (binascii.Error, TypeError) as ex:
+                raise PGPError(str(ex)) from ex
+
+        if m['crc'] is not None:
+            m['crc'] = Header.bytes_to_int(base64.b64decode(m['crc'].encode()))
+            if Armorable.crc24(m['body']) != m['crc']:
+                warnings.warn('Incorrect crc24', stacklevel=3)
+
+        return m
+"""
+T('C10', 'twin-unarmor-split-names-temporaries', TY, _UNARMOR_TAIL, """        match = Armorable.__armor_regex.search(text)
+
+        if match is None:  # pragma: no cover
+            raise ValueError("Expected: ASCII-armored PGP data")
+
+        fields = match.groupdict()
+
+        hashes = fields['hashes']
+        if hashes is not None:
+            fields['hashes'] = hashes.split(',')
+
+        headers = fields['headers']
+        if headers is not None:
+            fields['headers'] = collections.OrderedDict(Armorable.__armor_header_regex.findall(headers))
+
+        body = fields['body']
+        if body is not None:
+            try:
+                body = bytearray(base64.b64decode(body.encode()))
+
+            except (binascii.Error, TypeError) as ex:
+                raise PGPError(str(ex)) from ex
+
+            fields['body'] = body
+
+        crc = fields['crc']
+        if crc is not None:
+            expected = Header.bytes_to_int(base64.b64decode(crc.encode()))
+            fields['crc'] = expected
+            if Armorable.crc24(body) != expected:
+                warnings.warn('Incorrect crc24', stacklevel=3)
+
+        return fields
+""", more=[(TY, "    @property\n    def charset(self):", "    __armor_header_regex = re.compile('^(?P<key>.+): (?P<value>.+)$\\n?', flags=re.MULTILINE)\n\n    @property\n    def charset(self):")])
+T('C10', 'twin-unarmor-swapped-compare-else', TY, "            if Armorable.crc24(m['body']) != m['crc']:\n                warnings.warn('Incorrect crc24', stacklevel=3)",
+  "            if m['crc'] == Armorable.crc24(m['body']):\n                pass\n            else:\n                warnings.warn('Incorrect crc24', stacklevel=3)")
+T('C10', 'twin-unarmor-early-return-no-crc', TY, "        if m['crc'] is not None:\n            m['crc'] = Header.bytes_to_int(base64.b64decode(m['crc'].encode()))\n            if Armorable.crc24(m['body']) != m['crc']:\n                warnings.warn('Incorrect crc24', stacklevel=3)\n\n        return m",
+  "        if m['crc'] is None:\n            return m\n\n        m['crc'] = int.from_bytes(base64.b64decode(m['crc'].encode('ascii')), 'big')\n        mismatch = Armorable.crc24(m['body']) != m['crc']\n        if mismatch:\n            warnings.warn('Incorrect crc24', stacklevel=3)\n\n        return m")
+M('C10', 'crc-compared-undecoded', TY, "            m['crc'] = Header.bytes_to_int(base64.b64decode(m['crc'].encode()))\n            if Armorable.crc24(m['body']) != m['crc']:",
+  "            if Armorable.crc24(m['body']) != m['crc']:", 'C10.6')
+M('C10', 'crc-of-the-crc-line', TY, "            if Armorable.crc24(m['body']) != m['crc']:", "            if Armorable.crc24(base64.b64decode(m['crc'] if False else 'AAAA')) != m['crc']:", 'C10.6')
+M('C10', 'crc-warn-in-else', TY, "            if Armorable.crc24(m['body']) != m['crc']:\n                warnings.warn('Incorrect crc24', stacklevel=3)",
+  "            if Armorable.crc24(m['body']) != m['crc']:\n                pass\n            else:\n                warnings.warn('Incorrect crc24', stacklevel=3)", 'C10.6')
+M('C10', 'crc-checked-only-with-headers', TY, "            if Armorable.crc24(m['body']) != m['crc']:", "            if m['headers'] is not None and Armorable.crc24(m['body']) != m['crc']:", 'C10.6')
+M('C10', 'body-not-decoded', TY, "                m['body'] = bytearray(base64.b64decode(m['body'].encode()))", "                m['body'] = bytearray(m['body'].encode())", 'C10.6')
+M('C10', 'is-armor-match', TY, "        return Armorable.__armor_regex.search(text) is not None", "        return Armorable.__armor_regex.match(text) is not None", 'C10.7')
+M('C10', 'header-reader-sep-no-space', TY, "re.findall('^(?P<key>.+): (?P<value>.+)$\\n?', m['headers'], flags=re.MULTILINE)", "re.findall('^(?P<key>.+):(?P<value>.+)$\\n?', m['headers'], flags=re.MULTILINE)", 'C10.7')
+M('C10', 'end-label-not-tied', TY, "^-{5}END\\ PGP\\ (?P=magic)-{5}(?:\\r?\\n)?", "^-{5}END\\ PGP\\ [A-Z0-9 ,]+-{5}(?:\\r?\\n)?", 'C10.7')
+T('C10', 'twin-str-textwrap-to-bytes', TY, "        payload = '\\n'.join(payload[i:(i + 64)] for i in range(0, len(payload), 64))", "        payload = '\\n'.join(textwrap.wrap(payload, 64))",
+  more=[(TY, "crc=base64.b64encode(PGPObject.int_to_bytes(self.crc24(self.__bytes__()), 3)).decode('latin-1')", "crc=base64.b64encode(self.crc24(self.__bytes__()).to_bytes(3, 'big')).decode('latin-1')"),
+        (TY, "import warnings\n", "import textwrap\nimport warnings\n")])
+M('C10', 'wrap-textwrap-80', TY, "        payload = '\\n'.join(payload[i:(i + 64)] for i in range(0, len(payload), 64))", "        payload = '\\n'.join(textwrap.wrap(payload, 80))", 'C10.3',
+  more=[(TY, "import warnings\n", "import textwrap\nimport warnings\n")])
+M('C10', 'crc-to-bytes-2', TY, "crc=base64.b64encode(PGPObject.int_to_bytes(self.crc24(self.__bytes__()), 3)).decode('latin-1')", "crc=base64.b64encode((self.crc24(self.__bytes__()) & 0xFFFF).to_bytes(2, 'big')).decode('latin-1')", 'C10.2')
+T('C10', 'twin-kind-check-frozenset-constant', PGP, _MSG_CHECK, "        if unarmored['magic'] is not None and unarmored['magic'] not in PGPMessage._ARMOR_LABELS:\n            raise ValueError('Expected: MESSAGE. Got: {}'.format(str(unarmored['magic'])))\n",
+  more=[(PGP, "class PGPMessage(Armorable, PGPObject):\n", "class PGPMessage(Armorable, PGPObject):\n    _ARMOR_LABELS = frozenset(['MESSAGE', 'SIGNATURE'])\n\n")])
+M('C10', 'kind-check-frozenset-with-key-label', PGP, _MSG_CHECK, "        if unarmored['magic'] is not None and unarmored['magic'] not in PGPMessage._ARMOR_LABELS:\n            raise ValueError('Expected: MESSAGE. Got: {}'.format(str(unarmored['magic'])))\n", 'C10.5',
+  more=[(PGP, "class PGPMessage(Armorable, PGPObject):\n", "class PGPMessage(Armorable, PGPObject):\n    _ARMOR_LABELS = frozenset(['MESSAGE', 'SIGNATURE', 'PUBLIC KEY BLOCK'])\n\n")])
+T('C10', 'twin-crc-msb-first-formulation', TY, _CRC_BODY, """        crc = Armorable.__crc24_init
+        for b in bytes(data):
+            for bit in range(7, -1, -1):
+                top = ((crc >> 23) ^ (b >> bit)) & 1
+                crc = (crc << 1) & 0xFFFFFF
+                if top:
+                    crc ^= Armorable.__crc24_poly & 0xFFFFFF
+        return crc
+""")
+M('C10', 'crc-msb-first-wrong-tap', TY, _CRC_BODY, """        crc = Armorable.__crc24_init
+        for b in bytes(data):
+            for bit in range(7, -1, -1):
+                top = ((crc >> 22) ^ (b >> bit)) & 1
+                crc = (crc << 1) & 0xFFFFFF
+                if top:
+                    crc ^= Armorable.__crc24_poly & 0xFFFFFF
+        return crc
+""", 'C10.1')
+T('C10', 'twin-str-headers-by-key-newline-in-body', TY, _STR_BODY, """        payload = base64.b64encode(self.__bytes__()).decode('latin-1')
+        lines = [payload[i:(i + 64)] for i in range(0, len(payload), 64)]
+        body = '\\n'.join(lines) + '\\n'
+        headers = ''
+        for name in self.ascii_headers:
+            headers += '{}: {}\\n'.format(name, self.ascii_headers[name])
+
+        return '-----BEGIN PGP {0}-----\\n{1}\\n{2}={3}\\n-----END PGP {0}-----\\n'.format(
+            self.magic, headers, body, base64.b64encode(PGPObject.int_to_bytes(self.crc24(self.__bytes__()), 3)).decode('latin-1'))
+""")
+M('C10', 'headers-value-is-key', TY, "'{key}: {val}\\n'.format(key=key, val=val)", "'{key}: {val}\\n'.format(key=key, val=key)", 'C10.7')
+M('C10', 'headers-joined-without-newline', TY, "'{key}: {val}\\n'.format(key=key, val=val)", "'{key}: {val}'.format(key=key, val=val)", 'C10.7')
+T('C10', 'twin-kind-checks-none-in-tuple-truthiness', PGP, _SIG_CHECK, "        if unarmored['magic'] not in (None, 'SIGNATURE'):\n            raise ValueError('Expected: SIGNATURE. Got: {}'.format(str(unarmored['magic'])))\n",
+  more=[(PGP, _MSG_CHECK, "        accepted = {'MESSAGE', 'SIGNATURE'}\n        if unarmored['magic'] and unarmored['magic'] not in accepted:\n            raise ValueError('Expected: MESSAGE. Got: {}'.format(str(unarmored['magic'])))\n"),
+        (PGP, _KEY_CHECK, "        if unarmored['magic'] is not None and not unarmored['magic'].count('KEY'):\n            raise ValueError('Expected: KEY. Got: {}'.format(str(unarmored['magic'])))\n")])
+T('C10', 'twin-unarmor-compound-condition-raise', TY, "        if m['crc'] is not None:\n            m['crc'] = Header.bytes_to_int(base64.b64decode(m['crc'].encode()))\n            if Armorable.crc24(m['body']) != m['crc']:\n                warnings.warn('Incorrect crc24', stacklevel=3)",
+  "        if m['crc']:\n            m['crc'] = Header.bytes_to_int(base64.b64decode(m['crc'].encode()))\n        if m['crc'] is not None and not (Armorable.crc24(m['body']) == m['crc']):\n            import logging\n            logging.getLogger(__name__).warning('Incorrect crc24')")
+M('C10', 'crc-compound-condition-or', TY, "            if Armorable.crc24(m['body']) != m['crc']:", "            if m['magic'] == 'SIGNATURE' and Armorable.crc24(m['body']) != m['crc']:", 'C10.6')
+
+
+# ---- stress patches written by independent sub-agents (selftest/patches/G9-*.diff), turned into text edits hunk by hunk
+def _edits_from_diff(name):
+    import os, re
+    path = os.path.join(os.path.dirname(os.path.abspath(__file__)) if '__file__' in globals() else 'selftest', 'patches', name)
+    if not os.path.exists(path):
+        path = os.path.join('selftest', 'patches', name)
+    edits, cur, old, new = [], None, [], []
+
+    def flush():
+        if cur is not None and (old or new) and old != new:
+            edits.append((cur, ''.join(old), ''.join(new)))
+    with open(path, encoding='utf-8') as fh:
+        lines = fh.read().splitlines(keepends=True)
+    for l in lines:
+        if l.startswith('--- '):
+            continue
+        if l.startswith('+++ '):
+            flush()
+            old, new = [], []
+            cur = re.sub(r'^b/', '', l[4:].split('\t')[0].strip())
+            continue
+        if l.startswith('@@'):
+            flush()
+            old, new = [], []
+            continue
+        if cur is None or l.startswith('\\'):
+            continue
+        if l.startswith('-'):
+            old.append(l[1:])
+        elif l.startswith('+'):
+            new.append(l[1:])
+        elif l.startswith(' ') or l == '\n':
+            old.append(l[1:] if l.startswith(' ') else l)
+            new.append(l[1:] if l.startswith(' ') else l)
+    flush()
+    return edits
+
+
+def _TD(prop, id, name):
+    e = _edits_from_diff(name)
+    T(prop, id, e[0][0], e[0][1], e[0][2], more=e[1:])
+
+
+def _MD(prop, id, name, rule):
+    e = _edits_from_diff(name)
+    M(prop, id, e[0][0], e[0][1], e[0][2], rule, more=e[1:])
+
+
+for _n, _what in (('A-twin01', 'crc-test-before-shift-textwrap'), ('A-twin02', 'crc-variant-writer-variant'), ('A-twin07', 'writer-helpers-head-tail-constants'),
+                  ('A-twin08', 'writer-percent-template-findall'), ('A-twin10', 'writer-format-map-standard-b64encode')):
+    _TD('C10', 'stress-%s-%s' % (_n, _what), 'G9-%s.diff' % _n)
+for _n, _what, _r in (('A-mut01', 'crc-width-pad-dropped', 'C10.2'), ('A-mut02', 'header-lines-joined-by-newline', 'C10.7'), ('A-mut04', 'crc-restarts-per-slice', 'C10.2'),
+                      ('A-mut06', 'crc-greater-than-instead-of-bit-test', 'C10.1'), ('A-mut07', 'crc-urlsafe-alphabet', 'C10.2'), ('A-mut08', 'crc-mask-20-bits', 'C10.1')):
+    _MD('C10', 'stress-%s-%s' % (_n, _what), 'G9-%s.diff' % _n, _r)
+for _i, _what in enumerate(('local-none-in-tuple-fstring', 'shared-helper-with-predicates', 'class-constants-inverted-branches', 'packet-generator-if-chain-labels',
+                            'demorgan-iter-sentinel-loop', 'nested-ifs-percent-messages', 'flag-early-return', 'per-class-armor-ok-predicate',
+                            'itemgetter-get-find', 'error-factory-dict-lookup-label'), 1):
+    _TD('C10', 'stress-C-twin%02d-%s' % (_i, _what), 'G9-C-twin%02d.diff' % _i)
+for _i, (_what, _r) in enumerate((('message-labels-substring', 'C10.5'), ('key-word-block', 'C10.5'), ('signature-and-or', 'C10.5'), ('check-after-first-packet', 'C10.5'),
+                                  ('key-check-only-warns', 'C10.5'), ('cleartext-or-empty', 'C10.5'), ('cleartext-unescaped-twice', 'C10.5'),
+                                  ('key-magic-via-is-public', 'C10.4')), 1):
+    _MD('C10', 'stress-C-mut%02d-%s' % (_i, _what), 'G9-C-mut%02d.diff' % _i, _r)
+for _i in range(1, 11):
+    _TD('C10', 'stress-B-twin%02d-reader-regex-respelling' % _i, 'G9-B-twin%02d.diff' % _i)
+for _i, _what, _r in ((1, 'crc-zero-skips-check', 'C10.6'), (2, 'unarmor-match-not-search', 'C10.7'), (4, 'reader-lines-64', 'C10.3'), (5, 'crc-group-1-to-4', 'C10.2'),
+                      (6, 'end-label-free', 'C10.7')):
+    _MD('C10', 'stress-B-mut%02d-%s' % (_i, _what), 'G9-B-mut%02d.diff' % _i, _r)
+
 # =============================================================================================== C11
 M('C11', 'escape-two-spaces', PGP, "        return re.subn(r'^-', '- -', text, flags=re.MULTILINE)[0]", "        return re.subn(r'^-', '-  -', text, flags=re.MULTILINE)[0]", 'C11.1')
 M('C11', 'unescape-no-multiline', PGP, "        return re.subn(r'^- ', '', text, flags=re.MULTILINE)[0]", "        return re.subn(r'^- ', '', text)[0]", 'C11.1')
@@ -467,6 +1206,161 @@ M('C11', 'hash-alphabet-no-digits', TY, "(Hash:\\ (?P<hashes>[A-Za-z0-9\\-,]+)(?
 M('C11', 'final-line-greedy', TY, "(?P<cleartext>(.*\\r?\\n)*(.*?(?=\\r?\\n-{5})))(?:\\r?\\n)", "(?P<cleartext>(.*\\r?\\n)*(.*(?=\\r?\\n-{5})))(?:\\r?\\n)", 'C11.7')
 T('C11', 'twin-sub-instead-of-subn', PGP, "        return re.subn(r'^- ', '', text, flags=re.MULTILINE)[0]", "        return re.sub(r'^- ', '', text, flags=re.MULTILINE)")
 T('C11', 'twin-strip-at-end-line', PGP, "            return re.subn(r'[ \\t]+(?=\\r?$)', '', self.message, flags=re.MULTILINE)[0]", "            return re.sub(r'[\\t ]+(?=\\r?$)', '', self.message, flags=re.MULTILINE)")
+
+# ---- C11 hardening: twins (every family a rule was made blind to) and new mutants (one or more per rewritten rule)
+_ESC = "        return re.subn(r'^-', '- -', text, flags=re.MULTILINE)[0]"
+_UNE = "        return re.subn(r'^- ', '', text, flags=re.MULTILINE)[0]"
+T('C11', 'twin-dash-compiled-constants', PGP, _UNE, "        unescaped = PGPMessage._dash_escaped_line.sub('', text)\n        return unescaped",
+  more=[(PGP, _ESC, "        escaped = PGPMessage._dash_leading_line.sub('- -', text)\n        return escaped"),
+        (PGP, "class PGPMessage(Armorable, PGPObject):\n", "class PGPMessage(Armorable, PGPObject):\n    _dash_escaped_line = re.compile(r'^- ', flags=re.MULTILINE)\n    _dash_leading_line = re.compile(r'^-', flags=re.MULTILINE)\n\n")])
+T('C11', 'twin-dash-inline-flag-positional', PGP, _ESC, "        return re.sub(r'(?m)^-', '- -', text)",
+  more=[(PGP, _UNE, "        return re.sub('^- ', '', text, 0, re.M)")])
+T('C11', 'twin-dash-group-backreference', PGP, _ESC, "        return re.sub(r'^(-)', r'- \\1', text, flags=re.MULTILINE)")
+T('C11', 'twin-dash-whole-match-reference', PGP, _ESC, "        return re.sub(r'^-', r'- \\g<0>', text, flags=re.M)")
+T('C11', 'twin-dash-lookahead-insert', PGP, _ESC, "        return re.sub(r'^(?=-)', '- ', text, flags=re.MULTILINE)")
+M('C11', 'escape-first-match-only', PGP, _ESC, "        return re.subn(r'^-', '- -', text, count=1, flags=re.MULTILINE)[0]", 'C11.1')
+M('C11', 'escape-start-of-text-only', PGP, _ESC, "        return re.subn(r'\\A-', '- -', text, flags=re.MULTILINE)[0]", 'C11.1')
+M('C11', 'escape-drops-dash', PGP, _ESC, "        return re.subn(r'^-', '- ', text, flags=re.MULTILINE)[0]", 'C11.1')
+M('C11', 'unescape-optional-space', PGP, _UNE, "        return re.subn(r'^- ?', '', text, flags=re.MULTILINE)[0]", 'C11.1')
+M('C11', 'unescape-only-before-dash', PGP, _UNE, "        return re.subn(r'^- (?=-)', '', text, flags=re.MULTILINE)[0]", 'C11.1')
+M('C11', 'unescape-any-dash-space', PGP, _UNE, "        return re.subn(r'- ', '', text, flags=re.MULTILINE)[0]", 'C11.1')
+M('C11', 'unescape-other-text', PGP, _UNE, "        return re.subn(r'^- ', '', text.strip(), flags=re.MULTILINE)[0]", 'C11')
+
+_MSTR = """        if self.type == 'cleartext':
+            tmpl = u"-----BEGIN PGP SIGNED MESSAGE-----\\n" \\
+                   u"{hhdr:s}\\n" \\
+                   u"{cleartext:s}\\n" \\
+                   u"{signature:s}"
+
+            # only add a Hash: header if we actually have at least one signature
+            hashes = set(s.hash_algorithm.name for s in self.signatures)
+            hhdr = 'Hash: {hashes:s}\\n'.format(hashes=','.join(sorted(hashes))) if hashes else ''
+
+            return tmpl.format(hhdr=hhdr,
+                               cleartext=self.dash_escape(self.bytes_to_text(self._message)),
+                               signature=super(PGPMessage, self).__str__())
+
+        return super(PGPMessage, self).__str__()
+"""
+T('C11', 'twin-str-early-return-concat', PGP, _MSTR, """        if self.type != 'cleartext':
+            return super(PGPMessage, self).__str__()
+
+        hash_names = {sig.hash_algorithm.name for sig in self.signatures}
+        if hash_names:
+            hash_header = 'Hash: ' + ','.join(sorted(hash_names)) + '\\n'
+        else:
+            hash_header = ''
+
+        escaped_text = self.dash_escape(self.bytes_to_text(self._message))
+        signature_block = super(PGPMessage, self).__str__()
+
+        return u"-----BEGIN PGP SIGNED MESSAGE-----\\n{hhdr:s}\\n{cleartext:s}\\n{signature:s}".format(
+            hhdr=hash_header, cleartext=escaped_text, signature=signature_block)
+""")
+T('C11', 'twin-str-fstring-list', PGP, _MSTR, """        armor = super().__str__()
+        if self.type == 'cleartext':
+            names = sorted(set([s.hash_algorithm.name for s in self._signatures]))
+            out = '-----BEGIN PGP SIGNED MESSAGE-----\\n'
+            if len(names) > 0:
+                out += f"Hash: {','.join(names)}\\n"
+            out += '\\n' + self.dash_escape(self.message) + '\\n'
+            return out + armor
+
+        return armor
+""")
+T('C11', 'twin-str-percent', PGP, "            hhdr = 'Hash: {hashes:s}\\n'.format(hashes=','.join(sorted(hashes))) if hashes else ''",
+  "            hhdr = ''\n            if hashes:\n                hhdr = 'Hash: %s\\n' % ','.join(sorted(hashes))")
+M('C11', 'hash-header-space-separated', PGP, "hashes=','.join(sorted(hashes))", "hashes=', '.join(sorted(hashes))", 'C11.3')
+M('C11', 'hash-header-first-signature-only', PGP, "            hashes = set(s.hash_algorithm.name for s in self.signatures)", "            hashes = set(s.hash_algorithm.name for s in self.signatures[:1])", 'C11.3')
+M('C11', 'hash-header-lowercase', PGP, "            hashes = set(s.hash_algorithm.name for s in self.signatures)", "            hashes = set(s.hash_algorithm.name.lower() for s in self.signatures)", 'C11.3')
+M('C11', 'hash-header-when-empty', PGP, "if hashes else ''", "if not hashes else ''", 'C11.3')
+M('C11', 'hash-header-no-blank-line', PGP, "                   u\"{hhdr:s}\\n\" \\\n", "                   u\"{hhdr:s}\" \\\n", 'C11.3')
+M('C11', 'escape-twice-on-write', PGP, "cleartext=self.dash_escape(self.bytes_to_text(self._message)),", "cleartext=self.dash_escape(self.dash_escape(self.bytes_to_text(self._message))),", 'C11.2')
+M('C11', 'write-raw-message-bytes', PGP, "cleartext=self.dash_escape(self.bytes_to_text(self._message)),", "cleartext=self.dash_escape(str(self._message)),", 'C11.2')
+M('C11', 'hash-reader-no-dash', TY, "(Hash:\\ (?P<hashes>[A-Za-z0-9\\-,]+)(?:\\r?\\n){2})?", "(Hash:\\ (?P<hashes>[A-Za-z0-9_]+)(?:\\r?\\n){2})?", 'C11.3')
+M('C11', 'hash-reader-one-newline', TY, "(Hash:\\ (?P<hashes>[A-Za-z0-9\\-,]+)(?:\\r?\\n){2})?", "(Hash:\\ (?P<hashes>[A-Za-z0-9\\-,]+)(?:\\r?\\n))?", 'C11.3')
+T('C11', 'twin-regex-newlines-spelled-out', TY, "(Hash:\\ (?P<hashes>[A-Za-z0-9\\-,]+)(?:\\r?\\n){2})?", "(Hash:\\ (?P<hashes>[-,0-9A-Za-z]+)\\r?\\n(?:\\r\\n|\\n))?",
+  more=[(TY, "(^-{5}BEGIN\\ PGP\\ SIGNED\\ MESSAGE-{5}(?:\\r?\\n)", "(^-{5}BEGIN\\ PGP\\ SIGNED\\ MESSAGE-{5}\\r?\\n"),
+        (TY, "(?P<cleartext>(.*\\r?\\n)*(.*?(?=\\r?\\n-{5})))(?:\\r?\\n)", "(?P<cleartext>(?:.*\\r?\\n)*(?:.*?(?=\\r?\\n-----)))\\r?\\n")])
+M('C11', 'final-line-greedy-noncapturing', TY, "(?P<cleartext>(.*\\r?\\n)*(.*?(?=\\r?\\n-{5})))(?:\\r?\\n)", "(?P<cleartext>(?:.*\\r?\\n)*(?:.*(?=\\r?\\n-{5})))(?:\\r?\\n)", 'C11.7')
+
+T('C11', 'twin-parse-unescape-temporary', PGP, "            self |= self.dash_unescape(unarmored['cleartext'])", "            text = unarmored['cleartext']\n            text = self.dash_unescape(text)\n            self |= text")
+M('C11', 'unescape-stripped-group', PGP, "            self |= self.dash_unescape(unarmored['cleartext'])", "            self |= self.dash_unescape(unarmored['cleartext'].strip())", 'C11.2')
+M('C11', 'unescape-result-dropped', PGP, "            self |= self.dash_unescape(unarmored['cleartext'])", "            self.dash_unescape(unarmored['cleartext'])\n            self |= unarmored['cleartext']", 'C11.2')
+
+_SD = "            return re.subn(r'[ \\t]+(?=\\r?$)', '', self.message, flags=re.MULTILINE)[0]"
+T('C11', 'twin-signed-data-compiled-inline-flag', PGP, _SD, "            stripped = PGPMessage._trailing_blanks.sub('', self.message)\n            return stripped",
+  more=[(PGP, "class PGPMessage(Armorable, PGPObject):\n", "class PGPMessage(Armorable, PGPObject):\n    _trailing_blanks = re.compile(r'(?m)[\\t ]+(?=\\r?$)')\n\n")])
+T('C11', 'twin-signed-data-ifexp', PGP, "        if self.type == 'cleartext':\n            # RFC 4880 7.1: trailing spaces and tabs of each line are not part of the signed text\n" + _SD + "\n\n        return self.message",
+  "        return re.sub('[ \\t]+(?=\\r?$)', '', self.message, flags=re.M) if self.type == 'cleartext' else self.message")
+M('C11', 'strip-star', PGP, _SD, "            return re.subn(r'[ \\t]*(?=\\r?$)', 'x', self.message, flags=re.MULTILINE)[0]", 'C11.4')
+M('C11', 'strip-before-newline-only', PGP, _SD, "            return re.subn(r'[ \\t]+(?=\\r?\\n)', '', self.message, flags=re.MULTILINE)[0]", 'C11.4')
+M('C11', 'strip-first-line-only', PGP, _SD, "            return re.subn(r'[ \\t]+(?=\\r?$)', '', self.message, count=1, flags=re.MULTILINE)[0]", 'C11.4')
+M('C11', 'strip-all-whitespace-class', PGP, _SD, "            return re.subn(r'[ \\t\\r]+(?=\\r?$)', '', self.message, flags=re.MULTILINE)[0]", 'C11.4')
+M('C11', 'strip-applied-to-literal-too', PGP, "            return re.subn(r'[ \\t]+(?=\\r?$)', '', self.message, flags=re.MULTILINE)[0]\n\n        return self.message",
+  "            return re.subn(r'[ \\t]+(?=\\r?$)', '', self.message, flags=re.MULTILINE)[0]\n\n        return self.message.strip()", 'C11.4')
+
+_SIGN = """        sig_type = SignatureType.BinaryDocument
+        hash_algo = prefs.pop('hash', None)
+
+        if subject is None:
+            sig_type = SignatureType.Timestamp
+
+        if isinstance(subject, PGPMessage):
+            if subject.type == 'cleartext':
+                sig_type = SignatureType.CanonicalDocument
+
+            subject = subject._signed_data
+
+        sig = PGPSignature.new(sig_type, self.key_algorithm, hash_algo, self.fingerprint.keyid, created=prefs.pop('created', None))
+"""
+T('C11', 'twin-sign-if-chain', PGP, _SIGN, """        hash_algo = prefs.pop('hash', None)
+
+        if subject is None:
+            sig_type = SignatureType.Timestamp
+
+        elif isinstance(subject, PGPMessage):
+            is_cleartext = subject.type == 'cleartext'
+            sig_type = SignatureType.CanonicalDocument if is_cleartext else SignatureType.BinaryDocument
+            subject = subject._signed_data
+
+        else:
+            sig_type = SignatureType.BinaryDocument
+
+        sig = PGPSignature.new(sig_type, self.key_algorithm, hash_algo, self.fingerprint.keyid,
+                               created=prefs.pop('created', None))
+""", more=[(PGP, "            _data += re.subn(br'\\r?\\n', b'\\r\\n', subject)[0]", "            canonical = re.sub(br'\\r?\\n', b'\\r\\n', subject)\n            _data += canonical")])
+M('C11', 'sign-view-only-for-literal', PGP, "                sig_type = SignatureType.CanonicalDocument\n\n            subject = subject._signed_data", "                sig_type = SignatureType.CanonicalDocument\n                subject = subject.message\n\n            else:\n                subject = subject._signed_data", 'C11.4')
+M('C11', 'cleartext-signed-as-standalone', PGP, "                sig_type = SignatureType.CanonicalDocument\n", "                sig_type = SignatureType.Standalone\n", 'C11.6')
+M('C11', 'literal-signed-as-text', PGP, "        if isinstance(subject, PGPMessage):\n            if subject.type == 'cleartext':\n                sig_type = SignatureType.CanonicalDocument", "        if isinstance(subject, PGPMessage):\n            if subject.type in ('cleartext', 'literal'):\n                sig_type = SignatureType.CanonicalDocument", 'C11.6')
+
+T('C11', 'twin-verify-extend-generators', PGP, "                for sig in _filter_sigs(subject.signatures):\n                    sspairs.append((sig, subject._signed_data))",
+  "                sspairs.extend((sig, subject._signed_data) for sig in _filter_sigs(subject.signatures))")
+T('C11', 'twin-verify-view-in-local', PGP, "                for sig in _filter_sigs(subject.signatures):\n                    sspairs.append((sig, subject._signed_data))",
+  "                signed_view = subject._signed_data\n                sspairs += [(s, signed_view) for s in _filter_sigs(subject.signatures)]")
+M('C11', 'verify-stripped-message', PGP, "                    sspairs.append((sig, subject._signed_data))", "                    sspairs.append((sig, subject.message.rstrip()))", 'C11.4')
+M('C11', 'verify-message-object', PGP, "                    sspairs.append((sig, subject._signed_data))", "                    sspairs.append((sig, subject))", 'C11.4')
+T('C11', 'twin-str-hash-header-if-signatures', PGP, "            hhdr = 'Hash: {hashes:s}\\n'.format(hashes=','.join(sorted(hashes))) if hashes else ''",
+  "            hhdr = ''\n            if self.signatures:\n                hhdr = 'Hash: ' + ','.join(sorted(hashes)) + '\\n'")
+M('C11', 'hash-header-if-no-signatures', PGP, "            hhdr = 'Hash: {hashes:s}\\n'.format(hashes=','.join(sorted(hashes))) if hashes else ''",
+  "            hhdr = ''\n            if not self.signatures:\n                hhdr = 'Hash: ' + ','.join(sorted(hashes)) + '\\n'", 'C11.3')
+T('C11', 'twin-dash-per-line-str-methods', PGP, _ESC, "        return '\\n'.join('- ' + line if line.startswith('-') else line for line in text.split('\\n'))",
+  more=[(PGP, _UNE, "        return '\\n'.join(line.removeprefix('- ') for line in text.split('\\n'))")])
+M('C11', 'escape-per-line-wrong-prefix-test', PGP, _ESC, "        return '\\n'.join('- ' + line if line.startswith('--') else line for line in text.split('\\n'))", 'C11.1')
+M('C11', 'unescape-per-line-removes-dash-only', PGP, _UNE, "        return '\\n'.join(line.removeprefix('-') for line in text.split('\\n'))", 'C11.1')
+
+for _i, _what in enumerate(('sub-everywhere-early-return', 'precompiled-class-constants', 'inline-flag-merged-template-concat', 'positional-count-flags-if-chain-listcomp',
+                            'regex-respellings-percent-bound-super', 'lookahead-insert-mangled-template-fstring', 'inverted-view-flag-extend-generator',
+                            'mangled-compiled-join-parts', 'verify-hoisted-view-local-compile', 'nonraw-patterns-positional-fields-count0'), 1):
+    _TD('C11', 'stress-D-twin%02d-%s' % (_i, _what), 'G9-D-twin%02d.diff' % _i)
+for _i, (_what, _r) in enumerate((('escape-str-replace-first-line', 'C11.1'), ('unescape-flag-in-count-position', 'C11.1'), ('text-literal-signed-as-canonical', 'C11.6'),
+                                  ('strip-misses-last-line', 'C11.4'), ('hash-header-lowercase-hasher-name', 'C11.3'), ('blank-line-folded-into-hash-header', 'C11.3'),
+                                  ('verify-raw-message', 'C11.4'), ('lone-cr-canonicalised', 'C11.4')), 1):
+    _MD('C11', 'stress-D-mut%02d-%s' % (_i, _what), 'G9-D-mut%02d.diff' % _i, _r)
+for _i in range(1, 11):
+    _TD('C11', 'stress-B-twin%02d-reader-regex-respelling' % _i, 'G9-B-twin%02d.diff' % _i)
+for _i, _what, _r in ((7, 'hash-framing-two-or-more', 'C11.3'), (8, 'final-cleartext-line-greedy', 'C11.7')):
+    _MD('C11', 'stress-B-mut%02d-%s' % (_i, _what), 'G9-B-mut%02d.diff' % _i, _r)
 
 # =============================================================================================== C09
 M('C09', 'enc-191', TY, "            if 192 > nl:\n                return Header.int_to_bytes(nl)", "            if 191 > nl:\n                return Header.int_to_bytes(nl)", 'C09.1')
@@ -490,6 +1384,249 @@ M('C09', 'int-to-bytes-little', TY, "        blen = max(minlen, PGPObject.int_by
 M('C09', 'type-map', PT, "{1: 0, 2: 1, 4: 2, 0: 3}[self.llen]", "{1: 0, 2: 1, 4: 3, 0: 2}[self.llen]", 'C09.2')
 T('C09', 'twin-thresholds-flipped', TY, "            if 192 > nl:\n                return Header.int_to_bytes(nl)", "            if nl < 192:\n                return Header.int_to_bytes(nl)")
 T('C09', 'twin-widen-form', TY, "            while 0 < llen < 4 and self.length >= (1 << (8 * llen)):", "            while 0 < llen < 4 and self.length > (1 << (8 * llen)) - 1:")
+
+# --- C09 hardening: behaviour-preserving rewrites of every anchored codec (must stay silent) ...
+_ENC = ("        def _new_length(nl):\n            if 192 > nl:\n                return Header.int_to_bytes(nl)\n\n            elif 8384 > nl:\n"
+        "                elen = ((nl & 0xFF00) + (192 << 8)) + ((nl & 0xFF) - 192)\n                return Header.int_to_bytes(elen, 2)\n\n"
+        "            return b'\\xFF' + Header.int_to_bytes(nl, 4)\n\n        def _old_length(nl, llen):\n"
+        "            return Header.int_to_bytes(nl, llen) if llen > 0 else b''\n\n        return _new_length(length) if nhf else _old_length(length, llen)\n")
+T('C09', 'twin-enc-flat-high-low', TY, _ENC,
+  "        if not nhf:\n            if llen > 0:\n                return Header.int_to_bytes(length, llen)\n            return b''\n\n        if 192 > length:\n"
+  "            return Header.int_to_bytes(length)\n\n        if 8384 > length:\n            high = (length & 0xFF00) + (192 << 8)\n            low = (length & 0xFF) - 192\n"
+  "            return Header.int_to_bytes(high + low, 2)\n\n        return b'\\xFF' + Header.int_to_bytes(length, 4)\n")
+T('C09', 'twin-enc-divmod-bytes', TY, _ENC,
+  "        if not nhf:\n            return length.to_bytes(max(llen, (length.bit_length() + 7) // 8), 'big') if llen > 0 else b''\n        if length < 192:\n"
+  "            return bytes([length])\n        if length < 8384:\n            hi, lo = divmod(length - 192, 256)\n            return bytes([hi + 192, lo])\n"
+  "        return struct.pack('>BI', 0xFF, length) if length < (1 << 32) else b'\\xFF' + Header.int_to_bytes(length, 4)\n",
+  more=[(TY, "import abc\n", "import abc\nimport struct\n")])
+_PARSE_LEN_CALLS = "            part_len, size, partial = _parse_len(b)\n            del b[:size]\n\n            if partial:\n                total = part_len\n                while partial:\n                    part_len, size, partial = _parse_len(b, total)\n                    del b[total:total + size]\n                    total += part_len\n                self._len = total\n            else:\n                self._len = part_len\n"
+T('C09', 'twin-dec-merged-tail', TY, _PARSE_LEN_CALLS,
+  "            total, size, partial = _parse_len(b)\n            del b[:size]\n\n            while partial:\n                part_len, size, partial = _parse_len(b, total)\n"
+  "                del b[total:total + size]\n                total += part_len\n\n            self._len = total\n")
+T('C09', 'twin-dec-while-true', TY, _PARSE_LEN_CALLS,
+  "            chunk, width, more = _parse_len(b)\n            del b[:width]\n            body = chunk\n            while True:\n                if not more:\n                    break\n"
+  "                chunk, width, more = _parse_len(b, body)\n                del b[body:body + width]\n                body = body + chunk\n            self._len = body\n")
+T('C09', 'twin-dec-partial-sub', TY, "                    return (1 << (fo & 0x1f), 1, True)", "                    return (2 ** (fo - 224), 1, True)")
+T('C09', 'twin-dec-two-octet-rfc-form', TY, "                    dlen = self.bytes_to_int(b[offset:offset + 2])\n                    return (((dlen - (192 << 8)) & 0xFF00) + ((dlen & 0xFF) + 192), 2, False)",
+  "                    return (((fo - 192) << 8) + b[offset + 1] + 192, 2, False)")
+T('C09', 'twin-dec-from-bytes', TY, "                    return (self.bytes_to_int(b[offset + 1:offset + 5]), 5, False)", "                    return (int.from_bytes(b[offset + 1:offset + 5], 'big'), 5, False)")
+T('C09', 'twin-llen-from-encoder', TY, "            if 192 > self.length:\n                return 1\n\n            elif 8384 > self.length:  # >= 192 is implied\n                return 2\n\n            else:\n                return 5\n",
+  "            return len(self.encode_length(self.length))\n")
+T('C09', 'twin-llen-old-ifs', TY, "            llen = self._llen\n            while 0 < llen < 4 and self.length >= (1 << (8 * llen)):\n                llen *= 2\n            return llen",
+  "            width = self._llen\n            if width == 1 and self.length > 0xFF:\n                width = 2\n            if width == 2 and self.length > 0xFFFF:\n                width = 4\n            return width")
+T('C09', 'twin-lenmap-class-consts', TY, "            self._llen = {0: 1, 1: 2, 2: 4, 3: 0}[val]", "            self._llen = self._LENTYPE_TO_LLEN[val]",
+  more=[(TY, "class Header(Field):\n    @staticmethod\n    def encode_length", "class Header(Field):\n    _LENTYPE_TO_LLEN = {0: 1, 1: 2, 2: 4, 3: 0}\n\n    @staticmethod\n    def encode_length"),
+        (PT, "        tag |= (self.tag) if self._lenfmt else ((self.tag << 2) | {1: 0, 2: 1, 4: 2, 0: 3}[self.llen])\n\n        _bytes = bytearray(self.int_to_bytes(tag))\n        _bytes += self.encode_length(self.length, self._lenfmt, self.llen)\n        return _bytes",
+         "        if self._lenfmt:\n            tag |= self.tag\n        else:\n            tag |= (self.tag << 2) | self._LLEN_TO_LENTYPE[self.llen]\n\n        return bytearray(self.int_to_bytes(tag)) + self.encode_length(self.length, self._lenfmt, self.llen)"),
+        (PT, "    def __bytearray__(self):\n        tag = 0x80 | (self._lenfmt << 6)", "    _LLEN_TO_LENTYPE = {1: 0, 2: 1, 4: 2, 0: 3}\n\n    def __bytearray__(self):\n        tag = 0x80 | (self._lenfmt << 6)")])
+T('C09', 'twin-lentype-arith', PT, "{1: 0, 2: 1, 4: 2, 0: 3}[self.llen]", "(self.llen.bit_length() - 1) % 4")
+T('C09', 'twin-old-len-local-width', TY, "            if self.llen > 0:\n                self._len = self.bytes_to_int(b[:self.llen])\n                del b[:self.llen]\n",
+  "            width = self.llen\n            if width > 0:\n                field = b[:width]\n                del b[:width]\n                self._len = self.bytes_to_int(field)\n")
+T('C09', 'twin-packet-parse-first-octet', PT, "        self._lenfmt = ((packet[0] & 0x40) >> 6)\n        self.tag = packet[0]\n        if self._lenfmt == 0:\n            self.llen = (packet[0] & 0x03)\n        del packet[0]\n\n        if (self._lenfmt == 0 and self.llen > 0) or self._lenfmt == 1:\n            self.length = packet\n\n        else:\n            # indeterminate packet length\n            self.length = len(packet)",
+  "        first_octet = packet[0]\n        self._lenfmt = (first_octet >> 6) & 1\n        self.tag = first_octet\n        if self._lenfmt == 0:\n            self.llen = first_octet % 4\n        del packet[0]\n\n        has_length_field = self._lenfmt == 1 or (self._lenfmt == 0 and self.llen > 0)\n        if not has_length_field:\n            self.length = len(packet)\n\n        else:\n            self.length = packet")
+T('C09', 'twin-tag-int-if-shift', PT, "        _tag = (val & 0x3F) if self._lenfmt else ((val & 0x3C) >> 2)", "        if self._lenfmt:\n            _tag = val % 64\n        else:\n            _tag = (val >> 2) & 0x0F")
+T('C09', 'twin-packet-header-append', PT, "        _bytes = bytearray(self.int_to_bytes(tag))\n        _bytes += self.encode_length(self.length, self._lenfmt, self.llen)\n        return _bytes",
+  "        _bytes = bytearray()\n        _bytes.append(tag)\n        _bytes.extend(self.encode_length(self.length, nhf=self._lenfmt, llen=self.llen))\n        return _bytes")
+T('C09', 'twin-mpi-readable', PT, "        mpi = num\n\n        if isinstance(num, (bytes, bytearray)):\n            if isinstance(num, bytes):  # pragma: no cover\n                num = bytearray(num)\n\n            fl = ((MPIs.bytes_to_int(num[:2]) + 7) // 8)\n            del num[:2]\n\n            mpi = MPIs.bytes_to_int(num[:fl])\n            del num[:fl]\n\n        return super(MPI, cls).__new__(cls, mpi)",
+  "        value = num\n\n        if isinstance(num, (bytes, bytearray)):\n            if isinstance(num, bytes):  # pragma: no cover\n                num = bytearray(num)\n\n            nbits = MPIs.bytes_to_int(num[:2])\n            nbytes = -(-nbits // 8)\n            del num[:2]\n\n            value = int.from_bytes(num[:nbytes], 'big')\n            del num[:nbytes]\n\n        return super(MPI, cls).__new__(cls, value)")
+T('C09', 'twin-mpi-writer-temps', PT, "        return MPIs.int_to_bytes(self.bit_length(), 2) + MPIs.int_to_bytes(self, self.byte_length())",
+  "        bit_count = MPIs.int_to_bytes(self.bit_length(), minlen=2)\n        magnitude = MPIs.int_to_bytes(self, minlen=self.byte_length())\n        return bit_count + magnitude")
+T('C09', 'twin-mpi-bytelen-shift', PT, "        return ((self.bit_length() + 7) // 8)", "        return (self.bit_length() + 7) >> 3")
+T('C09', 'twin-count-temps', FL, "        return (16 + (self._count & 15)) << ((self._count >> 4) + 6)", "        coded = self._count\n        mantissa = 16 + (coded & 15)\n        exponent = (coded >> 4) + 6\n        return mantissa << exponent",
+  more=[(FL, "        if val < 0 or val > 255:  # pragma: no cover", "        if not (0 <= val <= 255):  # pragma: no cover")])
+T('C09', 'twin-time-temps-kw', SS, "        _bytes += self.int_to_bytes(calendar.timegm(self.created.utctimetuple()), 4)", "        utc_tuple = self.created.utctimetuple()\n        seconds = calendar.timegm(utc_tuple)\n        _bytes += self.int_to_bytes(seconds, minlen=4)",
+  more=[(SS, "    def created_int(self, val):\n        self.created = datetime.fromtimestamp(val, timezone.utc)", "    def created_int(self, seconds):\n        when = datetime.fromtimestamp(seconds, tz=timezone.utc)\n        self.created = when"),
+        (SS, "    def created_bytearray(self, val):\n        self.created = self.bytes_to_int(val)", "    def created_bytearray(self, octets):\n        seconds = self.bytes_to_int(octets)\n        self.created = seconds")])
+T('C09', 'twin-time-reader-utcfrom-replace', PK, "    def mtime_int(self, val):\n        self.mtime = datetime.fromtimestamp(val, timezone.utc)", "    def mtime_int(self, val):\n        self.mtime = datetime.utcfromtimestamp(val).replace(tzinfo=timezone.utc)")
+T('C09', 'twin-expiry-temp', SS, "        _bytes += self.int_to_bytes(int(self.expires.total_seconds()), 4)", "        seconds = int(self.expires.total_seconds())\n        _bytes += self.int_to_bytes(seconds, minlen=4)")
+T('C09', 'twin-subheader-temps', ST, "        _bytes = bytearray(self.encode_length(self.length))\n        _bytes += self.int_to_bytes((int(self.critical) << 7) + self.typeid)\n        return _bytes",
+  "        _bytes = bytearray(self.encode_length(self.length))\n        critical_bit = 0x80 if self.critical else 0\n        return _bytes + bytes([critical_bit | self.typeid])")
+T('C09', 'twin-subheader-typeid-bin', ST, "        v = self.bytes_to_int(val)\n        self.typeid = v\n        self.critical = bool(v & 0x80)", "        octet = val[0]\n        self.critical = octet >= 0x80\n        self.typeid = octet")
+T('C09', 'twin-subheader-parse-pop', ST, "        self.typeid = packet[:1]\n        del packet[:1]", "        type_octet = packet[:1]\n        del packet[0]\n        self.typeid = type_octet")
+T('C09', 'twin-int-to-bytes-ifs', TY, "        blen = max(minlen, PGPObject.int_byte_len(i), 1)\n\n        return i.to_bytes(blen, order)",
+  "        blen = PGPObject.int_byte_len(i)\n        if blen < minlen:\n            blen = minlen\n        if blen < 1:\n            blen = 1\n        return i.to_bytes(blen, byteorder=order)")
+T('C09', 'twin-int-byte-len-ceil', TY, "        return (i.bit_length() + 7) // 8", "        return -(-i.bit_length() // 8)")
+
+# --- ... and defects of the same constructs (each must be reported)
+M('C09', 'enc-five-octet-prefix', TY, "            return b'\\xFF' + Header.int_to_bytes(nl, 4)", "            return b'\\xFE' + Header.int_to_bytes(nl, 4)", 'C09.1')
+M('C09', 'enc-five-octet-width-3', TY, "            return b'\\xFF' + Header.int_to_bytes(nl, 4)", "            return b'\\xFF' + Header.int_to_bytes(nl, 3)", 'C09.1')
+M('C09', 'enc-two-octet-le-192', TY, "            if 192 > nl:\n                return Header.int_to_bytes(nl)", "            if 192 >= nl:\n                return Header.int_to_bytes(nl)", 'C09.1')
+M('C09', 'enc-two-octet-mask', TY, "                elen = ((nl & 0xFF00) + (192 << 8)) + ((nl & 0xFF) - 192)", "                elen = ((nl & 0x0F00) + (192 << 8)) + ((nl & 0xFF) - 192)", 'C09.1')
+M('C09', 'dec-five-reads-3', TY, "                    return (self.bytes_to_int(b[offset + 1:offset + 5]), 5, False)", "                    return (self.bytes_to_int(b[offset + 1:offset + 4]), 5, False)", 'C09.1')
+M('C09', 'dec-five-size-4', TY, "                    return (self.bytes_to_int(b[offset + 1:offset + 5]), 5, False)", "                    return (self.bytes_to_int(b[offset + 1:offset + 5]), 4, False)", 'C09.1')
+M('C09', 'dec-two-size-1', TY, "((dlen & 0xFF) + 192), 2, False)", "((dlen & 0xFF) + 192), 1, False)", 'C09.1')
+M('C09', 'dec-partial-2-shl', TY, "                    return (1 << (fo & 0x1f), 1, True)", "                    return (2 << (fo & 0x1f), 1, True)", 'C09.1')
+M('C09', 'dec-partial-not-flagged', TY, "                    return (1 << (fo & 0x1f), 1, True)", "                    return (1 << (fo & 0x1f), 1, False)", 'C09.1')
+M('C09', 'dec-255-is-partial', TY, "                elif 255 > fo:  # >= 224 is implied", "                elif 255 >= fo:  # >= 224 is implied", 'C09.1')
+M('C09', 'llen-five-as-4', TY, "            else:\n                return 5\n", "            else:\n                return 4\n", 'C09.1')
+M('C09', 'llen-192-boundary', TY, "            if 192 > self.length:\n                return 1", "            if 192 >= self.length:\n                return 1", 'C09.1')
+M('C09', 'old-widen-stops-at-2', TY, "            while 0 < llen < 4 and self.length >= (1 << (8 * llen)):", "            while 0 < llen < 2 and self.length >= (1 << (8 * llen)):", 'C09.2')
+M('C09', 'old-widen-plus-1', TY, "                llen *= 2\n            return llen", "                llen += 1\n            return llen", 'C09.2')
+M('C09', 'old-widen-bits-7', TY, "            while 0 < llen < 4 and self.length >= (1 << (8 * llen)):", "            while 0 < llen < 4 and self.length >= (1 << (7 * llen)):", 'C09.2')
+M('C09', 'old-reader-map', TY, "            self._llen = {0: 1, 1: 2, 2: 4, 3: 0}[val]", "            self._llen = {0: 1, 1: 2, 2: 4, 3: 1}[val]", 'C09.2')
+M('C09', 'old-reader-no-consume', TY, "                self._len = self.bytes_to_int(b[:self.llen])\n                del b[:self.llen]\n", "                self._len = self.bytes_to_int(b[:self.llen])\n", 'C09.2')
+M('C09', 'old-reader-consume-1', TY, "                del b[:self.llen]\n", "                del b[:1]\n", 'C09.2')
+M('C09', 'old-enc-ge-0', TY, "            return Header.int_to_bytes(nl, llen) if llen > 0 else b''", "            return Header.int_to_bytes(nl, llen) if llen >= 0 else b''", 'C09.2')
+M('C09', 'old-writer-width-from-parsed', PT, "        _bytes += self.encode_length(self.length, self._lenfmt, self.llen)", "        _bytes += self.encode_length(self.length, self._lenfmt, self._llen)", 'C09.2')
+M('C09', 'mpi-count-consume-1', PT, "            fl = ((MPIs.bytes_to_int(num[:2]) + 7) // 8)\n            del num[:2]", "            fl = ((MPIs.bytes_to_int(num[:2]) + 7) // 8)\n            del num[:1]", 'C09.3')
+M('C09', 'mpi-magnitude-not-consumed', PT, "            mpi = MPIs.bytes_to_int(num[:fl])\n            del num[:fl]\n", "            mpi = MPIs.bytes_to_int(num[:fl])\n", 'C09.3')
+M('C09', 'mpi-floor', PT, "            fl = ((MPIs.bytes_to_int(num[:2]) + 7) // 8)", "            fl = (MPIs.bytes_to_int(num[:2]) // 8)", 'C09.3')
+M('C09', 'mpi-writer-count-1-octet', PT, "        return MPIs.int_to_bytes(self.bit_length(), 2) + MPIs.int_to_bytes(self, self.byte_length())", "        return MPIs.int_to_bytes(self.bit_length(), 1) + MPIs.int_to_bytes(self, self.byte_length())", 'C09.3')
+M('C09', 'mpi-writer-byte-count', PT, "        return MPIs.int_to_bytes(self.bit_length(), 2) + MPIs.int_to_bytes(self, self.byte_length())", "        return MPIs.int_to_bytes(self.byte_length(), 2) + MPIs.int_to_bytes(self, self.byte_length())", 'C09.3')
+M('C09', 'mpi-len-plus-1', PT, "        return self.byte_length() + 2", "        return self.byte_length() + 1", 'C09.3')
+M('C09', 'count-mask-7', FL, "        return (16 + (self._count & 15)) << ((self._count >> 4) + 6)", "        return (16 + (self._count & 7)) << ((self._count >> 4) + 6)", 'C09.4')
+M('C09', 'count-shift-3', FL, "        return (16 + (self._count & 15)) << ((self._count >> 4) + 6)", "        return (16 + (self._count & 15)) << ((self._count >> 3) + 6)", 'C09.4')
+M('C09', 'count-setter-256', FL, "        if val < 0 or val > 255:  # pragma: no cover", "        if val < 0 or val > 256:  # pragma: no cover", 'C09.4')
+M('C09', 'count-setter-negative', FL, "        if val < 0 or val > 255:  # pragma: no cover", "        if val > 255:  # pragma: no cover", 'C09.4')
+M('C09', 'time-mktime', PK, "        _bytes += self.int_to_bytes(calendar.timegm(self.created.utctimetuple()), 4)", "        _bytes += self.int_to_bytes(int(time.mktime(self.created.utctimetuple())), 4)", 'C09.5')
+M('C09', 'time-temp-timetuple', PK, "        fp.update(self.int_to_bytes(calendar.timegm(self.created.utctimetuple()), 4))", "        tt = self.created.timetuple()\n        fp.update(self.int_to_bytes(calendar.timegm(tt), 4))", 'C09.5')
+M('C09', 'reader-utcfromtimestamp-naive', SS, "    def created_int(self, val):\n        self.created = datetime.fromtimestamp(val, timezone.utc)", "    def created_int(self, val):\n        self.created = datetime.utcfromtimestamp(val)", 'C09.5')
+M('C09', 'reader-bytes-3', PK, "    def mtime_bin(self, val):\n        self.mtime = self.bytes_to_int(val)", "    def mtime_bin(self, val):\n        self.mtime = self.bytes_to_int(val[:3])", 'C09.5')
+M('C09', 'expiry-2-octets', SS, "        _bytes += self.int_to_bytes(int(self.expires.total_seconds()), 4)", "        _bytes += self.int_to_bytes(int(self.expires.total_seconds()), 2)", 'C09.5')
+M('C09', 'sub-critical-mask-40', ST, "        self.critical = bool(v & 0x80)", "        self.critical = bool(v & 0x40)", 'C09.6')
+M('C09', 'sub-type-not-consumed', ST, "        self.typeid = packet[:1]\n        del packet[:1]", "        self.typeid = packet[:1]", 'C09.6')
+M('C09', 'sub-len-plus-2', ST, "    def __len__(self):\n        return self.llen + 1", "    def __len__(self):\n        return self.llen + 2", 'C09.6')
+M('C09', 'sub-critical-or-typeid-swapped', ST, "        _bytes += self.int_to_bytes((int(self.critical) << 7) + self.typeid)", "        _bytes += self.int_to_bytes((self.typeid << 1) + int(self.critical))", 'C09.6')
+M('C09', 'int-byte-len-plus-8', TY, "        return (i.bit_length() + 7) // 8", "        return (i.bit_length() + 8) // 8", 'C09.7')
+M('C09', 'bytes-to-int-little', TY, "    def bytes_to_int(b, order='big'):", "    def bytes_to_int(b, order='little'):", 'C09.7')
+M('C09', 'int-to-bytes-default-2', TY, "    def int_to_bytes(i, minlen=1, order='big'):", "    def int_to_bytes(i, minlen=2, order='big'):", 'C09.7')
+M('C09', 'tag-format-bit-5', PT, "        tag = 0x80 | (self._lenfmt << 6)", "        tag = 0x80 | (self._lenfmt << 5)", 'C09.8')
+M('C09', 'parse-format-bit-5', PT, "        self._lenfmt = ((packet[0] & 0x40) >> 6)", "        self._lenfmt = ((packet[0] & 0x20) >> 5)", 'C09.8')
+M('C09', 'parse-lentype-mask-1', PT, "            self.llen = (packet[0] & 0x03)", "            self.llen = (packet[0] & 0x01)", 'C09.8')
+M('C09', 'parse-type3-has-length', PT, "        if (self._lenfmt == 0 and self.llen > 0) or self._lenfmt == 1:", "        if (self._lenfmt == 0 and self.llen >= 0) or self._lenfmt == 1:", 'C09.8')
+M('C09', 'parse-tag-octet-kept', PT, "            self.llen = (packet[0] & 0x03)\n        del packet[0]\n", "            self.llen = (packet[0] & 0x03)\n", 'C09.8')
+M('C09', 'old-tag-mask-38', PT, "        _tag = (val & 0x3F) if self._lenfmt else ((val & 0x3C) >> 2)", "        _tag = (val & 0x3F) if self._lenfmt else ((val & 0x38) >> 2)", 'C09.8')
+M('C09', 'partial-total-overwritten', TY, "                    total += part_len\n                self._len = total", "                    total = part_len\n                self._len = total", 'C09.8')
+M('C09', 'partial-del-at-zero', TY, "                    del b[total:total + size]", "                    del b[:size]", 'C09.8')
+M('C09', 'partial-first-not-counted', TY, "                total = part_len\n                while partial:", "                total = 0\n                while partial:", 'C09.8')
+
+# --- C09: whole-function rewrites (helpers as static methods / one private reader method and a single loop) and defects inside them
+_ENC_DEF = ('    @staticmethod\n'
+    '    def encode_length(length, nhf=True, llen=1):\n'
+    '        def _new_length(nl):\n'
+    '            if 192 > nl:\n'
+    '                return Header.int_to_bytes(nl)\n'
+    '\n'
+    '            elif 8384 > nl:\n'
+    '                elen = ((nl & 0xFF00) + (192 << 8)) + ((nl & 0xFF) - 192)\n'
+    '                return Header.int_to_bytes(elen, 2)\n'
+    '\n'
+    "            return b'\\xFF' + Header.int_to_bytes(nl, 4)\n"
+    '\n'
+    '        def _old_length(nl, llen):\n'
+    "            return Header.int_to_bytes(nl, llen) if llen > 0 else b''\n"
+    '\n'
+    '        return _new_length(length) if nhf else _old_length(length, llen)\n'
+    '\n')
+_ENC_STATIC = ('    _ONE_OCTET_LIMIT = 192\n'
+    '    _TWO_OCTET_LIMIT = 8384\n'
+    '\n'
+    '    @staticmethod\n'
+    '    def _encode_new(n):\n'
+    '        if n < Header._ONE_OCTET_LIMIT:\n'
+    '            return bytes(bytearray([n]))\n'
+    '        if n < Header._TWO_OCTET_LIMIT:\n'
+    '            n -= Header._ONE_OCTET_LIMIT\n'
+    '            return bytes(bytearray([(n >> 8) + 192, n & 0xFF]))\n'
+    "        out = bytearray(b'\\xFF')\n"
+    '        out += Header.int_to_bytes(n, minlen=4)\n'
+    '        return bytes(out)\n'
+    '\n'
+    '    @staticmethod\n'
+    '    def _encode_old(n, width):\n'
+    '        if width <= 0:\n'
+    "            return b''\n"
+    '        return Header.int_to_bytes(n, width)\n'
+    '\n'
+    '    @staticmethod\n'
+    '    def encode_length(length, nhf=True, llen=1):\n'
+    '        if nhf:\n'
+    '            return Header._encode_new(length)\n'
+    '        return Header._encode_old(length, llen)\n'
+    '\n')
+_DEC_DEF = ('    @length.register(bytes)\n'
+    '    @length.register(bytearray)\n'
+    '    def length_bin(self, val):\n'
+    '        def _new_len(b):\n'
+    '            def _parse_len(a, offset=0):\n'
+    '                # returns (the parsed length, size of length field, whether the length was of partial type)\n'
+    '                fo = a[offset]\n'
+    '\n'
+    '                if 192 > fo:\n'
+    '                    return (self.bytes_to_int(a[offset:offset + 1]), 1, False)\n'
+    '\n'
+    '                elif 224 > fo:  # >= 192 is implied\n'
+    '                    dlen = self.bytes_to_int(b[offset:offset + 2])\n'
+    '                    return (((dlen - (192 << 8)) & 0xFF00) + ((dlen & 0xFF) + 192), 2, False)\n'
+    '\n'
+    '                elif 255 > fo:  # >= 224 is implied\n'
+    '                    # this is a partial-length header\n'
+    '                    return (1 << (fo & 0x1f), 1, True)\n'
+    '\n'
+    '                elif 255 == fo:\n'
+    '                    return (self.bytes_to_int(b[offset + 1:offset + 5]), 5, False)\n'
+    '\n'
+    '                else:  # pragma: no cover\n'
+    '                    raise ValueError("Malformed length: 0x{:02x}".format(fo))\n'
+    '\n'
+    '            part_len, size, partial = _parse_len(b)\n'
+    '            del b[:size]\n'
+    '\n'
+    '            if partial:\n'
+    '                total = part_len\n'
+    '                while partial:\n'
+    '                    part_len, size, partial = _parse_len(b, total)\n'
+    '                    del b[total:total + size]\n'
+    '                    total += part_len\n'
+    '                self._len = total\n'
+    '            else:\n'
+    '                self._len = part_len\n'
+    '\n'
+    '        def _old_len(b):\n'
+    '            if self.llen > 0:\n'
+    '                self._len = self.bytes_to_int(b[:self.llen])\n'
+    '                del b[:self.llen]\n'
+    '\n'
+    '            else:  # pragma: no cover\n'
+    '                self._len = 0\n'
+    '\n'
+    '        _new_len(val) if self._lenfmt == 1 else _old_len(val)\n'
+    '\n')
+_DEC_METHOD = ('    def _read_new_length_field(self, buf, at):\n'
+    '        first = buf[at]\n'
+    '        if first < 192:\n'
+    '            return first, 1, False\n'
+    '        if first < 224:\n'
+    '            return ((first - 192) << 8) + buf[at + 1] + 192, 2, False\n'
+    '        if first == 255:\n'
+    '            return self.bytes_to_int(buf[at + 1:at + 5]), 5, False\n'
+    '        return 1 << (first & 0x1F), 1, True\n'
+    '\n'
+    '    @length.register(bytes)\n'
+    '    @length.register(bytearray)\n'
+    '    def length_bin(self, val):\n'
+    '        if self._lenfmt != 1:\n'
+    '            width = self.llen\n'
+    '            self._len = self.bytes_to_int(val[:width]) if width > 0 else 0\n'
+    '            if width > 0:\n'
+    '                del val[:width]\n'
+    '            return\n'
+    '\n'
+    '        body_octets = 0\n'
+    '        more = True\n'
+    '        while more:\n'
+    '            chunk, width, more = self._read_new_length_field(val, body_octets)\n'
+    '            del val[body_octets:body_octets + width]\n'
+    '            body_octets += chunk\n'
+    '        self._len = body_octets\n'
+    '\n')
+T('C09', 'twin-enc-static-helpers', TY, _ENC_DEF, _ENC_STATIC)
+T('C09', 'twin-dec-reader-method-single-loop', TY, _DEC_DEF, _DEC_METHOD)
+T('C09', 'twin-enc-dec-rewritten', TY, _ENC_DEF, _ENC_STATIC, more=[(TY, _DEC_DEF, _DEC_METHOD)])
+M('C09', 'rewritten-dec-del-at-zero', TY, _DEC_DEF, _DEC_METHOD.replace("del val[body_octets:body_octets + width]", "del val[:width]"), 'C09.8')
+M('C09', 'rewritten-dec-224', TY, _DEC_DEF, _DEC_METHOD.replace("if first < 224:", "if first <= 224:"), 'C09.1')
+M('C09', 'rewritten-enc-limit-8383', TY, _ENC_DEF, _ENC_STATIC.replace("_TWO_OCTET_LIMIT = 8384", "_TWO_OCTET_LIMIT = 8383"), 'C09.1')
+M('C09', 'rewritten-enc-high-octet', TY, _ENC_DEF, _ENC_STATIC.replace("(n >> 8) + 192", "(n >> 8) | 128"), 'C09.1')
 
 # =============================================================================================== C20
 M('C20', 'ops-loop-forward', PGP, "            for sig in reversed(self._signatures):\n                ops = sig.make_onepass()", "            for sig in self._signatures:\n                ops = sig.make_onepass()", 'C20.2')
@@ -553,6 +1690,204 @@ M('C08', 'notation-skip-name-len', SS, "        nlen = self.bytes_to_int(packet[
 M('C08', 'subpacket-update-hlen-off', ST, "        self.header.length = (len(self.__bytearray__()) - len(self.header)) + 1", "        self.header.length = (len(self.__bytearray__()) - len(self.header))", 'C08.h')
 T('C08', 'twin-read-local', PK, "        self.mtime = packet[:4]\n        del packet[:4]", "        raw_time = packet[:4]\n        del packet[:4]\n        self.mtime = raw_time")
 T('C08', 'twin-pend-inline', PK, "        pend = self.header.length - 6\n        self.keymaterial.parse(packet[:pend])\n        del packet[:pend]", "        self.keymaterial.parse(packet[:self.header.length - 6])\n        del packet[:self.header.length - 6]")
+# --- C08 hardening (semantic rules): new mutants per rewritten rule, twin families that must stay silent
+M('C08', 'literal-remainder-misses-format-octet', PK, '        self._contents = packet[:self.header.length - (6 + fnl)]\n        del packet[:self.header.length - (6 + fnl)]',
+  '        consumed = 1 + fnl + 4\n        self._contents = packet[:self.header.length - consumed]\n        del packet[:self.header.length - consumed]', 'C08.d')
+M('C08', 'onepass-offset-reads-swapped', PK, '        self.sigtype = packet[0]\n        del packet[0]\n\n        self.halg = packet[0]\n        del packet[0]\n\n        self.pubalg = packet[0]\n        del packet[0]\n\n        self.signer = packet[:8]\n        del packet[:8]\n\n        self.nested = (packet[0] == 1)\n        del packet[0]',
+  '        self.sigtype = packet[0]\n        self.pubalg = packet[1]\n        self.halg = packet[2]\n        del packet[:3]\n\n        self.signer = packet[:8]\n        del packet[:8]\n\n        self.nested = (packet[0] == 1)\n        del packet[0]', 'C08.c')
+M('C08', 'onepass-offset-read-gap', PK, '        self.sigtype = packet[0]\n        del packet[0]\n\n        self.halg = packet[0]\n        del packet[0]\n\n        self.pubalg = packet[0]\n        del packet[0]\n\n        self.signer = packet[:8]\n        del packet[:8]\n\n        self.nested = (packet[0] == 1)\n        del packet[0]',
+  '        self.sigtype = packet[0]\n        self.halg = packet[1]\n        self.pubalg = packet[2]\n        del packet[:3]\n\n        self.signer = packet[1:9]\n        del packet[:8]\n\n        self.nested = (packet[0] == 1)\n        del packet[0]', 'C08.a')
+M('C08', 'onepass-merged-del-short', PK, '        self.sigtype = packet[0]\n        del packet[0]\n\n        self.halg = packet[0]\n        del packet[0]\n\n        self.pubalg = packet[0]\n        del packet[0]\n\n        self.signer = packet[:8]\n        del packet[:8]\n\n        self.nested = (packet[0] == 1)\n        del packet[0]',
+  '        self.sigtype = packet[0]\n        self.halg = packet[1]\n        self.pubalg = packet[2]\n        del packet[:2]\n\n        self.signer = packet[:8]\n        del packet[:8]\n\n        self.nested = (packet[0] == 1)\n        del packet[0]', 'C08.a')
+M('C08', 'rsa-parse-locals-swapped', FL, '    def parse(self, packet):\n        self.n = MPI(packet)\n        self.e = MPI(packet)\n\n\nclass DSAPub',
+  '    def parse(self, packet):\n        e = MPI(packet)\n        n = MPI(packet)\n        self.n, self.e = n, e\n\n\nclass DSAPub', 'C08.c')
+M('C08', 'hashed-area-peek-short', FL, '        hashed_raw = packet[:2 + hl]\n',
+  '        hashed_raw = packet[:1 + hl]\n', 'C08.a')
+M('C08', 'hashed-area-peek-transformed', FL, '        self._hashed_raw = hashed_raw\n',
+  '        self._hashed_raw = hashed_raw[2:]\n', 'C08.a')
+M('C08', 'notation-offset-reads-overlap', SS, '        self.flags = packet[:1]\n        del packet[:4]\n        nlen = self.bytes_to_int(packet[:2])\n        del packet[:2]\n        vlen = self.bytes_to_int(packet[:2])\n        del packet[:2]\n',
+  '        self.flags = packet[:1]\n        nlen = self.bytes_to_int(packet[4:6])\n        vlen = self.bytes_to_int(packet[5:7])\n        del packet[:8]\n', 'C08.a')
+M('C08', 'notation-offset-reads-del-short', SS, '        self.flags = packet[:1]\n        del packet[:4]\n        nlen = self.bytes_to_int(packet[:2])\n        del packet[:2]\n        vlen = self.bytes_to_int(packet[:2])\n        del packet[:2]\n',
+  '        self.flags = packet[:1]\n        nlen = self.bytes_to_int(packet[4:6])\n        vlen = self.bytes_to_int(packet[6:8])\n        del packet[:7]\n', 'C08.a')
+M('C08', 'dispatch-factory-gets-root-class', TY, '    def __call__(cls, packet=None):  # NOQA\n        def _makeobj(cls):\n            obj = object.__new__(cls)\n            obj.__init__()\n            return obj\n\n',
+  '    @staticmethod\n    def _makeobj(cls):\n        obj = object.__new__(cls)\n        obj.__init__()\n        return obj\n\n    def __call__(cls, packet=None):  # NOQA\n', 'C08.g', more=[(TY, '            obj = _makeobj(ncls)\n', '            obj = MetaDispatchable._makeobj(rcls)\n'), (TY, '            obj = _makeobj(cls)\n', '            obj = MetaDispatchable._makeobj(cls)\n')])
+M('C08', 'skesk-remainder-minus-1', PK, '        ctend = self.header.length - len(self.s2k)\n',
+  '        ctend = self.header.length - len(self.s2k) - 1\n', 'C08.d')
+M('C08', 'sigv4-tuple-reads-swapped', PK, '        self.sigtype = packet[0]\n        del packet[0]\n\n        self.pubalg = packet[0]\n        del packet[0]\n\n        self.halg = packet[0]\n        del packet[0]\n\n        self.subpackets.parse(packet)\n\n        self.hash2 = packet[:2]\n        del packet[:2]\n\n        self.signature.parse(packet)\n',
+  '        sigtype, halg, pubalg = packet[0], packet[1], packet[2]\n        del packet[:3]\n        self.sigtype = sigtype\n        self.pubalg = pubalg\n        self.halg = halg\n\n        sp = self.subpackets\n        sp.parse(packet)\n\n        left16 = packet[:2]\n        del packet[:2]\n        self.hash2 = left16\n\n        self.signature.parse(packet)\n', 'C08.c')
+M('C08', 'pubkey-fixed-part-sum-5', PK, '        self.created = packet[:4]\n        del packet[:4]\n\n        self.pkalg = packet[0]\n        del packet[0]\n\n        # bound keymaterial to the remaining length of the packet\n        pend = self.header.length - 6\n        self.keymaterial.parse(packet[:pend])\n        del packet[:pend]\n',
+  '        self.created = packet[:4]\n        self.pkalg = packet[4]\n        del packet[:5]\n\n        fixed = 4 + 1\n        body = packet[:self.header.length - fixed]\n        self.keymaterial.parse(body)\n        del packet[:self.header.length - fixed]\n', 'C08.d')
+M('C08', 'elg-alias-guard-falls-through', FL, '        if not self.s2k:\n            self.x = MPI(packet)\n\n            if self.s2k.usage == 0:\n                self.chksum = packet[:2]\n                del packet[:2]\n\n        else:\n            self.encbytes = packet\n\n    def decrypt_keyblob(self, passphrase):\n        kb = super(ElGPriv, self).decrypt_keyblob(passphrase)',
+  '        if self.s2k:\n            self.encbytes = packet\n\n        else:\n            self.x = MPI(packet)\n\n        if self.s2k.usage in (0, 255):\n            cks = packet[:2]\n            del packet[:2]\n            self.chksum = cks\n\n    def decrypt_keyblob(self, passphrase):\n        kb = super(ElGPriv, self).decrypt_keyblob(passphrase)', 'C08.b')
+M('C08', 'literal-append-len-chars', PK, '        _bytes += bytearray([len(filename)])\n        _bytes += filename',
+  '        _bytes.append(len(self.filename))\n        _bytes.extend(filename)', 'C08.e')
+M('C08', 'onepass-pop-reads-swapped', PK, '        self.sigtype = packet[0]\n        del packet[0]\n\n        self.halg = packet[0]\n        del packet[0]\n\n        self.pubalg = packet[0]\n        del packet[0]\n\n        self.signer = packet[:8]\n        del packet[:8]\n\n        self.nested = (packet[0] == 1)\n        del packet[0]',
+  '        self.sigtype = packet.pop(0)\n        self.pubalg = packet.pop(0)\n        self.halg = packet.pop(0)\n\n        self.signer = packet[:8]\n        del packet[:8]\n\n        self.nested = (packet.pop(0) == 1)', 'C08.c')
+M('C08', 'uri-bytes-constructor-utf16', SS, '        _bytes += self.uri.encode()\n        return _bytes',
+  "        _bytes += bytes(self.uri, 'utf-16')\n        return _bytes", 'C08.f')
+M('C08', 'filename-str-constructor-latin1', PK, '        self.filename = packet[:fnl].decode()\n',
+  "        self.filename = str(packet[:fnl], 'latin-1')\n", 'C08.f')
+M('C08', 'signer-hex-digits-utf16', PK, "        self._signer = binascii.hexlify(val).upper().decode('latin-1')",
+  '        self._signer = val.hex().upper()', 'C08.f', more=[(PK, '        _bytes += binascii.unhexlify(self.signer.encode("latin-1"))', '        _bytes += binascii.unhexlify(self.signer.encode("utf-16"))')])
+M('C08', 'uid-writer-codec-swapped', PK, "textenc = 'utf-8' if not self._encoding_fallback else 'charmap'",
+  "textenc = 'utf-8' if self._encoding_fallback else 'charmap'", 'C08.f')
+M('C08', 'uid-writer-ignores-fallback', PK, "textenc = 'utf-8' if not self._encoding_fallback else 'charmap'",
+  "textenc = 'utf-8'", 'C08.f')
+M('C08', 'uid-reader-forgets-fallback', PK, "            self.uid = uid_bytes.decode('charmap')\n            self._encoding_fallback = True",
+  "            self.uid = uid_bytes.decode('charmap')", 'C08.f')
+M('C08', 'uid-fallback-other-codec', PK, "            self.uid = uid_bytes.decode('charmap')\n",
+  "            self.uid = uid_bytes.decode('cp437')\n", 'C08.f')
+M('C08', 'uid-flag-set-on-primary-path', PK, "            self.uid = uid_bytes.decode('utf-8')\n",
+  "            self.uid = uid_bytes.decode('utf-8')\n            self._encoding_fallback = True\n", 'C08.f')
+M('C08', 'filename-latin1-writer', PK, "filename = self.filename.encode('utf-8')",
+  "filename = self.filename.encode('latin-1')", 'C08.f')
+M('C08', 'filename-latin1-reader', PK, 'self.filename = packet[:fnl].decode()',
+  "self.filename = packet[:fnl].decode('latin-1')", 'C08.f')
+M('C08', 'literal-format-utf8-writer', PK, "_bytes += self.format.encode('latin-1')",
+  "_bytes += self.format.encode('utf-8')", 'C08.f')
+M('C08', 'issuer-hex-utf16', SS, '_bytes += binascii.unhexlify(self._issuer.encode())',
+  "_bytes += binascii.unhexlify(self._issuer.encode('utf-16'))", 'C08.f')
+M('C08', 'dispatch-fallback-key-0', TY, '                ncls = MetaDispatchable._registry[(rcls, None)]',
+  '                ncls = MetaDispatchable._registry[(rcls, 0)]', 'C08.g')
+M('C08', 'dispatch-unknown-version-keeps-placeholder', TY, '                    else:  # pragma: no cover\n                        ncls = None\n',
+  '                    else:  # pragma: no cover\n                        pass\n', 'C08.g')
+M('C08', 'dispatch-body-parse-unwrapped', TY, '            try:\n                obj.parse(packet)\n\n            except Exception as ex:\n                raise PGPError(str(ex)) from ex\n',
+  '            obj.parse(packet)\n', 'C08.g')
+M('C08', 'dispatch-body-parse-valueerror', TY, '            try:\n                obj.parse(packet)\n\n            except Exception as ex:\n                raise PGPError(str(ex)) from ex\n',
+  '            try:\n                obj.parse(packet)\n\n            except Exception as ex:\n                raise ValueError(str(ex)) from ex\n', 'C08.g')
+M('C08', 'dispatch-body-parse-swallowed', TY, '            try:\n                obj.parse(packet)\n\n            except Exception as ex:\n                raise PGPError(str(ex)) from ex\n',
+  '            try:\n                obj.parse(packet)\n\n            except Exception as ex:\n                pass\n', 'C08.g')
+M('C08', 'dispatch-version-key-constant', TY, '                        ncls = MetaDispatchable._registry[(rcls, header.typeid, header.version)]',
+  '                        ncls = MetaDispatchable._registry[(rcls, header.typeid, 4)]', 'C08.g')
+M('C08', 'opaque-ignores-version-octet', PT, "        if hasattr(self.header, 'version'):\n            pend -= 1\n\n        self.payload",
+  '        self.payload', 'C08.g')
+M('C08', 'opaque-version-adjust-2', PT, '            pend -= 1\n\n        self.payload',
+  '            pend -= 2\n\n        self.payload', 'C08.g')
+M('C08', 'opaque-payload-transformed', PT, '        self.payload = packet[:pend]\n        del packet[:pend]',
+  '        self.payload = packet[:pend].upper()\n        del packet[:pend]', 'C08.g')
+M('C08', 'trust-typeid-wrong', PK, '    __typeid__ = 0x0C\n',
+  '    __typeid__ = 0x1C\n', 'C08.g')
+M('C08', 'pubsubkeyv4-ver-0', PK, 'class PubSubKeyV4(PubSubKey, PubKeyV4):\n    __ver__ = 4',
+  'class PubSubKeyV4(PubSubKey, PubKeyV4):\n    __ver__ = 0', 'C08.g')
+M('C08', 'onepass-update-before-signer', PGP, '        onepass.signer = self.signer\n        onepass.update_hlen()',
+  '        onepass.update_hlen()\n        onepass.signer = self.signer', 'C08.h')
+M('C08', 'mdc-update-on-wrong-object', PK, '        mdc.update_hlen()\n\n        data += mdc.__bytes__()',
+  '        self.update_hlen()\n\n        data += mdc.__bytes__()', 'C08.h')
+M('C08', 'pubkey-update-only-for-ecdh', PK, '            pk.keymaterial.kdf = copy.copy(self.keymaterial.kdf)\n\n        pk.update_hlen()',
+  '            pk.keymaterial.kdf = copy.copy(self.keymaterial.kdf)\n            pk.update_hlen()', 'C08.h')
+M('C08', 'pubkey-update-before-curve', PK, '        if self.pkalg in {PubKeyAlgorithm.ECDSA, PubKeyAlgorithm.EdDSA}:\n            pk.keymaterial.oid = self.keymaterial.oid\n\n        if self.pkalg == PubKeyAlgorithm.ECDH:\n            pk.keymaterial.oid = self.keymaterial.oid\n            pk.keymaterial.kdf = copy.copy(self.keymaterial.kdf)\n\n        pk.update_hlen()\n        return pk',
+  '        pk.update_hlen()\n        if self.pkalg in {PubKeyAlgorithm.ECDSA, PubKeyAlgorithm.EdDSA}:\n            pk.keymaterial.oid = self.keymaterial.oid\n\n        if self.pkalg == PubKeyAlgorithm.ECDH:\n            pk.keymaterial.oid = self.keymaterial.oid\n            pk.keymaterial.kdf = copy.copy(self.keymaterial.kdf)\n\n        return pk', 'C08.h')
+M('C08', 'sign-update-before-from-signer', PGP, '        sig._signature.signature.from_signer(_sig)\n        sig._signature.update_hlen()',
+  '        sig._signature.update_hlen()\n        sig._signature.signature.from_signer(_sig)', 'C08.h')
+M('C08', 'addnew-update-before-setattr', FL, '        nsp = getattr(self._spmodule, spname)()\n        for p, v in kwargs.items():\n            if hasattr(nsp, p):\n                setattr(nsp, p, v)\n        nsp.update_hlen()',
+  '        nsp = getattr(self._spmodule, spname)()\n        nsp.update_hlen()\n        for p, v in kwargs.items():\n            if hasattr(nsp, p):\n                setattr(nsp, p, v)', 'C08.h')
+M('C08', 'literal-update-before-format', PGP, "            lit.format = format\n\n            # if cls.is_ascii(message):\n            #     lit.format = 't'\n\n            lit.update_hlen()",
+  '            lit.update_hlen()\n            lit.format = format', 'C08.h')
+M('C08', 'protect-no-update', PK, '        self.keymaterial.encrypt_keyblob(passphrase, enc_alg, hash_alg)\n        del passphrase\n        self.update_hlen()',
+  '        self.keymaterial.encrypt_keyblob(passphrase, enc_alg, hash_alg)\n        del passphrase', 'C08.h')
+M('C08', 'compressed-no-update', PGP, '            comp.packets = [pkt for pkt in self]\n            comp.update_hlen()',
+  '            comp.packets = [pkt for pkt in self]', 'C08.h')
+M('C08', 'sigv4-own-length-first', PK, '        self.subpackets.update_hlen()\n        super(SignatureV4, self).update_hlen()',
+  '        super(SignatureV4, self).update_hlen()\n        self.subpackets.update_hlen()', 'C08.h')
+M('C08', 'userattribute-no-inner-update', PK, '        self.subpackets.update_hlen()\n        super(UserAttribute, self).update_hlen()',
+  '        super(UserAttribute, self).update_hlen()', 'C08.h')
+M('C08', 'packet-hlen-includes-header', PT, '        self.header.length = len(self.__bytearray__()) - len(self.header)',
+  '        self.header.length = len(self.__bytearray__())', 'C08.h')
+T('C08', 'twin-uid-codec-if-else', PK, "        textenc = 'utf-8' if not self._encoding_fallback else 'charmap'\n        _bytes += self.uid.encode(textenc)",
+  "        if self._encoding_fallback:\n            _bytes += self.uid.encode('charmap')\n        else:\n            _bytes += self.uid.encode(encoding='utf-8')")
+T('C08', 'twin-uid-flag-is-true', PK, "textenc = 'utf-8' if not self._encoding_fallback else 'charmap'",
+  "textenc = 'charmap' if self._encoding_fallback is True else 'utf-8'")
+T('C08', 'twin-filename-raw-local', PK, '        self.filename = packet[:fnl].decode()\n',
+  "        raw_name = bytes(packet[:fnl])\n        self.filename = raw_name.decode('UTF8')\n")
+T('C08', 'twin-decode-text-inlined', SS, '    def uri_bytearray(self, val):\n        self.uri = self._decode_text(val)',
+  "    def uri_bytearray(self, val):\n        try:\n            text = val.decode('utf-8')\n        except UnicodeDecodeError:\n            text = val.decode('latin-1')\n        self.uri = text")
+T('C08', 'twin-signer-default-codec', PK, 'self.signer.encode("latin-1")',
+  'self.signer.encode()')
+T('C08', 'twin-onepass-renamed-reordered', PGP, '        onepass = OnePassSignatureV3()\n        onepass.sigtype = self.type\n        onepass.halg = self.hash_algorithm\n        onepass.pubalg = self.key_algorithm\n        onepass.signer = self.signer\n        onepass.update_hlen()\n        return onepass',
+  '        ops = OnePassSignatureV3()\n        ops.signer = self.signer\n        ops.pubalg = self.key_algorithm\n        ops.halg = self.hash_algorithm\n        ops.sigtype = self.type\n        pkt = ops\n        pkt.update_hlen()\n        return pkt')
+T('C08', 'twin-uid-new-built-in-local', PGP, "            uid._uid = UserID()\n            uidstr = pn\n            if comment:\n                uidstr += ' (' + comment + ')'\n            if email:\n                uidstr += ' <' + email + '>'\n            uid._uid.uid = uidstr\n            uid._uid.update_hlen()",
+  "            uidstr = pn\n            if comment:\n                uidstr += ' (' + comment + ')'\n            if email:\n                uidstr += ' <' + email + '>'\n            pkt = UserID()\n            pkt.uid = uidstr\n            pkt.update_hlen()\n            uid._uid = pkt")
+T('C08', 'twin-sigv4-explicit-base-call', PK, '        self.subpackets.update_hlen()\n        super(SignatureV4, self).update_hlen()',
+  '        sp = self.subpackets\n        sp.update_hlen()\n        VersionedPacket.update_hlen(self)')
+T('C08', 'twin-hlen-temporaries', PT, '        self.header.length = len(self.__bytearray__()) - len(self.header)',
+  '        body = self.__bytearray__()\n        hdr = len(self.header)\n        self.header.length = -hdr + len(body)')
+T('C08', 'twin-mdc-renamed', PK, "        mdc = MDC()\n        mdc.mdc = binascii.hexlify(hashlib.new('SHA1', data + b'\\xd3\\x14').digest())\n        mdc.update_hlen()\n\n        data += mdc.__bytes__()",
+  "        digest = binascii.hexlify(hashlib.new('SHA1', data + b'\\xd3\\x14').digest())\n        trailer = MDC()\n        trailer.mdc = digest\n        trailer.update_hlen()\n\n        data += trailer.__bytes__()")
+T('C08', 'twin-protect-km-local', PK, '        self.keymaterial.encrypt_keyblob(passphrase, enc_alg, hash_alg)\n        del passphrase\n        self.update_hlen()',
+  '        km = self.keymaterial\n        km.encrypt_keyblob(passphrase, enc_alg, hash_alg)\n        del passphrase\n        self.update_hlen()')
+T('C08', 'twin-opaque-skip-expression', PT, "        pend = self.header.length\n        if hasattr(self.header, 'version'):\n            pend -= 1\n\n        self.payload = packet[:pend]\n        del packet[:pend]",
+  "        skip = 1 if hasattr(self.header, 'version') else 0\n        body_len = self.header.length - skip\n        body = packet[:body_len]\n        del packet[:body_len]\n        self.payload = body")
+T('C08', 'twin-dispatch-registry-local', TY, '            ncls = None\n            if (rcls, header.typeid) in MetaDispatchable._registry:\n                ncls = MetaDispatchable._registry[(rcls, header.typeid)]\n',
+  '            reg = MetaDispatchable._registry\n            ncls = None\n            if (rcls, header.typeid) in reg:\n                ncls = reg[rcls, header.typeid]\n')
+T('C08', 'twin-dispatch-raise-local', TY, '            try:\n                obj.parse(packet)\n\n            except Exception as ex:\n                raise PGPError(str(ex)) from ex\n',
+  '            try:\n                obj.parse(packet)\n\n            except Exception as exc:\n                err = PGPError(str(exc))\n                raise err from exc\n')
+T('C08', 'twin-typeid-folded', PK, '    __typeid__ = 0x0C\n',
+  '    __typeid__ = 8 + 4\n')
+T('C08', 'twin-onepass-merged-del', PK, '        self.sigtype = packet[0]\n        del packet[0]\n\n        self.halg = packet[0]\n        del packet[0]\n\n        self.pubalg = packet[0]\n        del packet[0]\n\n        self.signer = packet[:8]\n        del packet[:8]\n\n        self.nested = (packet[0] == 1)\n        del packet[0]',
+  '        self.sigtype = packet[0]\n        self.halg = packet[1]\n        self.pubalg = packet[2]\n        del packet[:3]\n\n        self.signer = packet[:8]\n        del packet[:8]\n\n        self.nested = (packet[0] == 1)\n        del packet[0]')
+T('C08', 'twin-onepass-all-offsets', PK, '        self.sigtype = packet[0]\n        del packet[0]\n\n        self.halg = packet[0]\n        del packet[0]\n\n        self.pubalg = packet[0]\n        del packet[0]\n\n        self.signer = packet[:8]\n        del packet[:8]\n\n        self.nested = (packet[0] == 1)\n        del packet[0]',
+  '        self.sigtype = packet[0]\n        self.halg = packet[1]\n        self.pubalg = packet[2]\n        self.signer = packet[3:11]\n        self.nested = (packet[11] == 1)\n        del packet[:12]')
+T('C08', 'twin-onepass-temporaries', PK, '        self.sigtype = packet[0]\n        del packet[0]\n\n        self.halg = packet[0]\n        del packet[0]\n\n        self.pubalg = packet[0]\n        del packet[0]\n\n        self.signer = packet[:8]\n        del packet[:8]\n\n        self.nested = (packet[0] == 1)\n        del packet[0]',
+  '        sigtype = packet[0]\n        del packet[0]\n        halg = packet[0]\n        del packet[0]\n        pubalg = packet[0]\n        del packet[0]\n        keyid = packet[:8]\n        del packet[:8]\n        nested_flag = packet[0]\n        del packet[0]\n\n        self.sigtype = sigtype\n        self.halg = halg\n        self.pubalg = pubalg\n        self.signer = keyid\n        self.nested = (nested_flag == 1)')
+T('C08', 'twin-onepass-writer-merged', PK, '        _bytes += bytearray([self.sigtype])\n        _bytes += bytearray([self.halg])\n        _bytes += bytearray([self.pubalg])\n        _bytes += binascii.unhexlify(self.signer.encode("latin-1"))\n        _bytes += bytearray([int(self.nested)])\n        return _bytes',
+  '        _bytes += bytearray([self.sigtype, self.halg, self.pubalg])\n        keyid = binascii.unhexlify(self.signer.encode("latin-1"))\n        _bytes.extend(keyid)\n        _bytes.append(int(self.nested))\n        return _bytes')
+T('C08', 'twin-literal-rest-local', PK, '        self._contents = packet[:self.header.length - (6 + fnl)]\n        del packet[:self.header.length - (6 + fnl)]',
+  '        rest = self.header.length - fnl - 6\n        self._contents = packet[:rest]\n        del packet[:rest]')
+T('C08', 'twin-literal-consumed-sum', PK, '        self._contents = packet[:self.header.length - (6 + fnl)]\n        del packet[:self.header.length - (6 + fnl)]',
+  '        consumed = 1 + 1 + fnl + 4\n        self._contents = packet[:self.header.length - consumed]\n        del packet[:self.header.length - consumed]')
+T('C08', 'twin-literal-name-len-local', PK, "        filename = self.filename.encode('utf-8')\n        _bytes += bytearray([len(filename)])\n        _bytes += filename",
+  "        name_octets = self.filename.encode('utf-8')\n        name_len = len(name_octets)\n        _bytes += self.int_to_bytes(name_len, 1) + name_octets")
+T('C08', 'twin-rsa-parse-locals', FL, '    def parse(self, packet):\n        self.n = MPI(packet)\n        self.e = MPI(packet)\n\n\nclass DSAPub',
+  '    def parse(self, packet):\n        n = MPI(packet)\n        e = MPI(packet)\n        self.n, self.e = n, e\n\n\nclass DSAPub')
+T('C08', 'twin-pubkey-restructured', PK, '        pk = PubKeyV4() if not isinstance(self, PrivSubKeyV4) else PubSubKeyV4()\n        pk.created = self.created\n        pk.pkalg = self.pkalg\n\n        # copy over MPIs\n        for pm in self.keymaterial.__pubfields__:\n            setattr(pk.keymaterial, pm, copy.copy(getattr(self.keymaterial, pm)))\n\n        if self.pkalg in {PubKeyAlgorithm.ECDSA, PubKeyAlgorithm.EdDSA}:\n            pk.keymaterial.oid = self.keymaterial.oid\n\n        if self.pkalg == PubKeyAlgorithm.ECDH:\n            pk.keymaterial.oid = self.keymaterial.oid\n            pk.keymaterial.kdf = copy.copy(self.keymaterial.kdf)\n\n        pk.update_hlen()\n        return pk',
+  '        if isinstance(self, PrivSubKeyV4):\n            pub = PubSubKeyV4()\n        else:\n            pub = PubKeyV4()\n        pub.created = self.created\n        pub.pkalg = self.pkalg\n\n        secret_km = self.keymaterial\n        public_km = pub.keymaterial\n\n        for field in secret_km.__pubfields__:\n            setattr(public_km, field, copy.copy(getattr(secret_km, field)))\n\n        if self.pkalg in {PubKeyAlgorithm.ECDSA, PubKeyAlgorithm.EdDSA, PubKeyAlgorithm.ECDH}:\n            public_km.oid = secret_km.oid\n\n        if self.pkalg == PubKeyAlgorithm.ECDH:\n            public_km.kdf = copy.copy(secret_km.kdf)\n\n        pub.update_hlen()\n        return pub')
+T('C08', 'twin-dispatch-get-and-helper', TY, '            ncls = None\n            if (rcls, header.typeid) in MetaDispatchable._registry:\n                ncls = MetaDispatchable._registry[(rcls, header.typeid)]\n\n                if ncls.__ver__ == 0:\n                    if header.__class__ != ncls.__headercls__:\n                        nh = ncls.__headercls__()\n                        nh.__dict__.update(header.__dict__)\n                        try:\n                            nh.parse(packet)\n\n                        except Exception as ex:\n                            raise PGPError(str(ex)) from ex\n\n                        header = nh\n\n                    if (rcls, header.typeid, header.version) in MetaDispatchable._registry:\n                        ncls = MetaDispatchable._registry[(rcls, header.typeid, header.version)]\n\n                    else:  # pragma: no cover\n                        ncls = None\n\n            if ncls is None:\n                ncls = MetaDispatchable._registry[(rcls, None)]\n',
+  '            registry = MetaDispatchable._registry\n\n            ncls = registry.get((rcls, header.typeid))\n            if ncls is not None and ncls.__ver__ == 0:\n                header = MetaDispatchable._versioned_header(header, ncls, packet)\n                ncls = registry.get((rcls, header.typeid, header.version))\n\n            if ncls is None:\n                ncls = registry[(rcls, None)]\n', more=[(TY, '    def __call__(cls, packet=None):  # NOQA\n', '    @staticmethod\n    def _versioned_header(header, ncls, packet):\n        if header.__class__ != ncls.__headercls__:\n            nh = ncls.__headercls__()\n            nh.__dict__.update(header.__dict__)\n            try:\n                nh.parse(packet)\n\n            except Exception as ex:\n                raise PGPError(str(ex)) from ex\n\n            return nh\n\n        return header\n\n    def __call__(cls, packet=None):  # NOQA\n')])
+T('C08', 'twin-header-first-octet-once', PT, '        self._lenfmt = ((packet[0] & 0x40) >> 6)\n        self.tag = packet[0]\n        if self._lenfmt == 0:\n            self.llen = (packet[0] & 0x03)\n        del packet[0]\n\n        if (self._lenfmt == 0 and self.llen > 0) or self._lenfmt == 1:\n            self.length = packet\n\n        else:\n            # indeterminate packet length\n            self.length = len(packet)\n',
+  '        first_octet = packet[0]\n        self._lenfmt = ((first_octet & 0x40) >> 6)\n        self.tag = first_octet\n        if self._lenfmt == 0:\n            self.llen = (first_octet & 0x03)\n        del packet[0]\n\n        has_length_field = self._lenfmt == 1 or (self._lenfmt == 0 and self.llen > 0)\n        if not has_length_field:\n            # indeterminate packet length\n            self.length = len(packet)\n\n        else:\n            self.length = packet\n')
+T('C08', 'twin-pkesk-pkalg-get', PK, '        ct = _c.get(self._pkalg, None)\n        self.ct = ct() if ct is not None else ct\n',
+  '        ctcls = _c.get(self._pkalg)\n        if ctcls is None:\n            self.ct = None\n\n        else:\n            self.ct = ctcls()\n', more=[(PK, "        _bytes += self.ct.__bytearray__() if self.ct is not None else b'\\x00' * (self.header.length - 10)\n", "        if self.ct is not None:\n            _bytes += self.ct.__bytearray__()\n\n        else:\n            _bytes += b'\\x00' * (self.header.length - 10)\n")])
+T('C08', 'twin-hashed-area-peek-spelling', FL, '        hl = self.bytes_to_int(packet[:2])\n        hashed_raw = packet[:2 + hl]\n        del packet[:2]\n',
+  '        count_octets = packet[:2]\n        hl = self.bytes_to_int(count_octets)\n        area_end = hl + 2\n        hashed_raw = packet[:area_end]\n        del packet[:2]\n')
+T('C08', 'twin-sigv4-fixed-part-tuple', PK, '        self.sigtype = packet[0]\n        del packet[0]\n\n        self.pubalg = packet[0]\n        del packet[0]\n\n        self.halg = packet[0]\n        del packet[0]\n\n        self.subpackets.parse(packet)\n\n        self.hash2 = packet[:2]\n        del packet[:2]\n\n        self.signature.parse(packet)\n',
+  '        sigtype, pubalg, halg = packet[0], packet[1], packet[2]\n        del packet[:3]\n        self.sigtype = sigtype\n        self.pubalg = pubalg\n        self.halg = halg\n\n        sp = self.subpackets\n        sp.parse(packet)\n\n        left16 = packet[:2]\n        del packet[:2]\n        self.hash2 = left16\n\n        self.signature.parse(packet)\n')
+T('C08', 'twin-pubkey-fixed-part-local-body', PK, '        self.created = packet[:4]\n        del packet[:4]\n\n        self.pkalg = packet[0]\n        del packet[0]\n\n        # bound keymaterial to the remaining length of the packet\n        pend = self.header.length - 6\n        self.keymaterial.parse(packet[:pend])\n        del packet[:pend]\n',
+  '        self.created = packet[:4]\n        self.pkalg = packet[4]\n        del packet[:5]\n\n        fixed = 1 + 4 + 1\n        body = packet[:self.header.length - fixed]\n        self.keymaterial.parse(body)\n        del packet[:self.header.length - fixed]\n')
+T('C08', 'twin-pubkey-writer-one-expression', PK, '        _bytes += self.int_to_bytes(calendar.timegm(self.created.utctimetuple()), 4)\n        _bytes += self.int_to_bytes(self.pkalg)\n        _bytes += self.keymaterial.__bytearray__()\n        return _bytes\n\n    def __copy__(self):\n        pk = self.__class__()',
+  '        stamp = calendar.timegm(self.created.utctimetuple())\n        return _bytes + self.int_to_bytes(stamp, 4) + bytearray([self.pkalg]) + self.keymaterial.__bytearray__()\n\n    def __copy__(self):\n        pk = self.__class__()')
+T('C08', 'twin-signer-hex-method', PK, "        self._signer = binascii.hexlify(val).upper().decode('latin-1')",
+  '        self._signer = val.hex().upper()')
+T('C08', 'twin-signer-hex-fromhex', PK, "        self._signer = binascii.hexlify(val).upper().decode('latin-1')",
+  '        self._signer = val.hex().upper()', more=[(PK, '        _bytes += binascii.unhexlify(self.signer.encode("latin-1"))', '        _bytes += bytearray.fromhex(self.signer)')])
+T('C08', 'twin-skesk-remainder-locals', PK, '        ctend = self.header.length - len(self.s2k)\n        self.ct = packet[:ctend]\n        del packet[:ctend]\n',
+  '        s2k_len = len(self.s2k)\n        total = self.header.length\n        self.ct = packet[:total - s2k_len]\n        del packet[:total - s2k_len]\n')
+T('C08', 'twin-elg-alias-guard-clause', FL, '        if not self.s2k:\n            self.x = MPI(packet)\n\n            if self.s2k.usage == 0:\n                self.chksum = packet[:2]\n                del packet[:2]\n\n        else:\n            self.encbytes = packet\n\n    def decrypt_keyblob(self, passphrase):\n        kb = super(ElGPriv, self).decrypt_keyblob(passphrase)',
+  '        if self.s2k:\n            self.encbytes = packet\n            return\n\n        self.x = MPI(packet)\n\n        if self.s2k.usage == 0:\n            cks = packet[:2]\n            del packet[:2]\n            self.chksum = cks\n\n    def decrypt_keyblob(self, passphrase):\n        kb = super(ElGPriv, self).decrypt_keyblob(passphrase)')
+T('C08', 'twin-literal-writer-append-extend', PK, '        _bytes += bytearray([len(filename)])\n        _bytes += filename',
+  '        _bytes.append(len(filename))\n        _bytes.extend(filename)')
+T('C08', 'twin-trust-two-targets-reordered', PK, '        t = self.bytes_to_int(packet[:2])\n        del packet[:2]\n\n        self.trustlevel = t\n        self.trustflags = t',
+  '        raw = packet[:2]\n        del packet[:2]\n        value = self.bytes_to_int(raw)\n\n        self.trustflags = value\n        self.trustlevel = value')
+T('C08', 'twin-onepass-pop-reads', PK, '        self.sigtype = packet[0]\n        del packet[0]\n\n        self.halg = packet[0]\n        del packet[0]\n\n        self.pubalg = packet[0]\n        del packet[0]\n\n        self.signer = packet[:8]\n        del packet[:8]\n\n        self.nested = (packet[0] == 1)\n        del packet[0]',
+  '        self.sigtype = packet.pop(0)\n        self.halg = packet.pop(0)\n        self.pubalg = packet.pop(0)\n\n        self.signer = packet[:8]\n        del packet[:8]\n\n        self.nested = (packet.pop(0) == 1)')
+T('C08', 'twin-onepass-setattr-loop', PK, '        self.sigtype = packet[0]\n        del packet[0]\n\n        self.halg = packet[0]\n        del packet[0]\n\n        self.pubalg = packet[0]\n        del packet[0]\n\n        self.signer = packet[:8]\n        del packet[:8]\n\n        self.nested = (packet[0] == 1)\n        del packet[0]',
+  "        for attr in ('sigtype', 'halg', 'pubalg'):\n            setattr(self, attr, packet[0])\n            del packet[0]\n\n        self.signer = packet[:8]\n        del packet[:8]\n\n        self.nested = (packet[0] == 1)\n        del packet[0]")
+T('C08', 'twin-uri-bytes-constructor', SS, '        _bytes += self.uri.encode()\n        return _bytes',
+  "        _bytes += bytes(self.uri, 'utf-8')\n        return _bytes")
+T('C08', 'twin-filename-str-constructor', PK, '        self.filename = packet[:fnl].decode()\n',
+  "        self.filename = str(packet[:fnl], 'utf-8')\n")
+T('C08', 'twin-literal-empty-early-return', PK, '        self.mtime = packet[:4]\n        del packet[:4]\n\n        self._contents',
+  '        self.mtime = packet[:4]\n        del packet[:4]\n\n        if self.header.length - (6 + fnl) == 0:\n            self._contents = bytearray()\n            return\n\n        self._contents')
+T('C08', 'twin-notation-lengths-to-bytes', SS, '        _bytes += self.int_to_bytes(len(name), 2)\n        _bytes += self.int_to_bytes(len(value), 2)\n',
+  "        _bytes += len(name).to_bytes(2, 'big')\n        _bytes += len(value).to_bytes(2, 'big')\n")
+T('C08', 'twin-seipd-length-locals', PK, '        self.ct = packet[:self.header.length - 1]\n        del packet[:self.header.length - 1]\n\n    def encrypt(self, key, alg, data):',
+  '        hlen = self.header.length\n        body = hlen - 1\n        self.ct = packet[:body]\n        del packet[:body]\n\n    def encrypt(self, key, alg, data):')
+T('C08', 'twin-notation-offset-reads', SS, '        self.flags = packet[:1]\n        del packet[:4]\n        nlen = self.bytes_to_int(packet[:2])\n        del packet[:2]\n        vlen = self.bytes_to_int(packet[:2])\n        del packet[:2]\n',
+  '        self.flags = packet[:1]\n        nlen = self.bytes_to_int(packet[4:6])\n        vlen = self.bytes_to_int(packet[6:8])\n        del packet[:8]\n')
+T('C08', 'twin-hashed-area-count-from-bytes', FL, '        hl = self.bytes_to_int(packet[:2])\n        hashed_raw = packet[:2 + hl]\n        del packet[:2]\n',
+  "        hl = int.from_bytes(packet[:2], 'big')\n        hashed_raw = packet[:2 + hl]\n        del packet[:2]\n")
+T('C08', 'twin-dispatch-factory-staticmethod', TY, '    def __call__(cls, packet=None):  # NOQA\n        def _makeobj(cls):\n            obj = object.__new__(cls)\n            obj.__init__()\n            return obj\n\n',
+  '    @staticmethod\n    def _makeobj(cls):\n        obj = object.__new__(cls)\n        obj.__init__()\n        return obj\n\n    def __call__(cls, packet=None):  # NOQA\n', more=[(TY, '            obj = _makeobj(ncls)\n', '            obj = MetaDispatchable._makeobj(ncls)\n'), (TY, '            obj = _makeobj(cls)\n', '            obj = MetaDispatchable._makeobj(cls)\n')])
+# --- end C08 hardening
 M('C09', 'old-tag-shift', PT, "        tag |= (self.tag) if self._lenfmt else ((self.tag << 2) | {1: 0, 2: 1, 4: 2, 0: 3}[self.llen])", "        tag |= (self.tag) if self._lenfmt else ((self.tag << 1) | {1: 0, 2: 1, 4: 2, 0: 3}[self.llen])", 'C09.8')
 M('C09', 'tag-mask-1f', PT, "        _tag = (val & 0x3F) if self._lenfmt else ((val & 0x3C) >> 2)", "        _tag = (val & 0x1F) if self._lenfmt else ((val & 0x3C) >> 2)", 'C09.8')
 M('C09', 'partial-del-one', TY, "                    del b[total:total + size]", "                    del b[total:total + 1]", 'C09.8')
@@ -561,3 +1896,323 @@ T('C09', 'twin-tag-expr', PT, "        tag = 0x80 | (self._lenfmt << 6)\n       
 M('C02', 'hash-id', CO, "    SHA224 = 0x0B", "    SHA224 = 0x0C", 'C02.1')
 M('C02', 'pk-id', CO, "    EdDSA = 0x16  #", "    EdDSA = 0x17  #", 'C02.1')
 M('C12', 'ripemd-id', CO, "    RIPEMD160 = 0x03", "    RIPEMD160 = 0x04", 'C12.2')
+
+# =============================================================================================== C18 (hardening: value-based rules; twins from twins/C07-ref1, C16-ref4, C18-ref1..4 and further ones)
+_FP_BODY = ("        fp = hashlib.new('sha1')\n\n        plen = self.keymaterial.publen()\n        bcde_len = self.int_to_bytes(6 + plen, 2)\n")
+# --- C18.1
+T('C18', 'twin-fp-hashlib-sha1', PK, "        fp = hashlib.new('sha1')", "        fp = hashlib.sha1()")
+T('C18', 'twin-fp-len-commuted', PK, "        bcde_len = self.int_to_bytes(6 + plen, 2)", "        bcde_len = self.int_to_bytes(plen + 4 + 2, minlen=2)")
+T('C18', 'twin-fp-digest-temp', PK, "        return Fingerprint(fp.hexdigest().upper())", "        digest = fp.hexdigest()\n        text = digest.upper()\n        return Fingerprint(text)")
+T('C18', 'twin-fp-upper-left-to-class', PK, "        return Fingerprint(fp.hexdigest().upper())", "        return Fingerprint(fp.hexdigest())")
+T('C18', 'twin-fp-alg-octet-list', PK, "        fp.update(self.int_to_bytes(self.pkalg))\n        # e)", "        fp.update(bytearray([self.pkalg]))\n        # e)")
+T('C18', 'twin-fp-version-number', PK, "        fp.update(b'\\x04')\n", "        fp.update(bytearray([4]))\n")
+T('C18', 'twin-fp-time-temporaries', PK, "        fp.update(self.int_to_bytes(calendar.timegm(self.created.utctimetuple()), 4))",
+  "        when = self.created\n        tt = when.utctimetuple()\n        seconds = calendar.timegm(tt)\n        fp.update(self.int_to_bytes(seconds, 4))")
+T('C18', 'twin-fp-join-renamed', PK,
+  "        fp = hashlib.new('sha1')\n\n        plen = self.keymaterial.publen()\n        bcde_len = self.int_to_bytes(6 + plen, 2)\n\n        # a.1) 0x99 (1 octet)\n        # a.2) high-order length octet\n        # a.3) low-order length octet\n        fp.update(b'\\x99' + bcde_len[:1] + bcde_len[-1:])\n        # b) version number = 4 (1 octet);\n        fp.update(b'\\x04')\n        # c) timestamp of key creation (4 octets);\n        fp.update(self.int_to_bytes(calendar.timegm(self.created.utctimetuple()), 4))\n        # d) algorithm (1 octet): 17 = DSA (example);\n        fp.update(self.int_to_bytes(self.pkalg))\n        # e) Algorithm-specific fields.\n        fp.update(self.keymaterial.__bytearray__()[:plen])\n",
+  "        digest = hashlib.new('sha1')\n        material = self.keymaterial\n        publen = material.publen()\n        length_octets = self.int_to_bytes(6 + publen, 2)\n        hashed = b''.join([b'\\x99', length_octets[:1], length_octets[-1:], b'\\x04',\n                           self.int_to_bytes(calendar.timegm(self.created.utctimetuple()), 4),\n                           self.int_to_bytes(self.pkalg), material.__bytearray__()[:publen]])\n        digest.update(hashed)\n        fp = digest\n")
+M('C18', 'fp-length-octets-swapped', PK, "        fp.update(b'\\x99' + bcde_len[:1] + bcde_len[-1:])", "        fp.update(b'\\x99' + bcde_len[-1:] + bcde_len[:1])", 'C18.1')
+M('C18', 'fp-version-3', PK, "        fp.update(b'\\x04')\n", "        fp.update(b'\\x03')\n", 'C18.1')
+M('C18', 'fp-publen-whole-material', PK, "        plen = self.keymaterial.publen()", "        plen = len(self.keymaterial)", 'C18.1')
+M('C18', 'fp-hashlib-sha256', PK, "        fp = hashlib.new('sha1')", "        fp = hashlib.sha256()", 'C18.1')
+M('C18', 'fp-digest-of-other-hasher', PK, "        return Fingerprint(fp.hexdigest().upper())", "        return Fingerprint(hashlib.new('sha1', self.keymaterial.__bytearray__()).hexdigest().upper())", 'C18.1')
+M('C18', 'fp-time-temp-drops-offset', PK, "        fp.update(self.int_to_bytes(calendar.timegm(self.created.utctimetuple()), 4))",
+  "        tt = self.created.timetuple()\n        fp.update(self.int_to_bytes(calendar.timegm(tt), 4))", 'C18')
+M('C18', 'fp-time-of-now', PK, "        fp.update(self.int_to_bytes(calendar.timegm(self.created.utctimetuple()), 4))",
+  "        fp.update(self.int_to_bytes(calendar.timegm(datetime.now(timezone.utc).utctimetuple()), 4))", 'C18.1')
+# --- C18.2
+T('C18', 'twin-export-extend', PK, "        _bytes += self.int_to_bytes(self.pkalg)\n        _bytes += self.keymaterial.__bytearray__()\n        return _bytes\n\n    def __copy__(self):\n        pk = self.__class__()",
+  "        _bytes.extend(bytearray([self.pkalg]))\n        body = self.keymaterial.__bytearray__()\n        _bytes += body\n        return _bytes\n\n    def __copy__(self):\n        pk = self.__class__()")
+T('C18', 'twin-parse-absolute-offsets', PK, "        self.created = packet[:4]\n        del packet[:4]\n\n        self.pkalg = packet[0]\n        del packet[0]\n\n        # bound keymaterial to the remaining length of the packet\n        pend = self.header.length - 6\n        self.keymaterial.parse(packet[:pend])\n        del packet[:pend]",
+  "        self.created = packet[:4]\n        self.pkalg = packet[4]\n        nmaterial = self.header.length - 1 - 4 - 1\n        self.keymaterial.parse(packet[5:5 + nmaterial])\n        del packet[:5 + nmaterial]")
+T('C18', 'twin-parse-bound-inline', PK, "        pend = self.header.length - 6\n        self.keymaterial.parse(packet[:pend])\n        del packet[:pend]",
+  "        self.keymaterial.parse(packet[0:self.header.length - 6])\n        del packet[:self.header.length - 6]")
+T('C18', 'twin-versioned-header-append', PT, "        _bytes += bytearray([self.version])\n        return _bytes", "        _bytes.append(self.version)\n        return _bytes")
+M('C18', 'parse-material-bound-5', PK, "        pend = self.header.length - 6\n", "        pend = self.header.length - 5\n", 'C18.2')
+M('C18', 'parse-material-unbounded', PK, "        self.keymaterial.parse(packet[:pend])\n        del packet[:pend]", "        self.keymaterial.parse(packet)\n        del packet[:pend]", 'C18.2')
+M('C18', 'parse-algorithm-not-consumed', PK, "        self.pkalg = packet[0]\n        del packet[0]\n\n        # bound keymaterial", "        self.pkalg = packet[0]\n\n        # bound keymaterial", 'C18.2')
+M('C18', 'export-time-timestamp', PK, "        _bytes += self.int_to_bytes(calendar.timegm(self.created.utctimetuple()), 4)", "        _bytes += self.int_to_bytes(int(self.created.timestamp()), 4)", 'C18')
+M('C18', 'versioned-header-tag-octet', PT, "        _bytes += bytearray([self.version])\n        return _bytes", "        _bytes += bytearray([self.tag])\n        return _bytes", 'C18.2')
+# --- C18.3
+T('C18', 'twin-publen-temporaries-super', FL, "    def publen(self):\n        return super(PrivKey, self).__len__()",
+  "    def publen(self) -> int:\n        # the public fields come first\n        public_octets = super().__len__()\n        return public_octets",
+  more=[(FL, "    def publen(self):\n        return len(self)", "    def publen(self) -> int:\n        \"\"\"number of leading octets that hold the public fields\"\"\"\n        nbytes = len(self)\n        return nbytes"),
+        (FL, "    def publen(self):\n        return ECDHPub.__len__(self)", "    def publen(self) -> int:\n        public_octets = ECDHPub.__len__(self)\n        return public_octets"),
+        (FL, "    def __len__(self):\n        return sum(len(getattr(self, i)) for i in self.__pubfields__)", "    def __len__(self) -> int:\n        return sum(len(getattr(self, field)) for field in self.__pubfields__)")])
+T('C18', 'twin-publen-dunder-call', FL, "    def publen(self):\n        return len(self)", "    def publen(self):\n        return self.__len__()")
+T('C18', 'twin-ecdh-publen-spelt-out', FL, "    def publen(self):\n        return ECDHPub.__len__(self)", "    def publen(self):\n        return len(self.p) + len(self.kdf) + len(encoder.encode(self.oid.value)) - 1")
+M('C18', 'publen-off-by-one', FL, "    def publen(self):\n        return super(PrivKey, self).__len__()", "    def publen(self):\n        return super(PrivKey, self).__len__() + 1", 'C18.3')
+M('C18', 'ecdh-publen-of-ecdsa-sibling', FL, "    def publen(self):\n        return ECDHPub.__len__(self)", "    def publen(self):\n        return ECDSAPub.__len__(self)", 'C18.3')
+M('C18', 'publen-skips-mro', FL, "    def publen(self):\n        return super(PrivKey, self).__len__()", "    def publen(self):\n        return PubKey.__len__(self)", 'C18.3')
+# --- C18.4
+T('C18', 'twin-keyid-from-length', TY, "        return self[-16:]", "        return self[len(self) - 16:]")
+T('C18', 'twin-key-fingerprint-guard-clause', PGP, "        if self._key:\n            return self._key.fingerprint\n", "        pkt = self._key\n        if not pkt:\n            return None\n        return pkt.fingerprint\n")
+M('C18', 'shortid-high-bits', TY, "        return self[-8:]", "        return self[:8]", 'C18.4')
+M('C18', 'keyid-off-by-one', TY, "        return self[-16:]", "        return self[-16:-1]", 'C18.4')
+M('C18', 'key-fingerprint-of-primary', PGP, "        if self._key:\n            return self._key.fingerprint\n", "        if self._key:\n            return (self.parent or self)._key.fingerprint\n", 'C18.4')
+# --- C18.6 (shared family with C07.1)
+T('C18', 'twin-pubkey-renamed-merged-oid', PK,
+  "        pk = PubKeyV4() if not isinstance(self, PrivSubKeyV4) else PubSubKeyV4()\n        pk.created = self.created\n        pk.pkalg = self.pkalg\n\n        # copy over MPIs\n        for pm in self.keymaterial.__pubfields__:\n            setattr(pk.keymaterial, pm, copy.copy(getattr(self.keymaterial, pm)))\n\n        if self.pkalg in {PubKeyAlgorithm.ECDSA, PubKeyAlgorithm.EdDSA}:\n            pk.keymaterial.oid = self.keymaterial.oid\n\n        if self.pkalg == PubKeyAlgorithm.ECDH:\n            pk.keymaterial.oid = self.keymaterial.oid\n            pk.keymaterial.kdf = copy.copy(self.keymaterial.kdf)\n\n        pk.update_hlen()\n        return pk\n",
+  "        if isinstance(self, PrivSubKeyV4):\n            pub = PubSubKeyV4()\n        else:\n            pub = PubKeyV4()\n        pub.created = self.created\n        pub.pkalg = self.pkalg\n\n        secret_km = self.keymaterial\n        public_km = pub.keymaterial\n\n        for field in secret_km.__pubfields__:\n            setattr(public_km, field, copy.copy(getattr(secret_km, field)))\n\n        if self.pkalg in {PubKeyAlgorithm.ECDSA, PubKeyAlgorithm.EdDSA, PubKeyAlgorithm.ECDH}:\n            public_km.oid = secret_km.oid\n\n        if self.pkalg == PubKeyAlgorithm.ECDH:\n            public_km.kdf = copy.copy(secret_km.kdf)\n\n        pub.update_hlen()\n        return pub\n")
+T('C18', 'twin-pubkey-created-last', PK, "        pk.created = self.created\n        pk.pkalg = self.pkalg\n\n        # copy over MPIs\n        for pm in self.keymaterial.__pubfields__:\n            setattr(pk.keymaterial, pm, copy.copy(getattr(self.keymaterial, pm)))\n",
+  "        pk.pkalg = self.pkalg\n\n        # copy over MPIs\n        names = self.keymaterial.__pubfields__\n        for name in names:\n            value = copy.copy(getattr(self.keymaterial, name))\n            setattr(pk.keymaterial, name, value)\n        pk.created = self.created\n")
+M('C18', 'pubkey-loop-skips-first-field', PK, "        for pm in self.keymaterial.__pubfields__:\n            setattr(pk.keymaterial, pm, copy.copy(getattr(self.keymaterial, pm)))", "        for pm in self.keymaterial.__pubfields__[1:]:\n            setattr(pk.keymaterial, pm, copy.copy(getattr(self.keymaterial, pm)))", 'C18.6')
+M('C18', 'pubkey-loop-over-temp-privfields', PK, "        for pm in self.keymaterial.__pubfields__:\n            setattr(pk.keymaterial, pm, copy.copy(getattr(self.keymaterial, pm)))", "        km = self.keymaterial\n        for pm in km.__pubfields__ + km.__privfields__:\n            setattr(pk.keymaterial, pm, copy.copy(getattr(km, pm)))", 'C18.6')
+M('C18', 'pubkey-field-from-fresh-default', PK, "            setattr(pk.keymaterial, pm, copy.copy(getattr(self.keymaterial, pm)))", "            setattr(pk.keymaterial, pm, copy.copy(getattr(pk.keymaterial, pm)))", 'C18.6')
+M('C18', 'pubkey-ecdh-curve-not-copied', PK, "        if self.pkalg == PubKeyAlgorithm.ECDH:\n            pk.keymaterial.oid = self.keymaterial.oid\n", "        if self.pkalg == PubKeyAlgorithm.ECDH:\n", 'C18.6')
+M('C18', 'pubkey-merged-oid-loses-eddsa', PK, "        if self.pkalg in {PubKeyAlgorithm.ECDSA, PubKeyAlgorithm.EdDSA}:\n            pk.keymaterial.oid = self.keymaterial.oid\n\n        if self.pkalg == PubKeyAlgorithm.ECDH:\n            pk.keymaterial.oid = self.keymaterial.oid\n",
+  "        if self.pkalg in {PubKeyAlgorithm.ECDSA, PubKeyAlgorithm.ECDH}:\n            pk.keymaterial.oid = self.keymaterial.oid\n\n        if self.pkalg == PubKeyAlgorithm.ECDH:\n", 'C18.6')
+# --- C18.7 (shared family with C16.4)
+T('C18', 'twin-ids-temporaries-merged-ifs', PGP,
+  "        if prefs.pop('include_issuer_fingerprint', True):\n            if isinstance(self._key, PrivKeyV4):\n                sig._signature.subpackets.addnew('IssuerFingerprint', hashed=True, _version=4, _issuer_fpr=self.fingerprint)\n",
+  "        if prefs.pop('include_issuer_fingerprint', True) and isinstance(self._key, PrivKeyV4):\n            issuer_fpr = self.fingerprint\n            sig._signature.subpackets.addnew('IssuerFingerprint', hashed=True, _version=4, _issuer_fpr=issuer_fpr)\n",
+  more=[(PGP, "        pkesk.encrypter = bytearray(binascii.unhexlify(self.fingerprint.keyid.encode('latin-1')))", "        recipient_keyid = self.fingerprint.keyid\n        pkesk.encrypter = bytearray(binascii.unhexlify(recipient_keyid.encode('latin-1')))"),
+        (PGP, "        sig = PGPSignature()\n\n        if created is None:\n            created = datetime.now(timezone.utc)\n        sigpkt = SignatureV4()", "        if created is None:\n            created = datetime.now(timezone.utc)\n        sigpkt = SignatureV4()"),
+        (PGP, "            sigpkt.halg = halg\n\n        sig._signature = sigpkt", "            sigpkt.halg = halg\n\n        sig = PGPSignature()\n        sig._signature = sigpkt")])
+T('C18', 'twin-ids-keyword-arguments', PGP, "        sig = PGPSignature.new(SignatureType.DirectlyOnKey, self.key_algorithm, hash_algo, self.fingerprint.keyid, created=prefs.pop('created', None))",
+  "        own_id = self.fingerprint.keyid\n        sig = PGPSignature.new(SignatureType.DirectlyOnKey, halg=hash_algo, signer=own_id, pkalg=self.key_algorithm, created=prefs.pop('created', None))",
+  more=[(PGP, "addnew('IssuerFingerprint', hashed=True, _version=4, _issuer_fpr=self.fingerprint)", "addnew('IssuerFingerprint', True, _issuer_fpr=self.fingerprint, _version=4)"),
+        (PGP, "        _sig = self._key.sign(sigdata, getattr(hashes, sig.hash_algorithm.name)())", "        material = self._key\n        _sig = material.sign(sigdata, getattr(hashes, sig.hash_algorithm.name)())")])
+T('C18', 'twin-recipient-id-fromhex', PGP, "        pkesk.encrypter = bytearray(binascii.unhexlify(self.fingerprint.keyid.encode('latin-1')))\n        pkesk.pkalg = self.key_algorithm",
+  "        pkesk.pkalg = self.key_algorithm\n        pkesk.encrypter = bytearray(bytes.fromhex(self.fingerprint.keyid))")
+T('C18', 'twin-new-signature-packet-renamed', PGP, "        sigpkt.sigtype = sigtype\n        sigpkt.pubalg = pkalg\n\n        if halg is not None:\n            sigpkt.halg = halg\n\n        sig._signature = sigpkt\n        return sig",
+  "        sig._signature = sigpkt\n        packet = sig._signature\n        packet.pubalg = pkalg\n        packet.sigtype = sigtype\n\n        if halg is not None:\n            packet.halg = halg\n\n        return sig")
+M('C18', 'issuer-id-of-primary-in-bind', PGP, "            raise PGPError\n\n        sig = PGPSignature.new(sig_type, self.key_algorithm, hash_algo, self.fingerprint.keyid, created=prefs.pop('created', None))",
+  "            raise PGPError\n\n        signer = (key if key.is_primary else self).fingerprint.keyid\n        sig = PGPSignature.new(sig_type, self.key_algorithm, hash_algo, signer, created=prefs.pop('created', None))", 'C18.7')
+M('C18', 'issuer-keyword-other-key', PGP, "        sig = PGPSignature.new(SignatureType.DirectlyOnKey, self.key_algorithm, hash_algo, self.fingerprint.keyid, created=prefs.pop('created', None))",
+  "        sig = PGPSignature.new(SignatureType.DirectlyOnKey, self.key_algorithm, hash_algo, signer=revoker.fingerprint.keyid, created=prefs.pop('created', None))", 'C18.7')
+M('C18', 'new-issuer-not-recorded', PGP, "        sigpkt.subpackets.addnew('Issuer', _issuer=signer)\n", "", 'C18.7')
+M('C18', 'new-algorithm-only-if-hash-given', PGP, "        sigpkt.sigtype = sigtype\n        sigpkt.pubalg = pkalg\n\n        if halg is not None:\n            sigpkt.halg = halg\n", "        sigpkt.sigtype = sigtype\n\n        if halg is not None:\n            sigpkt.pubalg = pkalg\n            sigpkt.halg = halg\n", 'C18.7')
+M('C18', 'issuer-fpr-temp-from-parent', PGP, "                sig._signature.subpackets.addnew('IssuerFingerprint', hashed=True, _version=4, _issuer_fpr=self.fingerprint)",
+  "                owner = self if self.is_primary else self.parent\n                fpr = owner.fingerprint\n                sig._signature.subpackets.addnew('IssuerFingerprint', hashed=True, _version=4, _issuer_fpr=fpr)", 'C18.7')
+M('C18', 'issuer-fpr-version-5', PGP, "addnew('IssuerFingerprint', hashed=True, _version=4, _issuer_fpr=self.fingerprint)", "addnew('IssuerFingerprint', hashed=True, _version=5, _issuer_fpr=self.fingerprint)", 'C18.7')
+M('C18', 'sign-with-primary-material', PGP, "        _sig = self._key.sign(sigdata, getattr(hashes, sig.hash_algorithm.name)())", "        signing = (self.parent or self)._key\n        _sig = signing.sign(sigdata, getattr(hashes, sig.hash_algorithm.name)())", 'C18.7')
+M('C18', 'recipient-shortid', PGP, "        pkesk.encrypter = bytearray(binascii.unhexlify(self.fingerprint.keyid.encode('latin-1')))", "        pkesk.encrypter = bytearray(binascii.unhexlify(self.fingerprint.shortid.encode('latin-1')))", 'C18.7')
+M('C18', 'recipient-raw-ascii-id', PGP, "        pkesk.encrypter = bytearray(binascii.unhexlify(self.fingerprint.keyid.encode('latin-1')))", "        pkesk.encrypter = bytearray(self.fingerprint.keyid.encode('latin-1'))", 'C18.7')
+M('C18', 'session-key-to-primary-material', PGP, "        pkesk.encrypt_sk(self._key, cipher_algo, sessionkey)", "        target = self.parent._key if self.parent is not None else self._key\n        pkesk.encrypt_sk(target, cipher_algo, sessionkey)", 'C18.7')
+T('C18', 'twin-pubkey-class-via-local', PK, "        pk = PubKeyV4() if not isinstance(self, PrivSubKeyV4) else PubSubKeyV4()\n", "        klass = PubSubKeyV4 if isinstance(self, PrivSubKeyV4) else PubKeyV4\n        pk = klass()\n")
+M('C18', 'pubkey-class-via-local-keeps-private-subkey', PK, "        pk = PubKeyV4() if not isinstance(self, PrivSubKeyV4) else PubSubKeyV4()\n", "        klass = PrivSubKeyV4 if isinstance(self, PrivSubKeyV4) else PubKeyV4\n        pk = klass()\n", 'C18.6')
+T('C18', 'twin-keyid-of-plain-text', TY, "        return self[-16:]", "        return str(self)[-16:]",
+  more=[(PGP, "        if self._key:\n            return self._key.fingerprint\n", "        return self._key.fingerprint if self._key else None\n")])
+# =============================================================================================== C14 / C20 hardening (semantic rules)
+# ---- C14.1 export grammar and filters: loops with guard clauses / nested ifs / chunk lists are the same term as the comprehension
+EXPORT = ("        _bytes = bytearray()\n        # us\n        _bytes += self._key.__bytearray__()\n        # our signatures; ignore embedded signatures\n"
+          "        for sig in iter(s for s in self._signatures if not s.embedded and s.exportable):\n            _bytes += sig.__bytearray__()\n"
+          "        # one or more User IDs, followed by their signatures\n        for uid in self._uids:\n            _bytes += uid._uid.__bytearray__()\n"
+          "            for s in [s for s in uid._signatures if s.exportable]:\n                _bytes += s.__bytearray__()\n"
+          "        # subkeys\n        for sk in self._children.values():\n            _bytes += sk.__bytearray__()\n\n        return _bytes\n")
+KEYSIGS = "        for sig in iter(s for s in self._signatures if not s.embedded and s.exportable):\n            _bytes += sig.__bytearray__()\n"
+UIDSIGS = "            for s in [s for s in uid._signatures if s.exportable]:\n                _bytes += s.__bytearray__()\n"
+T('C14', 'twin-export-chunks-joined', PGP, EXPORT,
+  "        chunks = []\n        chunks.append(self._key.__bytearray__())\n        for sig in self._signatures:\n            if sig.embedded or not sig.exportable:\n                continue\n"
+  "            chunks.append(sig.__bytearray__())\n        for uid in self._uids:\n            chunks.append(uid._uid.__bytearray__())\n"
+  "            exportable = [s for s in uid._signatures if s.exportable]\n            chunks.extend(s.__bytearray__() for s in exportable)\n"
+  "        chunks.extend(sk.__bytearray__() for sk in self._children.values())\n\n        return bytearray().join(chunks)\n")
+T('C14', 'twin-export-guard-clauses', PGP, KEYSIGS,
+  "        for keysig in self._signatures:\n            if keysig.embedded:\n                continue\n            if not keysig.exportable:\n                continue\n            _bytes += keysig.__bytearray__()\n")
+T('C14', 'twin-export-nested-if', PGP, KEYSIGS,
+  "        for keysig in self._signatures:\n            if keysig.exportable:\n                if not keysig.embedded:\n                    _bytes += keysig.__bytearray__()\n")
+T('C14', 'twin-export-demorgan', PGP, KEYSIGS,
+  "        for keysig in self._signatures:\n            if not (keysig.embedded or not keysig.exportable):\n                _bytes += keysig.__bytearray__()\n")
+T('C14', 'twin-export-uidsigs-plain-loop', PGP, UIDSIGS,
+  "            for certification in uid._signatures:\n                if not certification.exportable:\n                    continue\n                _bytes += certification.__bytearray__()\n")
+T('C14', 'twin-export-subkeys-items', PGP, "        for sk in self._children.values():\n            _bytes += sk.__bytearray__()\n\n        return _bytes",
+  "        for _keyid, subkey in self._children.items():\n            _bytes += subkey.__bytearray__()\n\n        return _bytes")
+M('C14', 'export-or-filter', PGP, KEYSIGS, "        for sig in iter(s for s in self._signatures if not s.embedded or s.exportable):\n            _bytes += sig.__bytearray__()\n", 'C14.1')
+M('C14', 'export-guard-wrong-polarity', PGP, KEYSIGS,
+  "        for sig in self._signatures:\n            if sig.embedded or sig.exportable:\n                continue\n            _bytes += sig.__bytearray__()\n", 'C14.1')
+M('C14', 'export-guard-exportable-dropped', PGP, KEYSIGS,
+  "        for sig in self._signatures:\n            if sig.embedded:\n                continue\n            _bytes += sig.__bytearray__()\n", 'C14.1')
+M('C14', 'export-uid-gets-key-sigs', PGP, UIDSIGS, "            for s in [s for s in self._signatures if s.exportable]:\n                _bytes += s.__bytearray__()\n", 'C14.1')
+M('C14', 'export-unsigned-uids-dropped', PGP, "        for uid in self._uids:\n            _bytes += uid._uid.__bytearray__()\n            for s in [s",
+  "        for uid in self._uids:\n            if not uid._signatures:\n                continue\n            _bytes += uid._uid.__bytearray__()\n            for s in [s", 'C14.1')
+M('C14', 'export-uid-sigs-expired-dropped', PGP, UIDSIGS, "            for s in [s for s in uid._signatures if s.exportable and not s.is_expired]:\n                _bytes += s.__bytearray__()\n", 'C14.1')
+# ---- C14.2
+EXPORTABLE = "        if 'ExportableCertification' in self._signature.subpackets:\n            return bool(next(iter(self._signature.subpackets['ExportableCertification'])))\n\n        return True\n"
+T('C14', 'twin-exportable-inverted-guard', PGP, EXPORTABLE,
+  "        subpackets = self._signature.subpackets\n        if 'ExportableCertification' not in subpackets:\n            return True\n\n        return bool(next(iter(subpackets['ExportableCertification'])))\n")
+T('C14', 'twin-exportable-conditional-expression', PGP, EXPORTABLE,
+  "        sp = self._signature.subpackets\n        return bool(next(iter(sp['ExportableCertification']))) if 'ExportableCertification' in sp else True\n")
+T('C14', 'twin-exportable-first-element', PGP, EXPORTABLE,
+  "        if 'ExportableCertification' in self._signature.subpackets:\n            return self._signature.subpackets['ExportableCertification'][0].bflag\n\n        return True\n")
+M('C14', 'exportable-inverted-default-false', PGP, EXPORTABLE,
+  "        subpackets = self._signature.subpackets\n        if 'ExportableCertification' not in subpackets:\n            return False\n\n        return bool(next(iter(subpackets['ExportableCertification'])))\n", 'C14.2')
+M('C14', 'exportable-flag-negated', PGP, EXPORTABLE,
+  "        if 'ExportableCertification' in self._signature.subpackets:\n            return not next(iter(self._signature.subpackets['ExportableCertification']))\n\n        return True\n", 'C14.2')
+M('C14', 'exportable-wrong-subpacket', PGP, EXPORTABLE,
+  "        if 'ExportableCertification' in self._signature.subpackets:\n            return bool(next(iter(self._signature.subpackets['Revocable'])))\n\n        return True\n", 'C14.2')
+T('C14', 'twin-boolean-param-rename', SS, "    def bflag_bytearray(self, val):\n        self.bflag = bool(self.bytes_to_int(val))", "    def bflag_bytearray(self, octets):\n        self.bflag = self.bytes_to_int(octets) != 0")
+M('C14', 'boolean-bool-setter-other-attr', SS, "    def bflag_bool(self, val):\n        self._bool = val", "    def bflag_bool(self, val):\n        self._bflag = val", 'C14.2')
+# ---- C14.3
+GROUPS = "            for group in iter(group for _, group in itertools.groupby(getpkt, key=pktgrouper()) if not _.endswith('Opaque')):\n                pkt = next(group)\n"
+ATTACH = "                [ operator.ior(pgpobj, PGPSignature() | sig) for sig in group if not isinstance(sig, Opaque) ]\n"
+TRUST = "        getpkt = filter(lambda p: p.header.tag != PacketTag.Trust, iter(functools.partial(_getpkt, data), None))\n"
+GROUPER = "                    if pkt.header.tag != PacketTag.Signature:\n                        self.last = '{:02X}_{:s}'.format(id(pkt), pkt.__class__.__name__)\n                    return self.last\n"
+FILING = ("                if isinstance(pgpobj, PGPKey):\n                    if pgpobj.is_primary:\n                        keys[(pgpobj.fingerprint.keyid, pgpobj.is_public)] = pgpobj\n\n"
+          "                    else:\n                        keys[next(reversed(keys))] |= pgpobj\n\n                elif isinstance(pgpobj, PGPUID):\n"
+          "                    # parent is likely the most recently parsed primary key\n                    keys[next(reversed(keys))] |= pgpobj\n\n"
+          "                else:  # pragma: no cover\n                    break\n")
+T('C14', 'twin-groups-plain-loop', PGP, GROUPS,
+  "            for groupname, group in itertools.groupby(getpkt, key=pktgrouper()):\n                if groupname.endswith('Opaque'):\n                    continue\n\n                pkt = next(group)\n")
+T('C14', 'twin-attach-plain-loop', PGP, ATTACH,
+  "                for sig in group:\n                    if isinstance(sig, Opaque):\n                        continue\n                    pgpobj |= PGPSignature() | sig\n")
+T('C14', 'twin-attach-guarded-loop', PGP, ATTACH,
+  "                for sigpkt in group:\n                    if not isinstance(sigpkt, Opaque):\n                        pgpobj |= PGPSignature() | sigpkt\n")
+T('C14', 'twin-attach-mapped-loop', PGP, ATTACH,
+  "                for pgpsig in (PGPSignature() | s for s in group if not isinstance(s, Opaque)):\n                    pgpobj |= pgpsig\n")
+T('C14', 'twin-trust-generator-expression', PGP, TRUST,
+  "        getpkt = (p for p in iter(functools.partial(_getpkt, data), None) if p.header.tag != PacketTag.Trust)\n")
+T('C14', 'twin-trust-not-eq', PGP, TRUST,
+  "        packets = iter(functools.partial(_getpkt, data), None)\n        getpkt = filter(lambda pkt: not pkt.header.tag == PacketTag.Trust, packets)\n")
+T('C14', 'twin-grouper-early-return', PGP, GROUPER,
+  "                    if pkt.header.tag == PacketTag.Signature:\n                        return self.last\n                    self.last = '{:02X}_{:s}'.format(id(pkt), pkt.__class__.__name__)\n                    return self.last\n")
+T('C14', 'twin-filing-merged-arms', PGP, FILING,
+  "                if isinstance(pgpobj, PGPKey) and pgpobj.is_primary:\n                    keys[(pgpobj.fingerprint.keyid, pgpobj.is_public)] = pgpobj\n\n"
+  "                elif isinstance(pgpobj, (PGPKey, PGPUID)):\n                    # parent is likely the most recently parsed primary key\n                    latest = next(reversed(keys))\n                    keys[latest] |= pgpobj\n\n"
+  "                else:  # pragma: no cover\n                    break\n")
+T('C14', 'twin-head-if-statement', PGP, "                    pgpobj = (self if self._key is None else PGPKey()) | pkt\n",
+  "                    if self._key is None:\n                        owner = self\n                    else:\n                        owner = PGPKey()\n                    pgpobj = owner | pkt\n")
+M('C14', 'attach-to-self', PGP, ATTACH, "                [ operator.ior(self, PGPSignature() | sig) for sig in group if not isinstance(sig, Opaque) ]\n", 'C14.3')
+M('C14', 'attach-loop-stops-at-opaque', PGP, ATTACH,
+  "                for sig in group:\n                    if isinstance(sig, Opaque):\n                        break\n                    pgpobj |= PGPSignature() | sig\n", 'C14.3')
+M('C14', 'attach-only-certifications', PGP, ATTACH,
+  "                for sig in group:\n                    if isinstance(sig, Opaque) or sig.sigtype == SignatureType.Timestamp:\n                        continue\n                    pgpobj |= PGPSignature() | sig\n", 'C14.3')
+M('C14', 'user-attribute-groups-skipped', PGP, GROUPS,
+  "            for group in iter(group for _, group in itertools.groupby(getpkt, key=pktgrouper()) if not _.endswith(('Opaque', 'UserAttribute'))):\n                pkt = next(group)\n", 'C14.3')
+M('C14', 'opaque-groups-kept', PGP, GROUPS,
+  "            for group in iter(group for _, group in itertools.groupby(getpkt, key=pktgrouper())):\n                pkt = next(group)\n", 'C14.3')
+M('C14', 'trust-filter-marker', PGP, TRUST, "        getpkt = filter(lambda p: p.header.tag != PacketTag.Marker, iter(functools.partial(_getpkt, data), None))\n", 'C14.3')
+M('C14', 'trust-filter-also-drops-attributes', PGP, TRUST,
+  "        getpkt = filter(lambda p: p.header.tag not in (PacketTag.Trust, PacketTag.UserAttribute), iter(functools.partial(_getpkt, data), None))\n", 'C14.3')
+M('C14', 'grouper-class-name-only', PGP, GROUPER,
+  "                    if pkt.header.tag != PacketTag.Signature:\n                        self.last = pkt.__class__.__name__\n                    return self.last\n", 'C14.3')
+M('C14', 'grouper-splits-on-trust', PGP, GROUPER,
+  "                    if pkt.header.tag not in (PacketTag.Signature, PacketTag.UserAttribute):\n                        self.last = '{:02X}_{:s}'.format(id(pkt), pkt.__class__.__name__)\n                    return self.last\n", 'C14.3')
+M('C14', 'subkey-to-first-key', PGP, "                    else:\n                        keys[next(reversed(keys))] |= pgpobj\n", "                    else:\n                        keys[next(iter(keys))] |= pgpobj\n", 'C14.3')
+M('C14', 'subkey-filed-as-key', PGP, "                    if pgpobj.is_primary:\n                        keys[(pgpobj.fingerprint.keyid, pgpobj.is_public)] = pgpobj\n\n                    else:\n                        keys[next(reversed(keys))] |= pgpobj\n",
+  "                    keys[(pgpobj.fingerprint.keyid, pgpobj.is_public)] = pgpobj\n", 'C14.3')
+# ---- C14.4
+KEYCOPY_SIGS = "        for sig in self._signatures:\n            if sig.embedded:\n                # embedded signatures don't need to be explicitly copied\n                continue\n\n            key |= copy.copy(sig)\n"
+T('C14', 'twin-copy-values-and-guard', PGP, "        for id, subkey in self._children.items():\n            key |= copy.copy(subkey)\n\n" + KEYCOPY_SIGS,
+  "        for subkey in self._children.values():\n            key |= copy.copy(subkey)\n\n        for sig in self._signatures:\n            if not sig.embedded:\n                key |= copy.copy(sig)\n")
+T('C14', 'twin-copy-mapped', PGP, "        for uid in self._uids:\n            key |= copy.copy(uid)\n", "        for uidcopy in [copy.copy(u) for u in self._uids]:\n            key |= uidcopy\n")
+T('C14', 'twin-copy-renamed-result', PGP, "        key = super(PGPKey, self).__copy__()\n        key._key = copy.copy(self._key)\n\n        for uid in self._uids:\n            key |= copy.copy(uid)\n\n        for id, subkey in self._children.items():\n            key |= copy.copy(subkey)\n\n" + KEYCOPY_SIGS + "\n        return key\n",
+  "        dup = super().__copy__()\n        keypkt = copy.copy(self._key)\n        dup._key = keypkt\n\n        for uid in self._uids:\n            dup |= copy.copy(uid)\n\n        for subkey in self._children.values():\n            dup |= copy.copy(subkey)\n\n"
+  "        for sig in (s for s in self._signatures if not s.embedded):\n            dup |= copy.copy(sig)\n\n        return dup\n")
+M('C14', 'copy-skips-nonexportable', PGP, KEYCOPY_SIGS, "        for sig in self._signatures:\n            if sig.embedded or not sig.exportable:\n                continue\n\n            key |= copy.copy(sig)\n", 'C14.4')
+M('C14', 'copy-shares-signatures', PGP, KEYCOPY_SIGS, "        for sig in self._signatures:\n            if sig.embedded:\n                continue\n\n            key |= sig\n", 'C14.4')
+M('C14', 'copy-only-self-certified-uids', PGP, "        for uid in self._uids:\n            key |= copy.copy(uid)\n", "        for uid in self._uids:\n            if uid.selfsig is None:\n                continue\n            key |= copy.copy(uid)\n", 'C14.4')
+M('C14', 'uid-copy-shares-packet', PGP, "        uid |= copy.copy(self._uid)\n        for sig in self._signatures:", "        uid |= self._uid\n        for sig in self._signatures:", 'C14.4')
+M('C14', 'sig-copy-shares-packet', PGP, "        sig |= copy.copy(self._signature)\n        return sig", "        sig |= self._signature\n        return sig", 'C14.4')
+T('C14', 'twin-uid-copy-renamed', PGP, "        uid = PGPUID()\n        uid |= copy.copy(self._uid)\n        for sig in self._signatures:\n            uid |= copy.copy(sig)\n        return uid",
+  "        dup = PGPUID()\n        pkt = copy.copy(self._uid)\n        dup |= pkt\n        for certification in self._signatures:\n            dup |= copy.copy(certification)\n        return dup")
+# ---- C14.5
+EMBED = ("            if other.type == SignatureType.Subkey_Binding:\n                for es in iter(pkb for pkb in other._signature.subpackets['EmbeddedSignature']):\n"
+         "                    esig = PGPSignature() | es\n                    esig._parent = other\n                    self._signatures.insort(esig)\n")
+T('C14', 'twin-embedded-helper-method', PGP, "            self._signatures.insort(other)\n\n            # if this is a subkey binding signature that has embedded primary key binding signatures, add them to parent\n" + EMBED,
+  "            self._signatures.insort(other)\n            self._attach_embedded_signatures(other)\n",
+  more=[(PGP, "    def __or__(self, other, from_sib=False):\n        if isinstance(other, Key) and self._key is None:",
+         "    def _attach_embedded_signatures(self, binding):\n        if binding.type != SignatureType.Subkey_Binding:\n            return\n\n"
+         "        for sigpkt in binding._signature.subpackets['EmbeddedSignature']:\n            embedded = PGPSignature() | sigpkt\n            embedded._parent = binding\n            self._signatures.insort(embedded)\n\n"
+         "    def __or__(self, other, from_sib=False):\n        if isinstance(other, Key) and self._key is None:")])
+T('C14', 'twin-embedded-plain-loop', PGP, EMBED,
+  "            if SignatureType.Subkey_Binding == other.type:\n                for crosssig in other._signature.subpackets['EmbeddedSignature']:\n"
+  "                    pkb = PGPSignature() | crosssig\n                    self._signatures.insort(pkb)\n                    pkb._parent = other\n")
+T('C14', 'twin-uid-or-merged-arms', PGP, "        if isinstance(other, UserID) and self._uid is None:\n            self._uid = other\n            return self\n\n        if isinstance(other, UserAttribute) and self._uid is None:\n            self._uid = other\n            return self\n",
+  "        if isinstance(other, (UserID, UserAttribute)) and self._uid is None:\n            self._uid = other\n            return self\n")
+M('C14', 'embedded-parent-is-key', PGP, "                    esig._parent = other\n", "                    esig._parent = self\n", 'C14.5')
+M('C14', 'embedded-not-inserted', PGP, "                    esig._parent = other\n                    self._signatures.insort(esig)\n", "                    esig._parent = other\n", 'C14.5')
+M('C14', 'embedded-on-key-revocation', PGP, "            if other.type == SignatureType.Subkey_Binding:\n                for es in iter(pkb", "            if other.type == SignatureType.SubkeyRevocation:\n                for es in iter(pkb", 'C14.5')
+M('C14', 'embedded-first-only', PGP, "                for es in iter(pkb for pkb in other._signature.subpackets['EmbeddedSignature']):", "                for es in other._signature.subpackets['EmbeddedSignature'][:1]:", 'C14.5')
+M('C14', 'subkey-under-parent-keyid', PGP, "            self._children[other.fingerprint.keyid] = other\n", "            self._children[self.fingerprint.keyid] = other\n", 'C14.5')
+M('C14', 'uid-not-linked', PGP, "            other._parent = weakref.ref(self)\n            self._uids.insort(other)\n", "            self._uids.insort(other)\n", 'C14.5')
+M('C14', 'uid-signature-appended-left', PGP, "        if isinstance(other, PGPSignature):\n            self._signatures.insort(other)\n            if self.parent is not None and self in self.parent._uids:", "        if isinstance(other, PGPSignature):\n            self._signatures.appendleft(other)\n            if self.parent is not None and self in self.parent._uids:", 'C14.5')
+
+# ---- C20
+OPSLOOP = ("            for sig in reversed(self._signatures):\n                ops = sig.make_onepass()\n                # only the last one-pass packet, the one directly before the signed data, is flagged\n"
+           "                if sig is self._signatures[0]:\n                    ops.nested = True\n                yield ops\n")
+T('C20', 'twin-iter-helper-generator', PGP, "    def __iter__(self):\n        if self.type == 'cleartext':\n            for sig in self._signatures:\n                yield sig\n\n        elif self.is_encrypted:\n            for sig in self._signatures:\n                yield sig\n            for pkt in self._sessionkeys:\n                yield pkt\n            yield self.message\n\n        else:\n            ##TODO: is it worth coming up with a way of disabling one-pass signing?\n" + OPSLOOP +
+  "\n            yield self._message\n            if self._mdc is not None:  # pragma: no cover\n                yield self._mdc\n\n            for sig in self._signatures:\n                yield sig\n",
+  "    def _onepass_headers(self):\n        for sig in reversed(self._signatures):\n            ops = sig.make_onepass()\n            if sig is self._signatures[0]:\n                ops.nested = True\n            yield ops\n\n"
+  "    def __iter__(self):\n        if self.type == 'cleartext':\n            for sig in self._signatures:\n                yield sig\n            return\n\n        if self.is_encrypted:\n            for sig in self._signatures:\n                yield sig\n            for pkt in self._sessionkeys:\n                yield pkt\n            yield self.message\n            return\n\n"
+  "        for ops in self._onepass_headers():\n            yield ops\n\n        yield self._message\n        if self._mdc is not None:  # pragma: no cover\n            yield self._mdc\n\n        for sig in self._signatures:\n            yield sig\n")
+T('C20', 'twin-flag-operands-swapped', PGP, OPSLOOP,
+  "            oldest = self._signatures[0]\n            for signature in reversed(self._signatures):\n                header = signature.make_onepass()\n                if oldest is signature:\n                    header.nested = True\n                yield header\n")
+T('C20', 'twin-flag-assigned-condition', PGP, OPSLOOP,
+  "            for sig in reversed(self._signatures):\n                ops = sig.make_onepass()\n                ops.nested = sig is self._signatures[0]\n                yield ops\n")
+T('C20', 'twin-flag-not-last-else', PGP, OPSLOOP,
+  "            for sig in reversed(self._signatures):\n                ops = sig.make_onepass()\n                if sig is not self._signatures[0]:\n                    pass\n                else:\n                    ops.nested = True\n                yield ops\n")
+M('C20', 'flag-on-creation-time-tie', PGP, OPSLOOP.split('                if sig')[0] + "                if sig.created == self._signatures[0].created:\n                    ops.nested = True\n                yield ops\n" if False else
+  "                if sig is self._signatures[0]:\n                    ops.nested = True\n                yield ops", "                if sig.created == self._signatures[0].created:\n                    ops.nested = True\n                yield ops", 'C20.4')
+M('C20', 'flag-set-on-other-packet', PGP, "                if sig is self._signatures[0]:\n                    ops.nested = True\n                yield ops", "                if sig is self._signatures[0]:\n                    sig.make_onepass().nested = True\n                yield ops", 'C20.4')
+M('C20', 'flag-assigned-negated', PGP, OPSLOOP,
+  "            for sig in reversed(self._signatures):\n                ops = sig.make_onepass()\n                ops.nested = sig is not self._signatures[0]\n                yield ops\n", 'C20.4')
+M('C20', 'ops-from-first-signature', PGP, "            for sig in reversed(self._signatures):\n                ops = sig.make_onepass()\n", "            for sig in reversed(self._signatures):\n                ops = self._signatures[0].make_onepass()\n", 'C20')
+M('C20', 'nested-default-true', PK, "        self._signer = b'\\x00' * 8\n        self.nested = False", "        self._signer = b'\\x00' * 8\n        self.nested = True", 'C20.4')
+M('C20', 'onepass-sigtype-constant', PGP, "        onepass.sigtype = self.type\n", "        onepass.sigtype = SignatureType.BinaryDocument\n", 'C20.3')
+T('C20', 'twin-onepass-renamed', PGP, "        onepass = OnePassSignatureV3()\n        onepass.sigtype = self.type\n        onepass.halg = self.hash_algorithm\n        onepass.pubalg = self.key_algorithm\n        onepass.signer = self.signer\n        onepass.update_hlen()\n        return onepass",
+  "        ops = OnePassSignatureV3()\n        keyid = self.signer\n        ops.signer = keyid\n        ops.pubalg = self.key_algorithm\n        ops.halg = self.hash_algorithm\n        ops.sigtype = self.type\n        ops.update_hlen()\n        return ops")
+MSGBYTES = "        _bytes = bytearray()\n        for pkt in self:\n            _bytes += pkt.__bytearray__()\n        return _bytes\n\n    def __str__(self):\n        if self.type == 'cleartext':"
+T('C20', 'twin-message-bytes-join', PGP, MSGBYTES, "        return bytearray().join(pkt.__bytearray__() for pkt in self)\n\n    def __str__(self):\n        if self.type == 'cleartext':")
+T('C20', 'twin-compressed-bytes-join', PK, "        _pb = bytearray()\n        for pkt in self.packets:\n            _pb += pkt.__bytearray__()\n        _bytes += self.calg.compress(bytes(_pb))",
+  "        _pb = b''.join(pkt.__bytearray__() for pkt in self.packets)\n        _bytes += self.calg.compress(_pb)")
+T('C20', 'twin-ops-bytes-one-append', PK, "        _bytes += bytearray([self.sigtype])\n        _bytes += bytearray([self.halg])\n        _bytes += bytearray([self.pubalg])\n        _bytes += binascii.unhexlify(self.signer.encode(\"latin-1\"))\n        _bytes += bytearray([int(self.nested)])",
+  "        _bytes += bytearray([self.sigtype, self.halg, self.pubalg])\n        _bytes += binascii.unhexlify(self.signer.encode(\"latin-1\")) + bytearray([int(self.nested)])")
+T('C20', 'twin-compressed-object-renamed', PGP, "            comp = CompressedData()\n            comp.calg = self._compression\n            comp.packets = [pkt for pkt in self]\n            comp.update_hlen()\n            return comp.__bytearray__()",
+  "            container = CompressedData()\n            container.packets = list(self)\n            container.calg = self._compression\n            container.update_hlen()\n            return container.__bytearray__()")
+M('C20', 'compressed-hlen-before-packets', PGP, "            comp.packets = [pkt for pkt in self]\n            comp.update_hlen()\n", "            comp.update_hlen()\n            comp.packets = [pkt for pkt in self]\n", 'C20.5')
+M('C20', 'message-bytes-skip-mdc', PGP, MSGBYTES, "        return bytearray().join(pkt.__bytearray__() for pkt in self if pkt is not self._mdc)\n\n    def __str__(self):\n        if self.type == 'cleartext':", 'C20.5')
+T('C20', 'twin-is-compressed-if-form', PGP, "        return self._compression != CompressionAlgorithm.Uncompressed", "        if self._compression == CompressionAlgorithm.Uncompressed:\n            return False\n        return True")
+M('C20', 'is-compressed-zip-only', PGP, "        return self._compression != CompressionAlgorithm.Uncompressed", "        return self._compression == CompressionAlgorithm.ZIP", 'C20.5')
+ORCOMP = "            self._compression = other.calg\n            for pkt in other.packets:\n                self |= pkt\n            return self\n"
+T('C20', 'twin-or-compressed-renamed', PGP, ORCOMP, "            algorithm = other.calg\n            for inner in other.packets:\n                self |= inner\n            self._compression = algorithm\n            return self\n")
+M('C20', 'or-compressed-first-packet-only', PGP, ORCOMP, "            self._compression = other.calg\n            for pkt in other.packets[:1]:\n                self |= pkt\n            return self\n", 'C20.5')
+M('C20', 'or-compressed-skips-signatures', PGP, ORCOMP, "            self._compression = other.calg\n            for pkt in other.packets:\n                if isinstance(pkt, Signature):\n                    continue\n                self |= pkt\n            return self\n", 'C20.5')
+M('C20', 'compressed-packet-first-only', PK, "        for pkt in self.packets:\n            _pb += pkt.__bytearray__()\n        _bytes += self.calg.compress(bytes(_pb))", "        for pkt in self.packets[:1]:\n            _pb += pkt.__bytearray__()\n        _bytes += self.calg.compress(bytes(_pb))", 'C20.5')
+LITTAIL = "        self._contents = packet[:self.header.length - (6 + fnl)]\n        del packet[:self.header.length - (6 + fnl)]\n"
+T('C20', 'twin-literal-length-temporary', PK, LITTAIL, "        clen = self.header.length - (6 + fnl)\n        self._contents = packet[:clen]\n        del packet[:clen]\n")
+T('C20', 'twin-literal-length-respelled', PK, "        fnl = packet[0]\n        del packet[0]\n\n        self.filename = packet[:fnl].decode()\n        del packet[:fnl]\n\n        self.mtime = packet[:4]\n        del packet[:4]\n\n" + LITTAIL,
+  "        namelen = packet[0]\n        del packet[0]\n\n        self.filename = packet[:namelen].decode('utf-8')\n        del packet[:namelen]\n\n        self.mtime = packet[:4]\n        del packet[:4]\n\n"
+  "        remaining = self.header.length - namelen - 6\n        self._contents = packet[:remaining]\n        del packet[:remaining]\n")
+M('C20', 'literal-contents-len-5', PK, LITTAIL, "        self._contents = packet[:self.header.length - (5 + fnl)]\n        del packet[:self.header.length - (5 + fnl)]\n", 'C20.6')
+M('C20', 'literal-reader-latin1', PK, "        self.filename = packet[:fnl].decode()\n", "        self.filename = packet[:fnl].decode('latin-1')\n", 'C20.6')
+M('C20', 'literal-time-before-name', PK, "        self.filename = packet[:fnl].decode()\n        del packet[:fnl]\n\n        self.mtime = packet[:4]\n        del packet[:4]\n", "        self.mtime = packet[:4]\n        del packet[:4]\n\n        self.filename = packet[:fnl].decode()\n        del packet[:fnl]\n", 'C20.6')
+M('C20', 'ops-reader-pubalg-before-halg', PK, "        self.halg = packet[0]\n        del packet[0]\n\n        self.pubalg = packet[0]\n        del packet[0]\n\n        self.signer = packet[:8]", "        self.pubalg = packet[0]\n        del packet[0]\n\n        self.halg = packet[0]\n        del packet[0]\n\n        self.signer = packet[:8]", 'C20.6')
+M('C20', 'ops-reader-flag-inverted', PK, "        self.nested = (packet[0] == 1)\n", "        self.nested = (packet[0] == 0)\n", 'C20.6')
+T('C20', 'twin-ops-reader-renamed-buffer', PK, "    def parse(self, packet):\n        super(OnePassSignatureV3, self).parse(packet)\n        self.sigtype = packet[0]\n        del packet[0]\n\n        self.halg = packet[0]\n        del packet[0]\n\n        self.pubalg = packet[0]\n        del packet[0]\n\n        self.signer = packet[:8]\n        del packet[:8]\n\n        self.nested = (packet[0] == 1)\n        del packet[0]\n",
+  "    def parse(self, buf):\n        super().parse(buf)\n        self.sigtype = buf[0]\n        del buf[0]\n\n        self.halg = buf[0]\n        del buf[0]\n\n        self.pubalg = buf[0]\n        del buf[0]\n\n        self.signer = buf[:8]\n        del buf[:8]\n\n        self.nested = buf[0] != 0\n        del buf[0]\n")
+NEWLIT = ("            lit = LiteralData()\n            lit._contents = bytearray(msg.text_to_bytes(message))\n            lit.filename = '_CONSOLE' if sensitive else os.path.basename(filename)\n"
+          "            lit.mtime = mtime\n            lit.format = format\n")
+T('C20', 'twin-new-literal-renamed', PGP, NEWLIT + "\n            # if cls.is_ascii(message):\n            #     lit.format = 't'\n\n            lit.update_hlen()\n\n            msg |= lit\n",
+  "            body = msg.text_to_bytes(message)\n            if sensitive:\n                litname = '_CONSOLE'\n            else:\n                litname = os.path.basename(filename)\n            literal = LiteralData()\n            literal._contents = bytearray(body)\n"
+  "            literal.filename = litname\n            literal.mtime = mtime\n            literal.format = format\n\n            literal.update_hlen()\n\n            msg |= literal\n")
+M('C20', 'new-compression-forced-zip', PGP, "            msg |= lit\n            msg._compression = compression\n", "            msg |= lit\n            msg._compression = CompressionAlgorithm.ZIP\n", 'C20.6')
+M('C20', 'new-sensitive-inverted', PGP, "            lit.filename = '_CONSOLE' if sensitive else os.path.basename(filename)", "            lit.filename = os.path.basename(filename) if sensitive else '_CONSOLE'", 'C20.6')
+M('C20', 'new-no-update-hlen', PGP, "            lit.update_hlen()\n\n            msg |= lit\n", "            msg |= lit\n", 'C20.6')
+T('C20', 'twin-trailing-yield-from', PGP, "            for sig in self._signatures:\n                yield sig\n\n    def __or__(self, other):\n        if isinstance(other, Marker):", "            yield from self._signatures\n\n    def __or__(self, other):\n        if isinstance(other, Marker):")
+T('C20', 'twin-ops-reversed-copy', PGP, "            for sig in reversed(self._signatures):\n                ops = sig.make_onepass()\n", "            for sig in reversed(list(self._signatures)):\n                ops = sig.make_onepass()\n")
+M('C20', 'trailing-sigs-yield-from-reversed', PGP, "            for sig in self._signatures:\n                yield sig\n\n    def __or__(self, other):\n        if isinstance(other, Marker):", "            yield from reversed(self._signatures)\n\n    def __or__(self, other):\n        if isinstance(other, Marker):", 'C20.2')
+M('C20', 'flag-dropped', PGP, "                if sig is self._signatures[0]:\n                    ops.nested = True\n                yield ops", "                yield ops", 'C20.4')
+T('C14', 'twin-export-extend', PGP, KEYSIGS, "        for sig in iter(s for s in self._signatures if not s.embedded and s.exportable):\n            _bytes.extend(sig.__bytearray__())\n")
+T('C14', 'twin-stream-inlined', PGP, TRUST + "\n        def pktgrouper():", "        def pktgrouper():",
+  more=[(PGP, "itertools.groupby(getpkt, key=pktgrouper())", "itertools.groupby(filter(lambda p: p.header.tag != PacketTag.Trust, iter(functools.partial(_getpkt, data), None)), key=pktgrouper())")])
+T('C14', 'twin-copy-binary-or', PGP, "        for uid in self._uids:\n            key |= copy.copy(uid)\n", "        for uid in self._uids:\n            key = key | copy.copy(uid)\n")
+T('C20', 'twin-new-option-bool', PGP, "        sensitive = kwargs.pop('sensitive', False)\n", "        sensitive = bool(kwargs.pop('sensitive', False))\n")
+T('C14', 'twin-grouper-closure', PGP, "        def pktgrouper():\n            class PktGrouper(object):\n                def __init__(self):\n                    self.last = None\n\n                def __call__(self, pkt):\n" + GROUPER + "            return PktGrouper()\n",
+  "        grouplabel = [None]\n\n        def grouper(pkt):\n            if pkt.header.tag != PacketTag.Signature:\n                grouplabel[0] = '{:02X}_{:s}'.format(id(pkt), pkt.__class__.__name__)\n            return grouplabel[0]\n",
+  more=[(PGP, "itertools.groupby(getpkt, key=pktgrouper())", "itertools.groupby(getpkt, key=grouper)")])
+M('C14', 'grouper-closure-every-packet', PGP, "        def pktgrouper():\n            class PktGrouper(object):\n                def __init__(self):\n                    self.last = None\n\n                def __call__(self, pkt):\n" + GROUPER + "            return PktGrouper()\n",
+  "        grouplabel = [None]\n\n        def grouper(pkt):\n            grouplabel[0] = '{:02X}_{:s}'.format(id(pkt), pkt.__class__.__name__)\n            return grouplabel[0]\n", 'C14.3',
+  more=[(PGP, "itertools.groupby(getpkt, key=pktgrouper())", "itertools.groupby(getpkt, key=grouper)")])
+T('C14', 'twin-copy-chained', PGP, "        for uid in self._uids:\n            key |= copy.copy(uid)\n\n        for id, subkey in self._children.items():\n            key |= copy.copy(subkey)\n",
+  "        for part in itertools.chain(self._uids, self._children.values()):\n            key |= copy.copy(part)\n")
+T('C14', 'twin-export-helper-filter', PGP, UIDSIGS, "            for s in self._exportable_only(uid._signatures):\n                _bytes += s.__bytearray__()\n",
+  more=[(PGP, "    def __bytearray__(self):\n        _bytes = bytearray()\n        # us\n", "    @staticmethod\n    def _exportable_only(sigs):\n        return [s for s in sigs if s.exportable]\n\n    def __bytearray__(self):\n        _bytes = bytearray()\n        # us\n")])
+M('C14', 'copy-chained-without-subkeys', PGP, "        for uid in self._uids:\n            key |= copy.copy(uid)\n\n        for id, subkey in self._children.items():\n            key |= copy.copy(subkey)\n",
+  "        for part in itertools.chain(self._uids):\n            key |= copy.copy(part)\n", 'C14.4')
+T('C14', 'twin-copy-subkeys-by-keyid', PGP, "        for id, subkey in self._children.items():\n            key |= copy.copy(subkey)\n", "        for keyid in self._children:\n            key |= copy.copy(self._children[keyid])\n")
+M('C14', 'copy-subkey-ids-instead-of-subkeys', PGP, "        for id, subkey in self._children.items():\n            key |= copy.copy(subkey)\n", "        for subkey in self._children:\n            key |= copy.copy(subkey)\n", 'C14.4')
+T('C14', 'twin-export-subkeys-by-keyid', PGP, "        for sk in self._children.values():\n            _bytes += sk.__bytearray__()\n\n        return _bytes",
+  "        for keyid in self._children:\n            _bytes += self._children[keyid].__bytearray__()\n\n        return _bytes")
+M('C14', 'export-first-subkey-only', PGP, "        for sk in self._children.values():\n            _bytes += sk.__bytearray__()\n\n        return _bytes",
+  "        for sk in list(self._children.values())[:1]:\n            _bytes += sk.__bytearray__()\n\n        return _bytes", 'C14.1')
